@@ -43,7 +43,8 @@ variables
   waitq  = [vtbl \in Tables |-> <<>>],
   woken  = {},
   ev = NoEv,
-  result = [proc \in Thread |-> "-"];
+  result = [proc \in Thread |-> "-"],
+  rdata  = [proc \in Thread |-> "-"];          \* payload of a result (content / version name)
 
 define {
   \* an event: thread, operation, path class(es), outcome (a string) and the value read (a
@@ -52,6 +53,9 @@ define {
   Ev(t, op, a, b, out) == EvV(t, op, a, b, out, <<>>)
   StatCid(cc_) == IF ~cref[cc_].has THEN "N" ELSE IF cref[cc_].pids = <<>> THEN "F0" ELSE "F"
   InL(vtbl, vi)  == InSeq(vi, locked[vtbl])
+  Here(kind, pp, g) == IF kind = "doc" THEN doc[pp][g] # None ELSE P(kind, pp \o "/" \o g) \in mark
+  NextKind(kind) == CASE kind = "doc" -> "docdel" [] kind = "docdel" -> "docdel2" [] OTHER -> "docdel3"
+  Suffix(kind) == CASE kind = "doc" -> "" [] kind = "docdel" -> "_delete" [] OTHER -> "_delete_delete"
   AllDone     == \A proc \in Thread : pc[proc] = "Done"
   Abs         == [obj |-> obj, pref |-> pref, cref |-> cref, doc |-> doc,
                   junk |-> Cardinality(mark)]
@@ -159,6 +163,7 @@ procedure tag(vp, vc)
  tgfin: call release("cid", vc);
  tg9: call release("refpid", vp);
  tg10: result[self] := vout;
+      if (vout = "ok" /\ Job[self].op = "store") { rdata[self] := vc; };
       return;
 }
 
@@ -305,27 +310,99 @@ procedure delete(vp)
       return;
 }
 
-\* ---- delete_metadata(vp) (all formats): list, then per document claim / mark / release ----
+\* ---- delete_metadata(p) (all formats): list the pid's directory, probe every entry, then per
+\* entry claim / mark / release, finally remove the markers.  The listing contains whatever
+\* is in the directory at that moment - including another deleter's *_delete markers.
 procedure delmeta_all(vp)
-  variables vtodo = {}, vmarked = {}, vf = "-"; {
- dm1: vtodo := {vff \in Fmt : doc[vp][vff] # None};   \* os.listdir: a directory read, not logged
+  variables vtodo = {}, vkeepl = {}, vmarked = {}, ve = <<"-", "-">>; {
+ dm1: vtodo := {<<"doc", vff>> : vff \in {g \in Fmt : doc[vp][g] # None}}
+               \cup {<<"docdel", vff>> : vff \in {g \in Fmt : P("docdel", vp \o "/" \o g) \in mark}}
+               \cup {<<"docdel2", vff>> : vff \in {g \in Fmt : P("docdel2", vp \o "/" \o g) \in mark}};
+      \* (os.listdir: a directory read, not logged)
  dm2: while (vtodo # {}) {
-        with (vff \in vtodo) { vf := vff; vtodo := vtodo \ {vff}; };
- dm3:   ev := Ev(self, "stat", P("doc", vp \o "/" \o vf), NoPath, FN(doc[vp][vf] # None));
-        if (doc[vp][vf] # None) {
- dm4:     call claim("doc", vp \o "/" \o vf);
- dm5:     ev := Ev(self, "stat", P("docdel", vp \o "/" \o vf), NoPath, FN(P("docdel", vp \o "/" \o vf) \in mark));
- dm6:     if (doc[vp][vf] = None) { ev := Ev(self, "rename", P("doc", vp \o "/" \o vf), P("docdel", vp \o "/" \o vf), "!fnf"); }
-          else { doc[vp][vf] := None; mark := mark \cup {P("docdel", vp \o "/" \o vf)}; vmarked := vmarked \cup {vf};
-                 ev := Ev(self, "rename", P("doc", vp \o "/" \o vf), P("docdel", vp \o "/" \o vf), "ok"); };
- dm7:     call release("doc", vp \o "/" \o vf);
+        with (vx0 \in vtodo) { ve := vx0; vtodo := vtodo \ {vx0}; };
+ dm3:   if (Here(ve[1], vp, ve[2])) { vkeepl := vkeepl \cup {ve}; };
+        ev := Ev(self, "stat", P(ve[1], vp \o "/" \o ve[2]), NoPath, FN(Here(ve[1], vp, ve[2])));
+      };
+ dm4: while (vkeepl # {}) {
+        with (vx0 \in vkeepl) { ve := vx0; vkeepl := vkeepl \ {vx0}; };
+ dm5:   call claim("doc", vp \o "/" \o ve[2] \o Suffix(ve[1]));
+ dm6:   ev := Ev(self, "stat", P(NextKind(ve[1]), vp \o "/" \o ve[2]), NoPath,
+                 FN(P(NextKind(ve[1]), vp \o "/" \o ve[2]) \in mark));
+ dm7:   if (Here(ve[1], vp, ve[2])) {
+          if (ve[1] = "doc") { doc[vp][ve[2]] := None; }
+          else { mark := mark \ {P(ve[1], vp \o "/" \o ve[2])}; };
+ dm7b:    mark := mark \cup {P(NextKind(ve[1]), vp \o "/" \o ve[2])};
+          vmarked := vmarked \cup {<<NextKind(ve[1]), ve[2]>>};
+          ev := Ev(self, "rename", P(ve[1], vp \o "/" \o ve[2]), P(NextKind(ve[1]), vp \o "/" \o ve[2]), "ok");
+        } else {
+          \* vanished after it was listed: os.rename fails, shutil.move falls back to copying
+          \* (islink / isdir / samefile probes, then open(src) raises FileNotFoundError), tolerated
+          ev := Ev(self, "rename", P(ve[1], vp \o "/" \o ve[2]), P(NextKind(ve[1]), vp \o "/" \o ve[2]), "!fnf");
+ mf1:     ev := Ev(self, "stat", P(ve[1], vp \o "/" \o ve[2]), NoPath, FN(Here(ve[1], vp, ve[2])));
+ mf2:     ev := Ev(self, "stat", P(ve[1], vp \o "/" \o ve[2]), NoPath, FN(Here(ve[1], vp, ve[2])));
+ mf3:     ev := Ev(self, "stat", P(NextKind(ve[1]), vp \o "/" \o ve[2]), NoPath,
+                   FN(P(NextKind(ve[1]), vp \o "/" \o ve[2]) \in mark));
+ mf4:     ev := Ev(self, "stat", P(ve[1], vp \o "/" \o ve[2]), NoPath, FN(Here(ve[1], vp, ve[2])));
+ mf5:     ev := Ev(self, "stat", P(ve[1], vp \o "/" \o ve[2]), NoPath, FN(Here(ve[1], vp, ve[2])));
+ mf6:     ev := Ev(self, "stat", P(NextKind(ve[1]), vp \o "/" \o ve[2]), NoPath,
+                   FN(P(NextKind(ve[1]), vp \o "/" \o ve[2]) \in mark));
+ mf7:     if (ve[1] = "doc") { ev := Ev(self, "read", P(ve[1], vp \o "/" \o ve[2]), NoPath, "!fnf"); };
         };
+ dm8:   call release("doc", vp \o "/" \o ve[2] \o Suffix(ve[1]));
       };
- dm8: while (vmarked # {}) {
-        with (vff \in vmarked) { mark := mark \ {P("docdel", vp \o "/" \o vff)}; vmarked := vmarked \ {vff};
-                               ev := Ev(self, "remove", P("docdel", vp \o "/" \o vff), NoPath, "ok"); };
+ dm9: while (vmarked # {}) {
+        with (vx0 \in vmarked) { ve := vx0; vmarked := vmarked \ {vx0}; };
+ dm10:  if (P(ve[1], vp \o "/" \o ve[2]) \in mark) {
+          mark := mark \ {P(ve[1], vp \o "/" \o ve[2])};
+          ev := Ev(self, "remove", P(ve[1], vp \o "/" \o ve[2]), NoPath, "ok");
+        } else { ev := Ev(self, "remove", P(ve[1], vp \o "/" \o ve[2]), NoPath, "!fnf"); };
       };
- dm9: return;
+ dm11: return;
+}
+
+\* ---- store_metadata(p, f, v): claim the document name, stage (local), move over the name ----
+procedure putmeta(vp, vf, vver) {
+ pm1: call claim("doc", vp \o "/" \o vf);
+ pm2: ev := Ev(self, "stat", P("doc", vp \o "/" \o vf), NoPath, FN(doc[vp][vf] # None));
+ pm3: doc[vp][vf] := vver;
+      ev := Ev(self, "rename", P("tmp", "metadata"), P("doc", vp \o "/" \o vf), "ok");
+ pm4: call release("doc", vp \o "/" \o vf);
+ pm5: result[self] := "ok";
+      return;
+}
+\* ---- retrieve_metadata(p, f): probe, probe again inside _open, open and read (no lock) ----
+procedure getmeta(vp, vf)
+  variables vx = FALSE; {
+ gm1: vx := doc[vp][vf] # None; ev := Ev(self, "stat", P("doc", vp \o "/" \o vf), NoPath, FN(vx));
+      if (~vx) { result[self] := "notfound"; goto gm4; };
+ gm2: vx := doc[vp][vf] # None; ev := Ev(self, "stat", P("doc", vp \o "/" \o vf), NoPath, FN(vx));
+      if (~vx) { result[self] := "notfound"; goto gm4; };
+ gm3: if (doc[vp][vf] = None) { ev := Ev(self, "read", P("doc", vp \o "/" \o vf), NoPath, "!fnf");
+                                result[self] := "notfound"; }
+      else { ev := EvV(self, "read", P("doc", vp \o "/" \o vf), NoPath, "ok", <<doc[vp][vf]>>);
+             result[self] := "ok"; rdata[self] := doc[vp][vf]; };
+ gm4: return;
+}
+\* ---- delete_metadata(p, f): claim the document name, probe, remove ----
+procedure delmeta_one(vp, vf)
+  variables vx = FALSE; {
+ do1: call claim("doc", vp \o "/" \o vf);
+ do2: vx := doc[vp][vf] # None; ev := Ev(self, "stat", P("doc", vp \o "/" \o vf), NoPath, FN(vx));
+      if (vx) {
+ do3:   if (doc[vp][vf] = None) { ev := Ev(self, "remove", P("doc", vp \o "/" \o vf), NoPath, "!fnf"); result[self] := "ioerror"; }
+        else { doc[vp][vf] := None; ev := Ev(self, "remove", P("doc", vp \o "/" \o vf), NoPath, "ok"); };
+      } else {
+ do4:   ev := Ev(self, "stat", P("doc", vp \o "/" \o vf), NoPath, FN(doc[vp][vf] # None));
+      };
+ do5: call release("doc", vp \o "/" \o vf);
+ do6: if (result[self] = "-") { result[self] := "ok"; };
+      return;
+}
+procedure delmeta_top(vp) {
+ dt1: call delmeta_all(vp);
+ dt2: result[self] := "ok";
+      return;
 }
 
 fair process (proc \in Thread) {
@@ -335,47 +412,67 @@ fair process (proc \in Thread) {
       else if (Job[self].op = "delete") { call delete(Job[self].pid); }
       else if (Job[self].op = "dii") {
         if (Job[self].val = "good") { result[self] := "ok"; } else { call diibad(Job[self].c); };
+      }
+      else if (Job[self].op = "putmeta") { call putmeta(Job[self].pid, EffFmt(Job[self].fmt), Job[self].ver); }
+      else if (Job[self].op = "getmeta") { call getmeta(Job[self].pid, EffFmt(Job[self].fmt)); }
+      else if (Job[self].op = "delmeta") {
+        if (Job[self].fmt = NoFmt) { call delmeta_top(Job[self].pid); }
+        else { call delmeta_one(Job[self].pid, Job[self].fmt); };
       };
  fin: skip;
 }
 } *)
-\* BEGIN TRANSLATION (chksum(pcal) = "d8a4c157" /\ chksum(tla) = "caa524d3")
-\* Procedure variable va of procedure tag at line 93 col 13 changed to va_
-\* Procedure variable vb of procedure tag at line 93 col 25 changed to vb_
-\* Procedure variable vrl of procedure tag at line 93 col 77 changed to vrl_
-\* Procedure variable vx of procedure store at line 167 col 13 changed to vx_
-\* Procedure variable vb of procedure diibad at line 188 col 13 changed to vb_d
-\* Procedure variable vx of procedure diibad at line 188 col 25 changed to vx_d
-\* Procedure variable vc of procedure delete at line 208 col 13 changed to vc_
-\* Procedure variable vf of procedure delete at line 209 col 25 changed to vf_
-\* Parameter vtb of procedure claim at line 61 col 17 changed to vtb_
-\* Parameter vid of procedure claim at line 61 col 22 changed to vid_
-\* Parameter vp of procedure tag at line 92 col 15 changed to vp_
-\* Parameter vc of procedure tag at line 92 col 19 changed to vc_t
-\* Parameter vp of procedure store at line 166 col 17 changed to vp_s
-\* Parameter vc of procedure store at line 166 col 21 changed to vc_s
-\* Parameter vp of procedure delete at line 207 col 18 changed to vp_d
+\* BEGIN TRANSLATION (chksum(pcal) = "9ff04df0" /\ chksum(tla) = "4b0dc832")
+\* Procedure variable va of procedure tag at line 97 col 13 changed to va_
+\* Procedure variable vb of procedure tag at line 97 col 25 changed to vb_
+\* Procedure variable vrl of procedure tag at line 97 col 77 changed to vrl_
+\* Procedure variable vx of procedure store at line 172 col 13 changed to vx_
+\* Procedure variable vb of procedure diibad at line 193 col 13 changed to vb_d
+\* Procedure variable vx of procedure diibad at line 193 col 25 changed to vx_d
+\* Procedure variable vc of procedure delete at line 213 col 13 changed to vc_
+\* Procedure variable vx of procedure delete at line 213 col 72 changed to vx_de
+\* Procedure variable vf of procedure delete at line 214 col 25 changed to vf_
+\* Procedure variable vx of procedure getmeta at line 376 col 13 changed to vx_g
+\* Parameter vtb of procedure claim at line 65 col 17 changed to vtb_
+\* Parameter vid of procedure claim at line 65 col 22 changed to vid_
+\* Parameter vp of procedure tag at line 96 col 15 changed to vp_
+\* Parameter vc of procedure tag at line 96 col 19 changed to vc_t
+\* Parameter vp of procedure store at line 171 col 17 changed to vp_s
+\* Parameter vc of procedure store at line 171 col 21 changed to vc_s
+\* Parameter vp of procedure delete at line 212 col 18 changed to vp_d
+\* Parameter vp of procedure delmeta_all at line 316 col 23 changed to vp_de
+\* Parameter vp of procedure putmeta at line 365 col 19 changed to vp_p
+\* Parameter vf of procedure putmeta at line 365 col 23 changed to vf_p
+\* Parameter vp of procedure getmeta at line 375 col 19 changed to vp_g
+\* Parameter vf of procedure getmeta at line 375 col 23 changed to vf_g
+\* Parameter vp of procedure delmeta_one at line 388 col 23 changed to vp_del
 CONSTANT defaultInitValue
 VARIABLES pc, obj, pref, cref, doc, mark, keep, locked, waitq, woken, ev, 
-          result, stack
+          result, rdata, stack
 
 (* define statement *)
 EvV(t, op, a, b, out, val) == [n |-> ev.n + 1, t |-> t, op |-> op, a |-> a, b |-> b, out |-> out, val |-> val]
 Ev(t, op, a, b, out) == EvV(t, op, a, b, out, <<>>)
 StatCid(cc_) == IF ~cref[cc_].has THEN "N" ELSE IF cref[cc_].pids = <<>> THEN "F0" ELSE "F"
 InL(vtbl, vi)  == InSeq(vi, locked[vtbl])
+Here(kind, pp, g) == IF kind = "doc" THEN doc[pp][g] # None ELSE P(kind, pp \o "/" \o g) \in mark
+NextKind(kind) == CASE kind = "doc" -> "docdel" [] kind = "docdel" -> "docdel2" [] OTHER -> "docdel3"
+Suffix(kind) == CASE kind = "doc" -> "" [] kind = "docdel" -> "_delete" [] OTHER -> "_delete_delete"
 AllDone     == \A proc \in Thread : pc[proc] = "Done"
 Abs         == [obj |-> obj, pref |-> pref, cref |-> cref, doc |-> doc,
                 junk |-> Cardinality(mark)]
 
 VARIABLES vtb_, vid_, vtb, vid, vp_, vc_t, va_, vb_, vout, vmade, vrp, vrl_, 
-          vp_s, vc_s, vx_, vc, vb_d, vx_d, vp_d, vc_, vcls, vrl, va, vb, vx, 
-          vdels, vdocs, vf_, vp, vtodo, vmarked, vf
+          vp_s, vc_s, vx_, vc, vb_d, vx_d, vp_d, vc_, vcls, vrl, va, vb, 
+          vx_de, vdels, vdocs, vf_, vp_de, vtodo, vkeepl, vmarked, ve, vp_p, 
+          vf_p, vver, vp_g, vf_g, vx_g, vp_del, vf, vx, vp
 
 vars == << pc, obj, pref, cref, doc, mark, keep, locked, waitq, woken, ev, 
-           result, stack, vtb_, vid_, vtb, vid, vp_, vc_t, va_, vb_, vout, 
-           vmade, vrp, vrl_, vp_s, vc_s, vx_, vc, vb_d, vx_d, vp_d, vc_, vcls, 
-           vrl, va, vb, vx, vdels, vdocs, vf_, vp, vtodo, vmarked, vf >>
+           result, rdata, stack, vtb_, vid_, vtb, vid, vp_, vc_t, va_, vb_, 
+           vout, vmade, vrp, vrl_, vp_s, vc_s, vx_, vc, vb_d, vx_d, vp_d, vc_, 
+           vcls, vrl, va, vb, vx_de, vdels, vdocs, vf_, vp_de, vtodo, vkeepl, 
+           vmarked, ve, vp_p, vf_p, vver, vp_g, vf_g, vx_g, vp_del, vf, vx, 
+           vp >>
 
 ProcSet == (Thread)
 
@@ -391,6 +488,7 @@ Init == (* Global variables *)
         /\ woken = {}
         /\ ev = NoEv
         /\ result = [proc \in Thread |-> "-"]
+        /\ rdata = [proc \in Thread |-> "-"]
         (* Procedure claim *)
         /\ vtb_ = [ self \in ProcSet |-> defaultInitValue]
         /\ vid_ = [ self \in ProcSet |-> defaultInitValue]
@@ -421,15 +519,30 @@ Init == (* Global variables *)
         /\ vrl = [ self \in ProcSet |-> <<>>]
         /\ va = [ self \in ProcSet |-> FALSE]
         /\ vb = [ self \in ProcSet |-> FALSE]
-        /\ vx = [ self \in ProcSet |-> FALSE]
+        /\ vx_de = [ self \in ProcSet |-> FALSE]
         /\ vdels = [ self \in ProcSet |-> {}]
         /\ vdocs = [ self \in ProcSet |-> {}]
         /\ vf_ = [ self \in ProcSet |-> "-"]
         (* Procedure delmeta_all *)
-        /\ vp = [ self \in ProcSet |-> defaultInitValue]
+        /\ vp_de = [ self \in ProcSet |-> defaultInitValue]
         /\ vtodo = [ self \in ProcSet |-> {}]
+        /\ vkeepl = [ self \in ProcSet |-> {}]
         /\ vmarked = [ self \in ProcSet |-> {}]
-        /\ vf = [ self \in ProcSet |-> "-"]
+        /\ ve = [ self \in ProcSet |-> <<"-", "-">>]
+        (* Procedure putmeta *)
+        /\ vp_p = [ self \in ProcSet |-> defaultInitValue]
+        /\ vf_p = [ self \in ProcSet |-> defaultInitValue]
+        /\ vver = [ self \in ProcSet |-> defaultInitValue]
+        (* Procedure getmeta *)
+        /\ vp_g = [ self \in ProcSet |-> defaultInitValue]
+        /\ vf_g = [ self \in ProcSet |-> defaultInitValue]
+        /\ vx_g = [ self \in ProcSet |-> FALSE]
+        (* Procedure delmeta_one *)
+        /\ vp_del = [ self \in ProcSet |-> defaultInitValue]
+        /\ vf = [ self \in ProcSet |-> defaultInitValue]
+        /\ vx = [ self \in ProcSet |-> FALSE]
+        (* Procedure delmeta_top *)
+        /\ vp = [ self \in ProcSet |-> defaultInitValue]
         /\ stack = [self \in ProcSet |-> << >>]
         /\ pc = [self \in ProcSet |-> "run"]
 
@@ -444,10 +557,12 @@ cl1(self) == /\ pc[self] = "cl1"
                         /\ pc' = [pc EXCEPT ![self] = "cl3"]
                         /\ waitq' = waitq
              /\ UNCHANGED << obj, pref, cref, doc, mark, keep, woken, result, 
-                             stack, vtb_, vid_, vtb, vid, vp_, vc_t, va_, vb_, 
-                             vout, vmade, vrp, vrl_, vp_s, vc_s, vx_, vc, vb_d, 
-                             vx_d, vp_d, vc_, vcls, vrl, va, vb, vx, vdels, 
-                             vdocs, vf_, vp, vtodo, vmarked, vf >>
+                             rdata, stack, vtb_, vid_, vtb, vid, vp_, vc_t, 
+                             va_, vb_, vout, vmade, vrp, vrl_, vp_s, vc_s, vx_, 
+                             vc, vb_d, vx_d, vp_d, vc_, vcls, vrl, va, vb, 
+                             vx_de, vdels, vdocs, vf_, vp_de, vtodo, vkeepl, 
+                             vmarked, ve, vp_p, vf_p, vver, vp_g, vf_g, vx_g, 
+                             vp_del, vf, vx, vp >>
 
 cl2(self) == /\ pc[self] = "cl2"
              /\ self \in woken
@@ -461,11 +576,13 @@ cl2(self) == /\ pc[self] = "cl2"
                         /\ ev' = Ev(self, "wakeup", <<"table", vtb_[self]>>, NoPath, "claim")
                         /\ pc' = [pc EXCEPT ![self] = "cl3"]
                         /\ waitq' = waitq
-             /\ UNCHANGED << obj, pref, cref, doc, mark, keep, result, stack, 
-                             vtb_, vid_, vtb, vid, vp_, vc_t, va_, vb_, vout, 
-                             vmade, vrp, vrl_, vp_s, vc_s, vx_, vc, vb_d, vx_d, 
-                             vp_d, vc_, vcls, vrl, va, vb, vx, vdels, vdocs, 
-                             vf_, vp, vtodo, vmarked, vf >>
+             /\ UNCHANGED << obj, pref, cref, doc, mark, keep, result, rdata, 
+                             stack, vtb_, vid_, vtb, vid, vp_, vc_t, va_, vb_, 
+                             vout, vmade, vrp, vrl_, vp_s, vc_s, vx_, vc, vb_d, 
+                             vx_d, vp_d, vc_, vcls, vrl, va, vb, vx_de, vdels, 
+                             vdocs, vf_, vp_de, vtodo, vkeepl, vmarked, ve, 
+                             vp_p, vf_p, vver, vp_g, vf_g, vx_g, vp_del, vf, 
+                             vx, vp >>
 
 cl3(self) == /\ pc[self] = "cl3"
              /\ pc' = [pc EXCEPT ![self] = Head(stack[self]).pc]
@@ -473,10 +590,12 @@ cl3(self) == /\ pc[self] = "cl3"
              /\ vid_' = [vid_ EXCEPT ![self] = Head(stack[self]).vid_]
              /\ stack' = [stack EXCEPT ![self] = Tail(stack[self])]
              /\ UNCHANGED << obj, pref, cref, doc, mark, keep, locked, waitq, 
-                             woken, ev, result, vtb, vid, vp_, vc_t, va_, vb_, 
-                             vout, vmade, vrp, vrl_, vp_s, vc_s, vx_, vc, vb_d, 
-                             vx_d, vp_d, vc_, vcls, vrl, va, vb, vx, vdels, 
-                             vdocs, vf_, vp, vtodo, vmarked, vf >>
+                             woken, ev, result, rdata, vtb, vid, vp_, vc_t, 
+                             va_, vb_, vout, vmade, vrp, vrl_, vp_s, vc_s, vx_, 
+                             vc, vb_d, vx_d, vp_d, vc_, vcls, vrl, va, vb, 
+                             vx_de, vdels, vdocs, vf_, vp_de, vtodo, vkeepl, 
+                             vmarked, ve, vp_p, vf_p, vver, vp_g, vf_g, vx_g, 
+                             vp_del, vf, vx, vp >>
 
 claim(self) == cl1(self) \/ cl2(self) \/ cl3(self)
 
@@ -492,11 +611,12 @@ rl1(self) == /\ pc[self] = "rl1"
              /\ vtb' = [vtb EXCEPT ![self] = Head(stack[self]).vtb]
              /\ vid' = [vid EXCEPT ![self] = Head(stack[self]).vid]
              /\ stack' = [stack EXCEPT ![self] = Tail(stack[self])]
-             /\ UNCHANGED << obj, pref, cref, doc, mark, keep, result, vtb_, 
-                             vid_, vp_, vc_t, va_, vb_, vout, vmade, vrp, vrl_, 
-                             vp_s, vc_s, vx_, vc, vb_d, vx_d, vp_d, vc_, vcls, 
-                             vrl, va, vb, vx, vdels, vdocs, vf_, vp, vtodo, 
-                             vmarked, vf >>
+             /\ UNCHANGED << obj, pref, cref, doc, mark, keep, result, rdata, 
+                             vtb_, vid_, vp_, vc_t, va_, vb_, vout, vmade, vrp, 
+                             vrl_, vp_s, vc_s, vx_, vc, vb_d, vx_d, vp_d, vc_, 
+                             vcls, vrl, va, vb, vx_de, vdels, vdocs, vf_, 
+                             vp_de, vtodo, vkeepl, vmarked, ve, vp_p, vf_p, 
+                             vver, vp_g, vf_g, vx_g, vp_del, vf, vx, vp >>
 
 release(self) == rl1(self)
 
@@ -510,10 +630,12 @@ tg1(self) == /\ pc[self] = "tg1"
                 /\ vtb_' = [vtb_ EXCEPT ![self] = "refpid"]
              /\ pc' = [pc EXCEPT ![self] = "cl1"]
              /\ UNCHANGED << obj, pref, cref, doc, mark, keep, locked, waitq, 
-                             woken, ev, result, vtb, vid, vp_, vc_t, va_, vb_, 
-                             vout, vmade, vrp, vrl_, vp_s, vc_s, vx_, vc, vb_d, 
-                             vx_d, vp_d, vc_, vcls, vrl, va, vb, vx, vdels, 
-                             vdocs, vf_, vp, vtodo, vmarked, vf >>
+                             woken, ev, result, rdata, vtb, vid, vp_, vc_t, 
+                             va_, vb_, vout, vmade, vrp, vrl_, vp_s, vc_s, vx_, 
+                             vc, vb_d, vx_d, vp_d, vc_, vcls, vrl, va, vb, 
+                             vx_de, vdels, vdocs, vf_, vp_de, vtodo, vkeepl, 
+                             vmarked, ve, vp_p, vf_p, vver, vp_g, vf_g, vx_g, 
+                             vp_del, vf, vx, vp >>
 
 tg2(self) == /\ pc[self] = "tg2"
              /\ /\ stack' = [stack EXCEPT ![self] = << [ procedure |->  "claim",
@@ -525,10 +647,12 @@ tg2(self) == /\ pc[self] = "tg2"
                 /\ vtb_' = [vtb_ EXCEPT ![self] = "cid"]
              /\ pc' = [pc EXCEPT ![self] = "cl1"]
              /\ UNCHANGED << obj, pref, cref, doc, mark, keep, locked, waitq, 
-                             woken, ev, result, vtb, vid, vp_, vc_t, va_, vb_, 
-                             vout, vmade, vrp, vrl_, vp_s, vc_s, vx_, vc, vb_d, 
-                             vx_d, vp_d, vc_, vcls, vrl, va, vb, vx, vdels, 
-                             vdocs, vf_, vp, vtodo, vmarked, vf >>
+                             woken, ev, result, rdata, vtb, vid, vp_, vc_t, 
+                             va_, vb_, vout, vmade, vrp, vrl_, vp_s, vc_s, vx_, 
+                             vc, vb_d, vx_d, vp_d, vc_, vcls, vrl, va, vb, 
+                             vx_de, vdels, vdocs, vf_, vp_de, vtodo, vkeepl, 
+                             vmarked, ve, vp_p, vf_p, vver, vp_g, vf_g, vx_g, 
+                             vp_del, vf, vx, vp >>
 
 e1a(self) == /\ pc[self] = "e1a"
              /\ va_' = [va_ EXCEPT ![self] = pref[vp_[self]] # None]
@@ -537,10 +661,12 @@ e1a(self) == /\ pc[self] = "e1a"
                    THEN /\ pc' = [pc EXCEPT ![self] = "e1b"]
                    ELSE /\ pc' = [pc EXCEPT ![self] = "e2a"]
              /\ UNCHANGED << obj, pref, cref, doc, mark, keep, locked, waitq, 
-                             woken, result, stack, vtb_, vid_, vtb, vid, vp_, 
-                             vc_t, vb_, vout, vmade, vrp, vrl_, vp_s, vc_s, 
-                             vx_, vc, vb_d, vx_d, vp_d, vc_, vcls, vrl, va, vb, 
-                             vx, vdels, vdocs, vf_, vp, vtodo, vmarked, vf >>
+                             woken, result, rdata, stack, vtb_, vid_, vtb, vid, 
+                             vp_, vc_t, vb_, vout, vmade, vrp, vrl_, vp_s, 
+                             vc_s, vx_, vc, vb_d, vx_d, vp_d, vc_, vcls, vrl, 
+                             va, vb, vx_de, vdels, vdocs, vf_, vp_de, vtodo, 
+                             vkeepl, vmarked, ve, vp_p, vf_p, vver, vp_g, vf_g, 
+                             vx_g, vp_del, vf, vx, vp >>
 
 e1b(self) == /\ pc[self] = "e1b"
              /\ vb_' = [vb_ EXCEPT ![self] = cref[vc_t[self]].has]
@@ -549,10 +675,12 @@ e1b(self) == /\ pc[self] = "e1b"
                    THEN /\ pc' = [pc EXCEPT ![self] = "both"]
                    ELSE /\ pc' = [pc EXCEPT ![self] = "e2a"]
              /\ UNCHANGED << obj, pref, cref, doc, mark, keep, locked, waitq, 
-                             woken, result, stack, vtb_, vid_, vtb, vid, vp_, 
-                             vc_t, va_, vout, vmade, vrp, vrl_, vp_s, vc_s, 
-                             vx_, vc, vb_d, vx_d, vp_d, vc_, vcls, vrl, va, vb, 
-                             vx, vdels, vdocs, vf_, vp, vtodo, vmarked, vf >>
+                             woken, result, rdata, stack, vtb_, vid_, vtb, vid, 
+                             vp_, vc_t, va_, vout, vmade, vrp, vrl_, vp_s, 
+                             vc_s, vx_, vc, vb_d, vx_d, vp_d, vc_, vcls, vrl, 
+                             va, vb, vx_de, vdels, vdocs, vf_, vp_de, vtodo, 
+                             vkeepl, vmarked, ve, vp_p, vf_p, vver, vp_g, vf_g, 
+                             vx_g, vp_del, vf, vx, vp >>
 
 e2a(self) == /\ pc[self] = "e2a"
              /\ va_' = [va_ EXCEPT ![self] = pref[vp_[self]] # None]
@@ -561,10 +689,12 @@ e2a(self) == /\ pc[self] = "e2a"
                    THEN /\ pc' = [pc EXCEPT ![self] = "e2b"]
                    ELSE /\ pc' = [pc EXCEPT ![self] = "e3a"]
              /\ UNCHANGED << obj, pref, cref, doc, mark, keep, locked, waitq, 
-                             woken, result, stack, vtb_, vid_, vtb, vid, vp_, 
-                             vc_t, vb_, vout, vmade, vrp, vrl_, vp_s, vc_s, 
-                             vx_, vc, vb_d, vx_d, vp_d, vc_, vcls, vrl, va, vb, 
-                             vx, vdels, vdocs, vf_, vp, vtodo, vmarked, vf >>
+                             woken, result, rdata, stack, vtb_, vid_, vtb, vid, 
+                             vp_, vc_t, vb_, vout, vmade, vrp, vrl_, vp_s, 
+                             vc_s, vx_, vc, vb_d, vx_d, vp_d, vc_, vcls, vrl, 
+                             va, vb, vx_de, vdels, vdocs, vf_, vp_de, vtodo, 
+                             vkeepl, vmarked, ve, vp_p, vf_p, vver, vp_g, vf_g, 
+                             vx_g, vp_del, vf, vx, vp >>
 
 e2b(self) == /\ pc[self] = "e2b"
              /\ vb_' = [vb_ EXCEPT ![self] = cref[vc_t[self]].has]
@@ -575,10 +705,12 @@ e2b(self) == /\ pc[self] = "e2b"
                    ELSE /\ pc' = [pc EXCEPT ![self] = "e3a"]
                         /\ vout' = vout
              /\ UNCHANGED << obj, pref, cref, doc, mark, keep, locked, waitq, 
-                             woken, result, stack, vtb_, vid_, vtb, vid, vp_, 
-                             vc_t, va_, vmade, vrp, vrl_, vp_s, vc_s, vx_, vc, 
-                             vb_d, vx_d, vp_d, vc_, vcls, vrl, va, vb, vx, 
-                             vdels, vdocs, vf_, vp, vtodo, vmarked, vf >>
+                             woken, result, rdata, stack, vtb_, vid_, vtb, vid, 
+                             vp_, vc_t, va_, vmade, vrp, vrl_, vp_s, vc_s, vx_, 
+                             vc, vb_d, vx_d, vp_d, vc_, vcls, vrl, va, vb, 
+                             vx_de, vdels, vdocs, vf_, vp_de, vtodo, vkeepl, 
+                             vmarked, ve, vp_p, vf_p, vver, vp_g, vf_g, vx_g, 
+                             vp_del, vf, vx, vp >>
 
 e3a(self) == /\ pc[self] = "e3a"
              /\ va_' = [va_ EXCEPT ![self] = pref[vp_[self]] # None]
@@ -587,10 +719,12 @@ e3a(self) == /\ pc[self] = "e3a"
                    THEN /\ pc' = [pc EXCEPT ![self] = "e3b"]
                    ELSE /\ pc' = [pc EXCEPT ![self] = "n1"]
              /\ UNCHANGED << obj, pref, cref, doc, mark, keep, locked, waitq, 
-                             woken, result, stack, vtb_, vid_, vtb, vid, vp_, 
-                             vc_t, vb_, vout, vmade, vrp, vrl_, vp_s, vc_s, 
-                             vx_, vc, vb_d, vx_d, vp_d, vc_, vcls, vrl, va, vb, 
-                             vx, vdels, vdocs, vf_, vp, vtodo, vmarked, vf >>
+                             woken, result, rdata, stack, vtb_, vid_, vtb, vid, 
+                             vp_, vc_t, vb_, vout, vmade, vrp, vrl_, vp_s, 
+                             vc_s, vx_, vc, vb_d, vx_d, vp_d, vc_, vcls, vrl, 
+                             va, vb, vx_de, vdels, vdocs, vf_, vp_de, vtodo, 
+                             vkeepl, vmarked, ve, vp_p, vf_p, vver, vp_g, vf_g, 
+                             vx_g, vp_del, vf, vx, vp >>
 
 e3b(self) == /\ pc[self] = "e3b"
              /\ vb_' = [vb_ EXCEPT ![self] = cref[vc_t[self]].has]
@@ -599,70 +733,84 @@ e3b(self) == /\ pc[self] = "e3b"
                    THEN /\ pc' = [pc EXCEPT ![self] = "cidonly"]
                    ELSE /\ pc' = [pc EXCEPT ![self] = "n1"]
              /\ UNCHANGED << obj, pref, cref, doc, mark, keep, locked, waitq, 
-                             woken, result, stack, vtb_, vid_, vtb, vid, vp_, 
-                             vc_t, va_, vout, vmade, vrp, vrl_, vp_s, vc_s, 
-                             vx_, vc, vb_d, vx_d, vp_d, vc_, vcls, vrl, va, vb, 
-                             vx, vdels, vdocs, vf_, vp, vtodo, vmarked, vf >>
+                             woken, result, rdata, stack, vtb_, vid_, vtb, vid, 
+                             vp_, vc_t, va_, vout, vmade, vrp, vrl_, vp_s, 
+                             vc_s, vx_, vc, vb_d, vx_d, vp_d, vc_, vcls, vrl, 
+                             va, vb, vx_de, vdels, vdocs, vf_, vp_de, vtodo, 
+                             vkeepl, vmarked, ve, vp_p, vf_p, vver, vp_g, vf_g, 
+                             vx_g, vp_del, vf, vx, vp >>
 
 n1(self) == /\ pc[self] = "n1"
             /\ vmade' = [vmade EXCEPT ![self] = TRUE]
             /\ ev' = Ev(self, "stat", P("pidref", vp_[self]), NoPath, FN(pref[vp_[self]] # None))
             /\ pc' = [pc EXCEPT ![self] = "n2"]
             /\ UNCHANGED << obj, pref, cref, doc, mark, keep, locked, waitq, 
-                            woken, result, stack, vtb_, vid_, vtb, vid, vp_, 
-                            vc_t, va_, vb_, vout, vrp, vrl_, vp_s, vc_s, vx_, 
-                            vc, vb_d, vx_d, vp_d, vc_, vcls, vrl, va, vb, vx, 
-                            vdels, vdocs, vf_, vp, vtodo, vmarked, vf >>
+                            woken, result, rdata, stack, vtb_, vid_, vtb, vid, 
+                            vp_, vc_t, va_, vb_, vout, vrp, vrl_, vp_s, vc_s, 
+                            vx_, vc, vb_d, vx_d, vp_d, vc_, vcls, vrl, va, vb, 
+                            vx_de, vdels, vdocs, vf_, vp_de, vtodo, vkeepl, 
+                            vmarked, ve, vp_p, vf_p, vver, vp_g, vf_g, vx_g, 
+                            vp_del, vf, vx, vp >>
 
 n2(self) == /\ pc[self] = "n2"
             /\ pref' = [pref EXCEPT ![vp_[self]] = vc_t[self]]
             /\ ev' = Ev(self, "rename", P("tmp", "refs"), P("pidref", vp_[self]), "ok")
             /\ pc' = [pc EXCEPT ![self] = "n3"]
             /\ UNCHANGED << obj, cref, doc, mark, keep, locked, waitq, woken, 
-                            result, stack, vtb_, vid_, vtb, vid, vp_, vc_t, 
-                            va_, vb_, vout, vmade, vrp, vrl_, vp_s, vc_s, vx_, 
-                            vc, vb_d, vx_d, vp_d, vc_, vcls, vrl, va, vb, vx, 
-                            vdels, vdocs, vf_, vp, vtodo, vmarked, vf >>
+                            result, rdata, stack, vtb_, vid_, vtb, vid, vp_, 
+                            vc_t, va_, vb_, vout, vmade, vrp, vrl_, vp_s, vc_s, 
+                            vx_, vc, vb_d, vx_d, vp_d, vc_, vcls, vrl, va, vb, 
+                            vx_de, vdels, vdocs, vf_, vp_de, vtodo, vkeepl, 
+                            vmarked, ve, vp_p, vf_p, vver, vp_g, vf_g, vx_g, 
+                            vp_del, vf, vx, vp >>
 
 n3(self) == /\ pc[self] = "n3"
             /\ ev' = Ev(self, "stat", P("cidref", vc_t[self]), NoPath, StatCid(vc_t[self]))
             /\ pc' = [pc EXCEPT ![self] = "n4"]
             /\ UNCHANGED << obj, pref, cref, doc, mark, keep, locked, waitq, 
-                            woken, result, stack, vtb_, vid_, vtb, vid, vp_, 
-                            vc_t, va_, vb_, vout, vmade, vrp, vrl_, vp_s, vc_s, 
-                            vx_, vc, vb_d, vx_d, vp_d, vc_, vcls, vrl, va, vb, 
-                            vx, vdels, vdocs, vf_, vp, vtodo, vmarked, vf >>
+                            woken, result, rdata, stack, vtb_, vid_, vtb, vid, 
+                            vp_, vc_t, va_, vb_, vout, vmade, vrp, vrl_, vp_s, 
+                            vc_s, vx_, vc, vb_d, vx_d, vp_d, vc_, vcls, vrl, 
+                            va, vb, vx_de, vdels, vdocs, vf_, vp_de, vtodo, 
+                            vkeepl, vmarked, ve, vp_p, vf_p, vver, vp_g, vf_g, 
+                            vx_g, vp_del, vf, vx, vp >>
 
 n4(self) == /\ pc[self] = "n4"
             /\ cref' = [cref EXCEPT ![vc_t[self]] = List(<<vp_[self]>>)]
             /\ ev' = Ev(self, "rename", P("tmp", "refs"), P("cidref", vc_t[self]), "ok")
             /\ pc' = [pc EXCEPT ![self] = "verify"]
             /\ UNCHANGED << obj, pref, doc, mark, keep, locked, waitq, woken, 
-                            result, stack, vtb_, vid_, vtb, vid, vp_, vc_t, 
-                            va_, vb_, vout, vmade, vrp, vrl_, vp_s, vc_s, vx_, 
-                            vc, vb_d, vx_d, vp_d, vc_, vcls, vrl, va, vb, vx, 
-                            vdels, vdocs, vf_, vp, vtodo, vmarked, vf >>
+                            result, rdata, stack, vtb_, vid_, vtb, vid, vp_, 
+                            vc_t, va_, vb_, vout, vmade, vrp, vrl_, vp_s, vc_s, 
+                            vx_, vc, vb_d, vx_d, vp_d, vc_, vcls, vrl, va, vb, 
+                            vx_de, vdels, vdocs, vf_, vp_de, vtodo, vkeepl, 
+                            vmarked, ve, vp_p, vf_p, vver, vp_g, vf_g, vx_g, 
+                            vp_del, vf, vx, vp >>
 
 cidonly(self) == /\ pc[self] = "cidonly"
                  /\ vmade' = [vmade EXCEPT ![self] = TRUE]
                  /\ ev' = Ev(self, "stat", P("pidref", vp_[self]), NoPath, FN(pref[vp_[self]] # None))
                  /\ pc' = [pc EXCEPT ![self] = "c2"]
                  /\ UNCHANGED << obj, pref, cref, doc, mark, keep, locked, 
-                                 waitq, woken, result, stack, vtb_, vid_, vtb, 
-                                 vid, vp_, vc_t, va_, vb_, vout, vrp, vrl_, 
-                                 vp_s, vc_s, vx_, vc, vb_d, vx_d, vp_d, vc_, 
-                                 vcls, vrl, va, vb, vx, vdels, vdocs, vf_, vp, 
-                                 vtodo, vmarked, vf >>
+                                 waitq, woken, result, rdata, stack, vtb_, 
+                                 vid_, vtb, vid, vp_, vc_t, va_, vb_, vout, 
+                                 vrp, vrl_, vp_s, vc_s, vx_, vc, vb_d, vx_d, 
+                                 vp_d, vc_, vcls, vrl, va, vb, vx_de, vdels, 
+                                 vdocs, vf_, vp_de, vtodo, vkeepl, vmarked, ve, 
+                                 vp_p, vf_p, vver, vp_g, vf_g, vx_g, vp_del, 
+                                 vf, vx, vp >>
 
 c2(self) == /\ pc[self] = "c2"
             /\ pref' = [pref EXCEPT ![vp_[self]] = vc_t[self]]
             /\ ev' = Ev(self, "rename", P("tmp", "refs"), P("pidref", vp_[self]), "ok")
             /\ pc' = [pc EXCEPT ![self] = "c3"]
             /\ UNCHANGED << obj, cref, doc, mark, keep, locked, waitq, woken, 
-                            result, stack, vtb_, vid_, vtb, vid, vp_, vc_t, 
-                            va_, vb_, vout, vmade, vrp, vrl_, vp_s, vc_s, vx_, 
-                            vc, vb_d, vx_d, vp_d, vc_, vcls, vrl, va, vb, vx, 
-                            vdels, vdocs, vf_, vp, vtodo, vmarked, vf >>
+                            result, rdata, stack, vtb_, vid_, vtb, vid, vp_, 
+                            vc_t, va_, vb_, vout, vmade, vrp, vrl_, vp_s, vc_s, 
+                            vx_, vc, vb_d, vx_d, vp_d, vc_, vcls, vrl, va, vb, 
+                            vx_de, vdels, vdocs, vf_, vp_de, vtodo, vkeepl, 
+                            vmarked, ve, vp_p, vf_p, vver, vp_g, vf_g, vx_g, 
+                            vp_del, vf, vx, vp >>
 
 c3(self) == /\ pc[self] = "c3"
             /\ IF ~cref[vc_t[self]].has
@@ -675,10 +823,12 @@ c3(self) == /\ pc[self] = "c3"
                        /\ pc' = [pc EXCEPT ![self] = "c4"]
                        /\ vout' = vout
             /\ UNCHANGED << obj, pref, cref, doc, mark, keep, locked, waitq, 
-                            woken, result, stack, vtb_, vid_, vtb, vid, vp_, 
-                            vc_t, va_, vb_, vmade, vrp, vp_s, vc_s, vx_, vc, 
-                            vb_d, vx_d, vp_d, vc_, vcls, vrl, va, vb, vx, 
-                            vdels, vdocs, vf_, vp, vtodo, vmarked, vf >>
+                            woken, result, rdata, stack, vtb_, vid_, vtb, vid, 
+                            vp_, vc_t, va_, vb_, vmade, vrp, vp_s, vc_s, vx_, 
+                            vc, vb_d, vx_d, vp_d, vc_, vcls, vrl, va, vb, 
+                            vx_de, vdels, vdocs, vf_, vp_de, vtodo, vkeepl, 
+                            vmarked, ve, vp_p, vf_p, vver, vp_g, vf_g, vx_g, 
+                            vp_del, vf, vx, vp >>
 
 c4(self) == /\ pc[self] = "c4"
             /\ IF ~InSeq(vp_[self], vrl_[self])
@@ -692,10 +842,12 @@ c4(self) == /\ pc[self] = "c4"
                   ELSE /\ pc' = [pc EXCEPT ![self] = "c7"]
                        /\ UNCHANGED << ev, vb_, vout >>
             /\ UNCHANGED << obj, pref, cref, doc, mark, keep, locked, waitq, 
-                            woken, result, stack, vtb_, vid_, vtb, vid, vp_, 
-                            vc_t, va_, vmade, vrp, vrl_, vp_s, vc_s, vx_, vc, 
-                            vb_d, vx_d, vp_d, vc_, vcls, vrl, va, vb, vx, 
-                            vdels, vdocs, vf_, vp, vtodo, vmarked, vf >>
+                            woken, result, rdata, stack, vtb_, vid_, vtb, vid, 
+                            vp_, vc_t, va_, vmade, vrp, vrl_, vp_s, vc_s, vx_, 
+                            vc, vb_d, vx_d, vp_d, vc_, vcls, vrl, va, vb, 
+                            vx_de, vdels, vdocs, vf_, vp_de, vtodo, vkeepl, 
+                            vmarked, ve, vp_p, vf_p, vver, vp_g, vf_g, vx_g, 
+                            vp_del, vf, vx, vp >>
 
 c5(self) == /\ pc[self] = "c5"
             /\ IF ~cref[vc_t[self]].has
@@ -708,10 +860,12 @@ c5(self) == /\ pc[self] = "c5"
                        /\ pc' = [pc EXCEPT ![self] = "c6"]
                        /\ vout' = vout
             /\ UNCHANGED << obj, pref, cref, doc, mark, keep, locked, waitq, 
-                            woken, result, stack, vtb_, vid_, vtb, vid, vp_, 
-                            vc_t, va_, vb_, vmade, vrp, vp_s, vc_s, vx_, vc, 
-                            vb_d, vx_d, vp_d, vc_, vcls, vrl, va, vb, vx, 
-                            vdels, vdocs, vf_, vp, vtodo, vmarked, vf >>
+                            woken, result, rdata, stack, vtb_, vid_, vtb, vid, 
+                            vp_, vc_t, va_, vb_, vmade, vrp, vp_s, vc_s, vx_, 
+                            vc, vb_d, vx_d, vp_d, vc_, vcls, vrl, va, vb, 
+                            vx_de, vdels, vdocs, vf_, vp_de, vtodo, vkeepl, 
+                            vmarked, ve, vp_p, vf_p, vver, vp_g, vf_g, vx_g, 
+                            vp_del, vf, vx, vp >>
 
 c6(self) == /\ pc[self] = "c6"
             /\ IF ~InSeq(vp_[self], vrl_[self])
@@ -727,29 +881,33 @@ c6(self) == /\ pc[self] = "c6"
                   ELSE /\ pc' = [pc EXCEPT ![self] = "c7"]
                        /\ UNCHANGED << cref, ev, vout >>
             /\ UNCHANGED << obj, pref, doc, mark, keep, locked, waitq, woken, 
-                            result, stack, vtb_, vid_, vtb, vid, vp_, vc_t, 
-                            va_, vb_, vmade, vrp, vrl_, vp_s, vc_s, vx_, vc, 
-                            vb_d, vx_d, vp_d, vc_, vcls, vrl, va, vb, vx, 
-                            vdels, vdocs, vf_, vp, vtodo, vmarked, vf >>
+                            result, rdata, stack, vtb_, vid_, vtb, vid, vp_, 
+                            vc_t, va_, vb_, vmade, vrp, vrl_, vp_s, vc_s, vx_, 
+                            vc, vb_d, vx_d, vp_d, vc_, vcls, vrl, va, vb, 
+                            vx_de, vdels, vdocs, vf_, vp_de, vtodo, vkeepl, 
+                            vmarked, ve, vp_p, vf_p, vver, vp_g, vf_g, vx_g, 
+                            vp_del, vf, vx, vp >>
 
 c7(self) == /\ pc[self] = "c7"
             /\ pc' = [pc EXCEPT ![self] = "verify"]
             /\ UNCHANGED << obj, pref, cref, doc, mark, keep, locked, waitq, 
-                            woken, ev, result, stack, vtb_, vid_, vtb, vid, 
-                            vp_, vc_t, va_, vb_, vout, vmade, vrp, vrl_, vp_s, 
-                            vc_s, vx_, vc, vb_d, vx_d, vp_d, vc_, vcls, vrl, 
-                            va, vb, vx, vdels, vdocs, vf_, vp, vtodo, vmarked, 
-                            vf >>
+                            woken, ev, result, rdata, stack, vtb_, vid_, vtb, 
+                            vid, vp_, vc_t, va_, vb_, vout, vmade, vrp, vrl_, 
+                            vp_s, vc_s, vx_, vc, vb_d, vx_d, vp_d, vc_, vcls, 
+                            vrl, va, vb, vx_de, vdels, vdocs, vf_, vp_de, 
+                            vtodo, vkeepl, vmarked, ve, vp_p, vf_p, vver, vp_g, 
+                            vf_g, vx_g, vp_del, vf, vx, vp >>
 
 both(self) == /\ pc[self] = "both"
               /\ vout' = [vout EXCEPT ![self] = "exists"]
               /\ pc' = [pc EXCEPT ![self] = "verify"]
               /\ UNCHANGED << obj, pref, cref, doc, mark, keep, locked, waitq, 
-                              woken, ev, result, stack, vtb_, vid_, vtb, vid, 
-                              vp_, vc_t, va_, vb_, vmade, vrp, vrl_, vp_s, 
+                              woken, ev, result, rdata, stack, vtb_, vid_, vtb, 
+                              vid, vp_, vc_t, va_, vb_, vmade, vrp, vrl_, vp_s, 
                               vc_s, vx_, vc, vb_d, vx_d, vp_d, vc_, vcls, vrl, 
-                              va, vb, vx, vdels, vdocs, vf_, vp, vtodo, 
-                              vmarked, vf >>
+                              va, vb, vx_de, vdels, vdocs, vf_, vp_de, vtodo, 
+                              vkeepl, vmarked, ve, vp_p, vf_p, vver, vp_g, 
+                              vf_g, vx_g, vp_del, vf, vx, vp >>
 
 verify(self) == /\ pc[self] = "verify"
                 /\ va_' = [va_ EXCEPT ![self] = pref[vp_[self]] # None]
@@ -763,11 +921,12 @@ verify(self) == /\ pc[self] = "verify"
                       ELSE /\ pc' = [pc EXCEPT ![self] = "v2"]
                            /\ vout' = vout
                 /\ UNCHANGED << obj, pref, cref, doc, mark, keep, locked, 
-                                waitq, woken, result, stack, vtb_, vid_, vtb, 
-                                vid, vp_, vc_t, vb_, vmade, vrp, vrl_, vp_s, 
-                                vc_s, vx_, vc, vb_d, vx_d, vp_d, vc_, vcls, 
-                                vrl, va, vb, vx, vdels, vdocs, vf_, vp, vtodo, 
-                                vmarked, vf >>
+                                waitq, woken, result, rdata, stack, vtb_, vid_, 
+                                vtb, vid, vp_, vc_t, vb_, vmade, vrp, vrl_, 
+                                vp_s, vc_s, vx_, vc, vb_d, vx_d, vp_d, vc_, 
+                                vcls, vrl, va, vb, vx_de, vdels, vdocs, vf_, 
+                                vp_de, vtodo, vkeepl, vmarked, ve, vp_p, vf_p, 
+                                vver, vp_g, vf_g, vx_g, vp_del, vf, vx, vp >>
 
 v2(self) == /\ pc[self] = "v2"
             /\ vb_' = [vb_ EXCEPT ![self] = cref[vc_t[self]].has]
@@ -781,10 +940,12 @@ v2(self) == /\ pc[self] = "v2"
                   ELSE /\ pc' = [pc EXCEPT ![self] = "v3"]
                        /\ vout' = vout
             /\ UNCHANGED << obj, pref, cref, doc, mark, keep, locked, waitq, 
-                            woken, result, stack, vtb_, vid_, vtb, vid, vp_, 
-                            vc_t, va_, vmade, vrp, vrl_, vp_s, vc_s, vx_, vc, 
-                            vb_d, vx_d, vp_d, vc_, vcls, vrl, va, vb, vx, 
-                            vdels, vdocs, vf_, vp, vtodo, vmarked, vf >>
+                            woken, result, rdata, stack, vtb_, vid_, vtb, vid, 
+                            vp_, vc_t, va_, vmade, vrp, vrl_, vp_s, vc_s, vx_, 
+                            vc, vb_d, vx_d, vp_d, vc_, vcls, vrl, va, vb, 
+                            vx_de, vdels, vdocs, vf_, vp_de, vtodo, vkeepl, 
+                            vmarked, ve, vp_p, vf_p, vver, vp_g, vf_g, vx_g, 
+                            vp_del, vf, vx, vp >>
 
 v3(self) == /\ pc[self] = "v3"
             /\ IF pref[vp_[self]] = None
@@ -800,10 +961,12 @@ v3(self) == /\ pc[self] = "v3"
                        /\ pc' = [pc EXCEPT ![self] = "v3b"]
                        /\ vout' = vout
             /\ UNCHANGED << obj, pref, cref, doc, mark, keep, locked, waitq, 
-                            woken, result, stack, vtb_, vid_, vtb, vid, vp_, 
-                            vc_t, va_, vb_, vmade, vrl_, vp_s, vc_s, vx_, vc, 
-                            vb_d, vx_d, vp_d, vc_, vcls, vrl, va, vb, vx, 
-                            vdels, vdocs, vf_, vp, vtodo, vmarked, vf >>
+                            woken, result, rdata, stack, vtb_, vid_, vtb, vid, 
+                            vp_, vc_t, va_, vb_, vmade, vrl_, vp_s, vc_s, vx_, 
+                            vc, vb_d, vx_d, vp_d, vc_, vcls, vrl, va, vb, 
+                            vx_de, vdels, vdocs, vf_, vp_de, vtodo, vkeepl, 
+                            vmarked, ve, vp_p, vf_p, vver, vp_g, vf_g, vx_g, 
+                            vp_del, vf, vx, vp >>
 
 v3b(self) == /\ pc[self] = "v3b"
              /\ IF vrp[self] # vc_t[self]
@@ -815,10 +978,12 @@ v3b(self) == /\ pc[self] = "v3b"
                    ELSE /\ pc' = [pc EXCEPT ![self] = "v4"]
                         /\ vout' = vout
              /\ UNCHANGED << obj, pref, cref, doc, mark, keep, locked, waitq, 
-                             woken, ev, result, stack, vtb_, vid_, vtb, vid, 
-                             vp_, vc_t, va_, vb_, vmade, vrp, vrl_, vp_s, vc_s, 
-                             vx_, vc, vb_d, vx_d, vp_d, vc_, vcls, vrl, va, vb, 
-                             vx, vdels, vdocs, vf_, vp, vtodo, vmarked, vf >>
+                             woken, ev, result, rdata, stack, vtb_, vid_, vtb, 
+                             vid, vp_, vc_t, va_, vb_, vmade, vrp, vrl_, vp_s, 
+                             vc_s, vx_, vc, vb_d, vx_d, vp_d, vc_, vcls, vrl, 
+                             va, vb, vx_de, vdels, vdocs, vf_, vp_de, vtodo, 
+                             vkeepl, vmarked, ve, vp_p, vf_p, vver, vp_g, vf_g, 
+                             vx_g, vp_del, vf, vx, vp >>
 
 v4(self) == /\ pc[self] = "v4"
             /\ IF ~cref[vc_t[self]].has
@@ -834,10 +999,12 @@ v4(self) == /\ pc[self] = "v4"
                        /\ pc' = [pc EXCEPT ![self] = "v4b"]
                        /\ vout' = vout
             /\ UNCHANGED << obj, pref, cref, doc, mark, keep, locked, waitq, 
-                            woken, result, stack, vtb_, vid_, vtb, vid, vp_, 
-                            vc_t, va_, vb_, vmade, vrp, vp_s, vc_s, vx_, vc, 
-                            vb_d, vx_d, vp_d, vc_, vcls, vrl, va, vb, vx, 
-                            vdels, vdocs, vf_, vp, vtodo, vmarked, vf >>
+                            woken, result, rdata, stack, vtb_, vid_, vtb, vid, 
+                            vp_, vc_t, va_, vb_, vmade, vrp, vp_s, vc_s, vx_, 
+                            vc, vb_d, vx_d, vp_d, vc_, vcls, vrl, va, vb, 
+                            vx_de, vdels, vdocs, vf_, vp_de, vtodo, vkeepl, 
+                            vmarked, ve, vp_p, vf_p, vver, vp_g, vf_g, vx_g, 
+                            vp_del, vf, vx, vp >>
 
 v4b(self) == /\ pc[self] = "v4b"
              /\ IF ~InSeq(vp_[self], vrl_[self]) /\ vout[self] = "ok"
@@ -846,19 +1013,22 @@ v4b(self) == /\ pc[self] = "v4b"
                    ELSE /\ pc' = [pc EXCEPT ![self] = "v5"]
                         /\ vout' = vout
              /\ UNCHANGED << obj, pref, cref, doc, mark, keep, locked, waitq, 
-                             woken, ev, result, stack, vtb_, vid_, vtb, vid, 
-                             vp_, vc_t, va_, vb_, vmade, vrp, vrl_, vp_s, vc_s, 
-                             vx_, vc, vb_d, vx_d, vp_d, vc_, vcls, vrl, va, vb, 
-                             vx, vdels, vdocs, vf_, vp, vtodo, vmarked, vf >>
+                             woken, ev, result, rdata, stack, vtb_, vid_, vtb, 
+                             vid, vp_, vc_t, va_, vb_, vmade, vrp, vrl_, vp_s, 
+                             vc_s, vx_, vc, vb_d, vx_d, vp_d, vc_, vcls, vrl, 
+                             va, vb, vx_de, vdels, vdocs, vf_, vp_de, vtodo, 
+                             vkeepl, vmarked, ve, vp_p, vf_p, vver, vp_g, vf_g, 
+                             vx_g, vp_del, vf, vx, vp >>
 
 v5(self) == /\ pc[self] = "v5"
             /\ pc' = [pc EXCEPT ![self] = "tgfin"]
             /\ UNCHANGED << obj, pref, cref, doc, mark, keep, locked, waitq, 
-                            woken, ev, result, stack, vtb_, vid_, vtb, vid, 
-                            vp_, vc_t, va_, vb_, vout, vmade, vrp, vrl_, vp_s, 
-                            vc_s, vx_, vc, vb_d, vx_d, vp_d, vc_, vcls, vrl, 
-                            va, vb, vx, vdels, vdocs, vf_, vp, vtodo, vmarked, 
-                            vf >>
+                            woken, ev, result, rdata, stack, vtb_, vid_, vtb, 
+                            vid, vp_, vc_t, va_, vb_, vout, vmade, vrp, vrl_, 
+                            vp_s, vc_s, vx_, vc, vb_d, vx_d, vp_d, vc_, vcls, 
+                            vrl, va, vb, vx_de, vdels, vdocs, vf_, vp_de, 
+                            vtodo, vkeepl, vmarked, ve, vp_p, vf_p, vver, vp_g, 
+                            vf_g, vx_g, vp_del, vf, vx, vp >>
 
 untag(self) == /\ pc[self] = "untag"
                /\ IF vmade[self] /\ pref[vp_[self]] = vc_t[self]
@@ -868,11 +1038,13 @@ untag(self) == /\ pc[self] = "untag"
                           /\ UNCHANGED << pref, ev >>
                /\ pc' = [pc EXCEPT ![self] = "u2"]
                /\ UNCHANGED << obj, cref, doc, mark, keep, locked, waitq, 
-                               woken, result, stack, vtb_, vid_, vtb, vid, vp_, 
-                               vc_t, va_, vb_, vout, vmade, vrp, vrl_, vp_s, 
-                               vc_s, vx_, vc, vb_d, vx_d, vp_d, vc_, vcls, vrl, 
-                               va, vb, vx, vdels, vdocs, vf_, vp, vtodo, 
-                               vmarked, vf >>
+                               woken, result, rdata, stack, vtb_, vid_, vtb, 
+                               vid, vp_, vc_t, va_, vb_, vout, vmade, vrp, 
+                               vrl_, vp_s, vc_s, vx_, vc, vb_d, vx_d, vp_d, 
+                               vc_, vcls, vrl, va, vb, vx_de, vdels, vdocs, 
+                               vf_, vp_de, vtodo, vkeepl, vmarked, ve, vp_p, 
+                               vf_p, vver, vp_g, vf_g, vx_g, vp_del, vf, vx, 
+                               vp >>
 
 u2(self) == /\ pc[self] = "u2"
             /\ IF vmade[self] /\ cref[vc_t[self]].has /\ InSeq(vp_[self], cref[vc_t[self]].pids)
@@ -882,10 +1054,12 @@ u2(self) == /\ pc[self] = "u2"
                        /\ UNCHANGED << cref, ev >>
             /\ pc' = [pc EXCEPT ![self] = "tgfin"]
             /\ UNCHANGED << obj, pref, doc, mark, keep, locked, waitq, woken, 
-                            result, stack, vtb_, vid_, vtb, vid, vp_, vc_t, 
-                            va_, vb_, vout, vmade, vrp, vrl_, vp_s, vc_s, vx_, 
-                            vc, vb_d, vx_d, vp_d, vc_, vcls, vrl, va, vb, vx, 
-                            vdels, vdocs, vf_, vp, vtodo, vmarked, vf >>
+                            result, rdata, stack, vtb_, vid_, vtb, vid, vp_, 
+                            vc_t, va_, vb_, vout, vmade, vrp, vrl_, vp_s, vc_s, 
+                            vx_, vc, vb_d, vx_d, vp_d, vc_, vcls, vrl, va, vb, 
+                            vx_de, vdels, vdocs, vf_, vp_de, vtodo, vkeepl, 
+                            vmarked, ve, vp_p, vf_p, vver, vp_g, vf_g, vx_g, 
+                            vp_del, vf, vx, vp >>
 
 tgfin(self) == /\ pc[self] = "tgfin"
                /\ /\ stack' = [stack EXCEPT ![self] = << [ procedure |->  "release",
@@ -897,10 +1071,12 @@ tgfin(self) == /\ pc[self] = "tgfin"
                   /\ vtb' = [vtb EXCEPT ![self] = "cid"]
                /\ pc' = [pc EXCEPT ![self] = "rl1"]
                /\ UNCHANGED << obj, pref, cref, doc, mark, keep, locked, waitq, 
-                               woken, ev, result, vtb_, vid_, vp_, vc_t, va_, 
-                               vb_, vout, vmade, vrp, vrl_, vp_s, vc_s, vx_, 
-                               vc, vb_d, vx_d, vp_d, vc_, vcls, vrl, va, vb, 
-                               vx, vdels, vdocs, vf_, vp, vtodo, vmarked, vf >>
+                               woken, ev, result, rdata, vtb_, vid_, vp_, vc_t, 
+                               va_, vb_, vout, vmade, vrp, vrl_, vp_s, vc_s, 
+                               vx_, vc, vb_d, vx_d, vp_d, vc_, vcls, vrl, va, 
+                               vb, vx_de, vdels, vdocs, vf_, vp_de, vtodo, 
+                               vkeepl, vmarked, ve, vp_p, vf_p, vver, vp_g, 
+                               vf_g, vx_g, vp_del, vf, vx, vp >>
 
 tg9(self) == /\ pc[self] = "tg9"
              /\ /\ stack' = [stack EXCEPT ![self] = << [ procedure |->  "release",
@@ -912,13 +1088,19 @@ tg9(self) == /\ pc[self] = "tg9"
                 /\ vtb' = [vtb EXCEPT ![self] = "refpid"]
              /\ pc' = [pc EXCEPT ![self] = "rl1"]
              /\ UNCHANGED << obj, pref, cref, doc, mark, keep, locked, waitq, 
-                             woken, ev, result, vtb_, vid_, vp_, vc_t, va_, 
-                             vb_, vout, vmade, vrp, vrl_, vp_s, vc_s, vx_, vc, 
-                             vb_d, vx_d, vp_d, vc_, vcls, vrl, va, vb, vx, 
-                             vdels, vdocs, vf_, vp, vtodo, vmarked, vf >>
+                             woken, ev, result, rdata, vtb_, vid_, vp_, vc_t, 
+                             va_, vb_, vout, vmade, vrp, vrl_, vp_s, vc_s, vx_, 
+                             vc, vb_d, vx_d, vp_d, vc_, vcls, vrl, va, vb, 
+                             vx_de, vdels, vdocs, vf_, vp_de, vtodo, vkeepl, 
+                             vmarked, ve, vp_p, vf_p, vver, vp_g, vf_g, vx_g, 
+                             vp_del, vf, vx, vp >>
 
 tg10(self) == /\ pc[self] = "tg10"
               /\ result' = [result EXCEPT ![self] = vout[self]]
+              /\ IF vout[self] = "ok" /\ Job[self].op = "store"
+                    THEN /\ rdata' = [rdata EXCEPT ![self] = vc_t[self]]
+                    ELSE /\ TRUE
+                         /\ rdata' = rdata
               /\ pc' = [pc EXCEPT ![self] = Head(stack[self]).pc]
               /\ va_' = [va_ EXCEPT ![self] = Head(stack[self]).va_]
               /\ vb_' = [vb_ EXCEPT ![self] = Head(stack[self]).vb_]
@@ -931,8 +1113,10 @@ tg10(self) == /\ pc[self] = "tg10"
               /\ stack' = [stack EXCEPT ![self] = Tail(stack[self])]
               /\ UNCHANGED << obj, pref, cref, doc, mark, keep, locked, waitq, 
                               woken, ev, vtb_, vid_, vtb, vid, vp_s, vc_s, vx_, 
-                              vc, vb_d, vx_d, vp_d, vc_, vcls, vrl, va, vb, vx, 
-                              vdels, vdocs, vf_, vp, vtodo, vmarked, vf >>
+                              vc, vb_d, vx_d, vp_d, vc_, vcls, vrl, va, vb, 
+                              vx_de, vdels, vdocs, vf_, vp_de, vtodo, vkeepl, 
+                              vmarked, ve, vp_p, vf_p, vver, vp_g, vf_g, vx_g, 
+                              vp_del, vf, vx, vp >>
 
 tag(self) == tg1(self) \/ tg2(self) \/ e1a(self) \/ e1b(self) \/ e2a(self)
                 \/ e2b(self) \/ e3a(self) \/ e3b(self) \/ n1(self)
@@ -959,10 +1143,11 @@ st1(self) == /\ pc[self] = "st1"
                    ELSE /\ pc' = [pc EXCEPT ![self] = "st3"]
                         /\ UNCHANGED << ev, result, stack, vp_s, vc_s, vx_ >>
              /\ UNCHANGED << obj, pref, cref, doc, mark, keep, locked, waitq, 
-                             woken, vtb_, vid_, vtb, vid, vp_, vc_t, va_, vb_, 
-                             vout, vmade, vrp, vrl_, vc, vb_d, vx_d, vp_d, vc_, 
-                             vcls, vrl, va, vb, vx, vdels, vdocs, vf_, vp, 
-                             vtodo, vmarked, vf >>
+                             woken, rdata, vtb_, vid_, vtb, vid, vp_, vc_t, 
+                             va_, vb_, vout, vmade, vrp, vrl_, vc, vb_d, vx_d, 
+                             vp_d, vc_, vcls, vrl, va, vb, vx_de, vdels, vdocs, 
+                             vf_, vp_de, vtodo, vkeepl, vmarked, ve, vp_p, 
+                             vf_p, vver, vp_g, vf_g, vx_g, vp_del, vf, vx, vp >>
 
 st2(self) == /\ pc[self] = "st2"
              /\ /\ stack' = [stack EXCEPT ![self] = << [ procedure |->  "claim",
@@ -974,10 +1159,12 @@ st2(self) == /\ pc[self] = "st2"
                 /\ vtb_' = [vtb_ EXCEPT ![self] = "objpid"]
              /\ pc' = [pc EXCEPT ![self] = "cl1"]
              /\ UNCHANGED << obj, pref, cref, doc, mark, keep, locked, waitq, 
-                             woken, ev, result, vtb, vid, vp_, vc_t, va_, vb_, 
-                             vout, vmade, vrp, vrl_, vp_s, vc_s, vx_, vc, vb_d, 
-                             vx_d, vp_d, vc_, vcls, vrl, va, vb, vx, vdels, 
-                             vdocs, vf_, vp, vtodo, vmarked, vf >>
+                             woken, ev, result, rdata, vtb, vid, vp_, vc_t, 
+                             va_, vb_, vout, vmade, vrp, vrl_, vp_s, vc_s, vx_, 
+                             vc, vb_d, vx_d, vp_d, vc_, vcls, vrl, va, vb, 
+                             vx_de, vdels, vdocs, vf_, vp_de, vtodo, vkeepl, 
+                             vmarked, ve, vp_p, vf_p, vver, vp_g, vf_g, vx_g, 
+                             vp_del, vf, vx, vp >>
 
 st3(self) == /\ pc[self] = "st3"
              /\ vx_' = [vx_ EXCEPT ![self] = obj[vc_s[self]] = "ok"]
@@ -986,30 +1173,35 @@ st3(self) == /\ pc[self] = "st3"
                    THEN /\ pc' = [pc EXCEPT ![self] = "st4"]
                    ELSE /\ pc' = [pc EXCEPT ![self] = "st6"]
              /\ UNCHANGED << obj, pref, cref, doc, mark, keep, locked, waitq, 
-                             woken, result, stack, vtb_, vid_, vtb, vid, vp_, 
-                             vc_t, va_, vb_, vout, vmade, vrp, vrl_, vp_s, 
+                             woken, result, rdata, stack, vtb_, vid_, vtb, vid, 
+                             vp_, vc_t, va_, vb_, vout, vmade, vrp, vrl_, vp_s, 
                              vc_s, vc, vb_d, vx_d, vp_d, vc_, vcls, vrl, va, 
-                             vb, vx, vdels, vdocs, vf_, vp, vtodo, vmarked, vf >>
+                             vb, vx_de, vdels, vdocs, vf_, vp_de, vtodo, 
+                             vkeepl, vmarked, ve, vp_p, vf_p, vver, vp_g, vf_g, 
+                             vx_g, vp_del, vf, vx, vp >>
 
 st4(self) == /\ pc[self] = "st4"
              /\ ev' = Ev(self, "stat", P("obj", vc_s[self]), NoPath, FN(obj[vc_s[self]] = "ok"))
              /\ pc' = [pc EXCEPT ![self] = "st5"]
              /\ UNCHANGED << obj, pref, cref, doc, mark, keep, locked, waitq, 
-                             woken, result, stack, vtb_, vid_, vtb, vid, vp_, 
-                             vc_t, va_, vb_, vout, vmade, vrp, vrl_, vp_s, 
+                             woken, result, rdata, stack, vtb_, vid_, vtb, vid, 
+                             vp_, vc_t, va_, vb_, vout, vmade, vrp, vrl_, vp_s, 
                              vc_s, vx_, vc, vb_d, vx_d, vp_d, vc_, vcls, vrl, 
-                             va, vb, vx, vdels, vdocs, vf_, vp, vtodo, vmarked, 
-                             vf >>
+                             va, vb, vx_de, vdels, vdocs, vf_, vp_de, vtodo, 
+                             vkeepl, vmarked, ve, vp_p, vf_p, vver, vp_g, vf_g, 
+                             vx_g, vp_del, vf, vx, vp >>
 
 st5(self) == /\ pc[self] = "st5"
              /\ obj' = [obj EXCEPT ![vc_s[self]] = "ok"]
              /\ ev' = Ev(self, "rename", P("tmp", "objects"), P("obj", vc_s[self]), "ok")
              /\ pc' = [pc EXCEPT ![self] = "st6"]
              /\ UNCHANGED << pref, cref, doc, mark, keep, locked, waitq, woken, 
-                             result, stack, vtb_, vid_, vtb, vid, vp_, vc_t, 
-                             va_, vb_, vout, vmade, vrp, vrl_, vp_s, vc_s, vx_, 
-                             vc, vb_d, vx_d, vp_d, vc_, vcls, vrl, va, vb, vx, 
-                             vdels, vdocs, vf_, vp, vtodo, vmarked, vf >>
+                             result, rdata, stack, vtb_, vid_, vtb, vid, vp_, 
+                             vc_t, va_, vb_, vout, vmade, vrp, vrl_, vp_s, 
+                             vc_s, vx_, vc, vb_d, vx_d, vp_d, vc_, vcls, vrl, 
+                             va, vb, vx_de, vdels, vdocs, vf_, vp_de, vtodo, 
+                             vkeepl, vmarked, ve, vp_p, vf_p, vver, vp_g, vf_g, 
+                             vx_g, vp_del, vf, vx, vp >>
 
 st6(self) == /\ pc[self] = "st6"
              /\ IF vp_s[self] = "-"
@@ -1043,9 +1235,11 @@ st6(self) == /\ pc[self] = "st6"
                         /\ pc' = [pc EXCEPT ![self] = "tg1"]
                         /\ UNCHANGED << result, vp_s, vc_s, vx_ >>
              /\ UNCHANGED << obj, pref, cref, doc, mark, keep, locked, waitq, 
-                             woken, ev, vtb_, vid_, vtb, vid, vc, vb_d, vx_d, 
-                             vp_d, vc_, vcls, vrl, va, vb, vx, vdels, vdocs, 
-                             vf_, vp, vtodo, vmarked, vf >>
+                             woken, ev, rdata, vtb_, vid_, vtb, vid, vc, vb_d, 
+                             vx_d, vp_d, vc_, vcls, vrl, va, vb, vx_de, vdels, 
+                             vdocs, vf_, vp_de, vtodo, vkeepl, vmarked, ve, 
+                             vp_p, vf_p, vver, vp_g, vf_g, vx_g, vp_del, vf, 
+                             vx, vp >>
 
 st7(self) == /\ pc[self] = "st7"
              /\ /\ stack' = [stack EXCEPT ![self] = << [ procedure |->  "release",
@@ -1057,10 +1251,12 @@ st7(self) == /\ pc[self] = "st7"
                 /\ vtb' = [vtb EXCEPT ![self] = "objpid"]
              /\ pc' = [pc EXCEPT ![self] = "rl1"]
              /\ UNCHANGED << obj, pref, cref, doc, mark, keep, locked, waitq, 
-                             woken, ev, result, vtb_, vid_, vp_, vc_t, va_, 
-                             vb_, vout, vmade, vrp, vrl_, vp_s, vc_s, vx_, vc, 
-                             vb_d, vx_d, vp_d, vc_, vcls, vrl, va, vb, vx, 
-                             vdels, vdocs, vf_, vp, vtodo, vmarked, vf >>
+                             woken, ev, result, rdata, vtb_, vid_, vp_, vc_t, 
+                             va_, vb_, vout, vmade, vrp, vrl_, vp_s, vc_s, vx_, 
+                             vc, vb_d, vx_d, vp_d, vc_, vcls, vrl, va, vb, 
+                             vx_de, vdels, vdocs, vf_, vp_de, vtodo, vkeepl, 
+                             vmarked, ve, vp_p, vf_p, vver, vp_g, vf_g, vx_g, 
+                             vp_del, vf, vx, vp >>
 
 st8(self) == /\ pc[self] = "st8"
              /\ pc' = [pc EXCEPT ![self] = Head(stack[self]).pc]
@@ -1069,10 +1265,12 @@ st8(self) == /\ pc[self] = "st8"
              /\ vc_s' = [vc_s EXCEPT ![self] = Head(stack[self]).vc_s]
              /\ stack' = [stack EXCEPT ![self] = Tail(stack[self])]
              /\ UNCHANGED << obj, pref, cref, doc, mark, keep, locked, waitq, 
-                             woken, ev, result, vtb_, vid_, vtb, vid, vp_, 
-                             vc_t, va_, vb_, vout, vmade, vrp, vrl_, vc, vb_d, 
-                             vx_d, vp_d, vc_, vcls, vrl, va, vb, vx, vdels, 
-                             vdocs, vf_, vp, vtodo, vmarked, vf >>
+                             woken, ev, result, rdata, vtb_, vid_, vtb, vid, 
+                             vp_, vc_t, va_, vb_, vout, vmade, vrp, vrl_, vc, 
+                             vb_d, vx_d, vp_d, vc_, vcls, vrl, va, vb, vx_de, 
+                             vdels, vdocs, vf_, vp_de, vtodo, vkeepl, vmarked, 
+                             ve, vp_p, vf_p, vver, vp_g, vf_g, vx_g, vp_del, 
+                             vf, vx, vp >>
 
 store(self) == st1(self) \/ st2(self) \/ st3(self) \/ st4(self)
                   \/ st5(self) \/ st6(self) \/ st7(self) \/ st8(self)
@@ -1087,10 +1285,12 @@ di1(self) == /\ pc[self] = "di1"
                 /\ vtb_' = [vtb_ EXCEPT ![self] = "cid"]
              /\ pc' = [pc EXCEPT ![self] = "cl1"]
              /\ UNCHANGED << obj, pref, cref, doc, mark, keep, locked, waitq, 
-                             woken, ev, result, vtb, vid, vp_, vc_t, va_, vb_, 
-                             vout, vmade, vrp, vrl_, vp_s, vc_s, vx_, vc, vb_d, 
-                             vx_d, vp_d, vc_, vcls, vrl, va, vb, vx, vdels, 
-                             vdocs, vf_, vp, vtodo, vmarked, vf >>
+                             woken, ev, result, rdata, vtb, vid, vp_, vc_t, 
+                             va_, vb_, vout, vmade, vrp, vrl_, vp_s, vc_s, vx_, 
+                             vc, vb_d, vx_d, vp_d, vc_, vcls, vrl, va, vb, 
+                             vx_de, vdels, vdocs, vf_, vp_de, vtodo, vkeepl, 
+                             vmarked, ve, vp_p, vf_p, vver, vp_g, vf_g, vx_g, 
+                             vp_del, vf, vx, vp >>
 
 di2(self) == /\ pc[self] = "di2"
              /\ vb_d' = [vb_d EXCEPT ![self] = cref[vc[self]].has]
@@ -1101,10 +1301,12 @@ di2(self) == /\ pc[self] = "di2"
                    ELSE /\ result' = [result EXCEPT ![self] = "badsum"]
                         /\ pc' = [pc EXCEPT ![self] = "di5"]
              /\ UNCHANGED << obj, pref, cref, doc, mark, keep, locked, waitq, 
-                             woken, stack, vtb_, vid_, vtb, vid, vp_, vc_t, 
-                             va_, vb_, vout, vmade, vrp, vrl_, vp_s, vc_s, vx_, 
-                             vc, vx_d, vp_d, vc_, vcls, vrl, va, vb, vx, vdels, 
-                             vdocs, vf_, vp, vtodo, vmarked, vf >>
+                             woken, rdata, stack, vtb_, vid_, vtb, vid, vp_, 
+                             vc_t, va_, vb_, vout, vmade, vrp, vrl_, vp_s, 
+                             vc_s, vx_, vc, vx_d, vp_d, vc_, vcls, vrl, va, vb, 
+                             vx_de, vdels, vdocs, vf_, vp_de, vtodo, vkeepl, 
+                             vmarked, ve, vp_p, vf_p, vver, vp_g, vf_g, vx_g, 
+                             vp_del, vf, vx, vp >>
 
 di3(self) == /\ pc[self] = "di3"
              /\ vx_d' = [vx_d EXCEPT ![self] = obj[vc[self]] = "ok"]
@@ -1113,10 +1315,12 @@ di3(self) == /\ pc[self] = "di3"
                    THEN /\ pc' = [pc EXCEPT ![self] = "di4"]
                    ELSE /\ pc' = [pc EXCEPT ![self] = "di3b"]
              /\ UNCHANGED << obj, pref, cref, doc, mark, keep, locked, waitq, 
-                             woken, result, stack, vtb_, vid_, vtb, vid, vp_, 
-                             vc_t, va_, vb_, vout, vmade, vrp, vrl_, vp_s, 
+                             woken, result, rdata, stack, vtb_, vid_, vtb, vid, 
+                             vp_, vc_t, va_, vb_, vout, vmade, vrp, vrl_, vp_s, 
                              vc_s, vx_, vc, vb_d, vp_d, vc_, vcls, vrl, va, vb, 
-                             vx, vdels, vdocs, vf_, vp, vtodo, vmarked, vf >>
+                             vx_de, vdels, vdocs, vf_, vp_de, vtodo, vkeepl, 
+                             vmarked, ve, vp_p, vf_p, vver, vp_g, vf_g, vx_g, 
+                             vp_del, vf, vx, vp >>
 
 di4(self) == /\ pc[self] = "di4"
              /\ IF obj[vc[self]] = "ok"
@@ -1128,21 +1332,24 @@ di4(self) == /\ pc[self] = "di4"
                         /\ obj' = obj
              /\ pc' = [pc EXCEPT ![self] = "di5"]
              /\ UNCHANGED << pref, cref, doc, mark, keep, locked, waitq, woken, 
-                             stack, vtb_, vid_, vtb, vid, vp_, vc_t, va_, vb_, 
-                             vout, vmade, vrp, vrl_, vp_s, vc_s, vx_, vc, vb_d, 
-                             vx_d, vp_d, vc_, vcls, vrl, va, vb, vx, vdels, 
-                             vdocs, vf_, vp, vtodo, vmarked, vf >>
+                             rdata, stack, vtb_, vid_, vtb, vid, vp_, vc_t, 
+                             va_, vb_, vout, vmade, vrp, vrl_, vp_s, vc_s, vx_, 
+                             vc, vb_d, vx_d, vp_d, vc_, vcls, vrl, va, vb, 
+                             vx_de, vdels, vdocs, vf_, vp_de, vtodo, vkeepl, 
+                             vmarked, ve, vp_p, vf_p, vver, vp_g, vf_g, vx_g, 
+                             vp_del, vf, vx, vp >>
 
 di3b(self) == /\ pc[self] = "di3b"
               /\ ev' = Ev(self, "stat", P("obj", vc[self]), NoPath, FN(obj[vc[self]] = "ok"))
               /\ result' = [result EXCEPT ![self] = "ioerror"]
               /\ pc' = [pc EXCEPT ![self] = "di5"]
               /\ UNCHANGED << obj, pref, cref, doc, mark, keep, locked, waitq, 
-                              woken, stack, vtb_, vid_, vtb, vid, vp_, vc_t, 
-                              va_, vb_, vout, vmade, vrp, vrl_, vp_s, vc_s, 
-                              vx_, vc, vb_d, vx_d, vp_d, vc_, vcls, vrl, va, 
-                              vb, vx, vdels, vdocs, vf_, vp, vtodo, vmarked, 
-                              vf >>
+                              woken, rdata, stack, vtb_, vid_, vtb, vid, vp_, 
+                              vc_t, va_, vb_, vout, vmade, vrp, vrl_, vp_s, 
+                              vc_s, vx_, vc, vb_d, vx_d, vp_d, vc_, vcls, vrl, 
+                              va, vb, vx_de, vdels, vdocs, vf_, vp_de, vtodo, 
+                              vkeepl, vmarked, ve, vp_p, vf_p, vver, vp_g, 
+                              vf_g, vx_g, vp_del, vf, vx, vp >>
 
 di5(self) == /\ pc[self] = "di5"
              /\ /\ stack' = [stack EXCEPT ![self] = << [ procedure |->  "release",
@@ -1154,10 +1361,12 @@ di5(self) == /\ pc[self] = "di5"
                 /\ vtb' = [vtb EXCEPT ![self] = "cid"]
              /\ pc' = [pc EXCEPT ![self] = "rl1"]
              /\ UNCHANGED << obj, pref, cref, doc, mark, keep, locked, waitq, 
-                             woken, ev, result, vtb_, vid_, vp_, vc_t, va_, 
-                             vb_, vout, vmade, vrp, vrl_, vp_s, vc_s, vx_, vc, 
-                             vb_d, vx_d, vp_d, vc_, vcls, vrl, va, vb, vx, 
-                             vdels, vdocs, vf_, vp, vtodo, vmarked, vf >>
+                             woken, ev, result, rdata, vtb_, vid_, vp_, vc_t, 
+                             va_, vb_, vout, vmade, vrp, vrl_, vp_s, vc_s, vx_, 
+                             vc, vb_d, vx_d, vp_d, vc_, vcls, vrl, va, vb, 
+                             vx_de, vdels, vdocs, vf_, vp_de, vtodo, vkeepl, 
+                             vmarked, ve, vp_p, vf_p, vver, vp_g, vf_g, vx_g, 
+                             vp_del, vf, vx, vp >>
 
 di6(self) == /\ pc[self] = "di6"
              /\ pc' = [pc EXCEPT ![self] = Head(stack[self]).pc]
@@ -1166,10 +1375,12 @@ di6(self) == /\ pc[self] = "di6"
              /\ vc' = [vc EXCEPT ![self] = Head(stack[self]).vc]
              /\ stack' = [stack EXCEPT ![self] = Tail(stack[self])]
              /\ UNCHANGED << obj, pref, cref, doc, mark, keep, locked, waitq, 
-                             woken, ev, result, vtb_, vid_, vtb, vid, vp_, 
-                             vc_t, va_, vb_, vout, vmade, vrp, vrl_, vp_s, 
-                             vc_s, vx_, vp_d, vc_, vcls, vrl, va, vb, vx, 
-                             vdels, vdocs, vf_, vp, vtodo, vmarked, vf >>
+                             woken, ev, result, rdata, vtb_, vid_, vtb, vid, 
+                             vp_, vc_t, va_, vb_, vout, vmade, vrp, vrl_, vp_s, 
+                             vc_s, vx_, vp_d, vc_, vcls, vrl, va, vb, vx_de, 
+                             vdels, vdocs, vf_, vp_de, vtodo, vkeepl, vmarked, 
+                             ve, vp_p, vf_p, vver, vp_g, vf_g, vx_g, vp_del, 
+                             vf, vx, vp >>
 
 diibad(self) == di1(self) \/ di2(self) \/ di3(self) \/ di4(self)
                    \/ di3b(self) \/ di5(self) \/ di6(self)
@@ -1184,10 +1395,12 @@ d1(self) == /\ pc[self] = "d1"
                /\ vtb_' = [vtb_ EXCEPT ![self] = "objpid"]
             /\ pc' = [pc EXCEPT ![self] = "cl1"]
             /\ UNCHANGED << obj, pref, cref, doc, mark, keep, locked, waitq, 
-                            woken, ev, result, vtb, vid, vp_, vc_t, va_, vb_, 
-                            vout, vmade, vrp, vrl_, vp_s, vc_s, vx_, vc, vb_d, 
-                            vx_d, vp_d, vc_, vcls, vrl, va, vb, vx, vdels, 
-                            vdocs, vf_, vp, vtodo, vmarked, vf >>
+                            woken, ev, result, rdata, vtb, vid, vp_, vc_t, va_, 
+                            vb_, vout, vmade, vrp, vrl_, vp_s, vc_s, vx_, vc, 
+                            vb_d, vx_d, vp_d, vc_, vcls, vrl, va, vb, vx_de, 
+                            vdels, vdocs, vf_, vp_de, vtodo, vkeepl, vmarked, 
+                            ve, vp_p, vf_p, vver, vp_g, vf_g, vx_g, vp_del, vf, 
+                            vx, vp >>
 
 d2(self) == /\ pc[self] = "d2"
             /\ /\ stack' = [stack EXCEPT ![self] = << [ procedure |->  "claim",
@@ -1199,10 +1412,12 @@ d2(self) == /\ pc[self] = "d2"
                /\ vtb_' = [vtb_ EXCEPT ![self] = "refpid"]
             /\ pc' = [pc EXCEPT ![self] = "cl1"]
             /\ UNCHANGED << obj, pref, cref, doc, mark, keep, locked, waitq, 
-                            woken, ev, result, vtb, vid, vp_, vc_t, va_, vb_, 
-                            vout, vmade, vrp, vrl_, vp_s, vc_s, vx_, vc, vb_d, 
-                            vx_d, vp_d, vc_, vcls, vrl, va, vb, vx, vdels, 
-                            vdocs, vf_, vp, vtodo, vmarked, vf >>
+                            woken, ev, result, rdata, vtb, vid, vp_, vc_t, va_, 
+                            vb_, vout, vmade, vrp, vrl_, vp_s, vc_s, vx_, vc, 
+                            vb_d, vx_d, vp_d, vc_, vcls, vrl, va, vb, vx_de, 
+                            vdels, vdocs, vf_, vp_de, vtodo, vkeepl, vmarked, 
+                            ve, vp_p, vf_p, vver, vp_g, vf_g, vx_g, vp_del, vf, 
+                            vx, vp >>
 
 f1(self) == /\ pc[self] = "f1"
             /\ va' = [va EXCEPT ![self] = pref[vp_d[self]] # None]
@@ -1213,10 +1428,12 @@ f1(self) == /\ pc[self] = "f1"
                   ELSE /\ pc' = [pc EXCEPT ![self] = "f2"]
                        /\ vcls' = vcls
             /\ UNCHANGED << obj, pref, cref, doc, mark, keep, locked, waitq, 
-                            woken, result, stack, vtb_, vid_, vtb, vid, vp_, 
-                            vc_t, va_, vb_, vout, vmade, vrp, vrl_, vp_s, vc_s, 
-                            vx_, vc, vb_d, vx_d, vp_d, vc_, vrl, vb, vx, vdels, 
-                            vdocs, vf_, vp, vtodo, vmarked, vf >>
+                            woken, result, rdata, stack, vtb_, vid_, vtb, vid, 
+                            vp_, vc_t, va_, vb_, vout, vmade, vrp, vrl_, vp_s, 
+                            vc_s, vx_, vc, vb_d, vx_d, vp_d, vc_, vrl, vb, 
+                            vx_de, vdels, vdocs, vf_, vp_de, vtodo, vkeepl, 
+                            vmarked, ve, vp_p, vf_p, vver, vp_g, vf_g, vx_g, 
+                            vp_del, vf, vx, vp >>
 
 f2(self) == /\ pc[self] = "f2"
             /\ IF pref[vp_d[self]] = None
@@ -1229,10 +1446,12 @@ f2(self) == /\ pc[self] = "f2"
                        /\ pc' = [pc EXCEPT ![self] = "f3"]
                        /\ vcls' = vcls
             /\ UNCHANGED << obj, pref, cref, doc, mark, keep, locked, waitq, 
-                            woken, result, stack, vtb_, vid_, vtb, vid, vp_, 
-                            vc_t, va_, vb_, vout, vmade, vrp, vrl_, vp_s, vc_s, 
-                            vx_, vc, vb_d, vx_d, vp_d, vrl, va, vb, vx, vdels, 
-                            vdocs, vf_, vp, vtodo, vmarked, vf >>
+                            woken, result, rdata, stack, vtb_, vid_, vtb, vid, 
+                            vp_, vc_t, va_, vb_, vout, vmade, vrp, vrl_, vp_s, 
+                            vc_s, vx_, vc, vb_d, vx_d, vp_d, vrl, va, vb, 
+                            vx_de, vdels, vdocs, vf_, vp_de, vtodo, vkeepl, 
+                            vmarked, ve, vp_p, vf_p, vver, vp_g, vf_g, vx_g, 
+                            vp_del, vf, vx, vp >>
 
 f3(self) == /\ pc[self] = "f3"
             /\ vb' = [vb EXCEPT ![self] = cref[vc_[self]].has]
@@ -1243,10 +1462,12 @@ f3(self) == /\ pc[self] = "f3"
                   ELSE /\ pc' = [pc EXCEPT ![self] = "f4"]
                        /\ vcls' = vcls
             /\ UNCHANGED << obj, pref, cref, doc, mark, keep, locked, waitq, 
-                            woken, result, stack, vtb_, vid_, vtb, vid, vp_, 
-                            vc_t, va_, vb_, vout, vmade, vrp, vrl_, vp_s, vc_s, 
-                            vx_, vc, vb_d, vx_d, vp_d, vc_, vrl, va, vx, vdels, 
-                            vdocs, vf_, vp, vtodo, vmarked, vf >>
+                            woken, result, rdata, stack, vtb_, vid_, vtb, vid, 
+                            vp_, vc_t, va_, vb_, vout, vmade, vrp, vrl_, vp_s, 
+                            vc_s, vx_, vc, vb_d, vx_d, vp_d, vc_, vrl, va, 
+                            vx_de, vdels, vdocs, vf_, vp_de, vtodo, vkeepl, 
+                            vmarked, ve, vp_p, vf_p, vver, vp_g, vf_g, vx_g, 
+                            vp_del, vf, vx, vp >>
 
 f4(self) == /\ pc[self] = "f4"
             /\ IF ~cref[vc_[self]].has
@@ -1259,10 +1480,12 @@ f4(self) == /\ pc[self] = "f4"
                        /\ pc' = [pc EXCEPT ![self] = "f5"]
                        /\ vcls' = vcls
             /\ UNCHANGED << obj, pref, cref, doc, mark, keep, locked, waitq, 
-                            woken, result, stack, vtb_, vid_, vtb, vid, vp_, 
-                            vc_t, va_, vb_, vout, vmade, vrp, vrl_, vp_s, vc_s, 
-                            vx_, vc, vb_d, vx_d, vp_d, vc_, va, vb, vx, vdels, 
-                            vdocs, vf_, vp, vtodo, vmarked, vf >>
+                            woken, result, rdata, stack, vtb_, vid_, vtb, vid, 
+                            vp_, vc_t, va_, vb_, vout, vmade, vrp, vrl_, vp_s, 
+                            vc_s, vx_, vc, vb_d, vx_d, vp_d, vc_, va, vb, 
+                            vx_de, vdels, vdocs, vf_, vp_de, vtodo, vkeepl, 
+                            vmarked, ve, vp_p, vf_p, vver, vp_g, vf_g, vx_g, 
+                            vp_del, vf, vx, vp >>
 
 f5(self) == /\ pc[self] = "f5"
             /\ IF ~InSeq(vp_d[self], vrl[self])
@@ -1271,43 +1494,51 @@ f5(self) == /\ pc[self] = "f5"
                   ELSE /\ pc' = [pc EXCEPT ![self] = "f6"]
                        /\ vcls' = vcls
             /\ UNCHANGED << obj, pref, cref, doc, mark, keep, locked, waitq, 
-                            woken, ev, result, stack, vtb_, vid_, vtb, vid, 
-                            vp_, vc_t, va_, vb_, vout, vmade, vrp, vrl_, vp_s, 
-                            vc_s, vx_, vc, vb_d, vx_d, vp_d, vc_, vrl, va, vb, 
-                            vx, vdels, vdocs, vf_, vp, vtodo, vmarked, vf >>
+                            woken, ev, result, rdata, stack, vtb_, vid_, vtb, 
+                            vid, vp_, vc_t, va_, vb_, vout, vmade, vrp, vrl_, 
+                            vp_s, vc_s, vx_, vc, vb_d, vx_d, vp_d, vc_, vrl, 
+                            va, vb, vx_de, vdels, vdocs, vf_, vp_de, vtodo, 
+                            vkeepl, vmarked, ve, vp_p, vf_p, vver, vp_g, vf_g, 
+                            vx_g, vp_del, vf, vx, vp >>
 
 f6(self) == /\ pc[self] = "f6"
-            /\ vx' = [vx EXCEPT ![self] = obj[vc_[self]] = "ok"]
-            /\ ev' = Ev(self, "stat", P("obj", vc_[self]), NoPath, FN(vx'[self]))
-            /\ IF ~vx'[self]
+            /\ vx_de' = [vx_de EXCEPT ![self] = obj[vc_[self]] = "ok"]
+            /\ ev' = Ev(self, "stat", P("obj", vc_[self]), NoPath, FN(vx_de'[self]))
+            /\ IF ~vx_de'[self]
                   THEN /\ vcls' = [vcls EXCEPT ![self] = "objmissing"]
                        /\ pc' = [pc EXCEPT ![self] = "missing"]
                   ELSE /\ pc' = [pc EXCEPT ![self] = "f7"]
                        /\ vcls' = vcls
             /\ UNCHANGED << obj, pref, cref, doc, mark, keep, locked, waitq, 
-                            woken, result, stack, vtb_, vid_, vtb, vid, vp_, 
-                            vc_t, va_, vb_, vout, vmade, vrp, vrl_, vp_s, vc_s, 
-                            vx_, vc, vb_d, vx_d, vp_d, vc_, vrl, va, vb, vdels, 
-                            vdocs, vf_, vp, vtodo, vmarked, vf >>
+                            woken, result, rdata, stack, vtb_, vid_, vtb, vid, 
+                            vp_, vc_t, va_, vb_, vout, vmade, vrp, vrl_, vp_s, 
+                            vc_s, vx_, vc, vb_d, vx_d, vp_d, vc_, vrl, va, vb, 
+                            vdels, vdocs, vf_, vp_de, vtodo, vkeepl, vmarked, 
+                            ve, vp_p, vf_p, vver, vp_g, vf_g, vx_g, vp_del, vf, 
+                            vx, vp >>
 
 f7(self) == /\ pc[self] = "f7"
             /\ ev' = Ev(self, "stat", P("obj", vc_[self]), NoPath, FN(obj[vc_[self]] = "ok"))
             /\ pc' = [pc EXCEPT ![self] = "f8"]
             /\ UNCHANGED << obj, pref, cref, doc, mark, keep, locked, waitq, 
-                            woken, result, stack, vtb_, vid_, vtb, vid, vp_, 
-                            vc_t, va_, vb_, vout, vmade, vrp, vrl_, vp_s, vc_s, 
-                            vx_, vc, vb_d, vx_d, vp_d, vc_, vcls, vrl, va, vb, 
-                            vx, vdels, vdocs, vf_, vp, vtodo, vmarked, vf >>
+                            woken, result, rdata, stack, vtb_, vid_, vtb, vid, 
+                            vp_, vc_t, va_, vb_, vout, vmade, vrp, vrl_, vp_s, 
+                            vc_s, vx_, vc, vb_d, vx_d, vp_d, vc_, vcls, vrl, 
+                            va, vb, vx_de, vdels, vdocs, vf_, vp_de, vtodo, 
+                            vkeepl, vmarked, ve, vp_p, vf_p, vver, vp_g, vf_g, 
+                            vx_g, vp_del, vf, vx, vp >>
 
 f8(self) == /\ pc[self] = "f8"
             /\ ev' = Ev(self, "stat", P("doc", vp_d[self] \o "/" \o DefaultNs), NoPath, FN(doc[vp_d[self]][DefaultNs] # None))
             /\ vcls' = [vcls EXCEPT ![self] = "found"]
             /\ pc' = [pc EXCEPT ![self] = "m1"]
             /\ UNCHANGED << obj, pref, cref, doc, mark, keep, locked, waitq, 
-                            woken, result, stack, vtb_, vid_, vtb, vid, vp_, 
-                            vc_t, va_, vb_, vout, vmade, vrp, vrl_, vp_s, vc_s, 
-                            vx_, vc, vb_d, vx_d, vp_d, vc_, vrl, va, vb, vx, 
-                            vdels, vdocs, vf_, vp, vtodo, vmarked, vf >>
+                            woken, result, rdata, stack, vtb_, vid_, vtb, vid, 
+                            vp_, vc_t, va_, vb_, vout, vmade, vrp, vrl_, vp_s, 
+                            vc_s, vx_, vc, vb_d, vx_d, vp_d, vc_, vrl, va, vb, 
+                            vx_de, vdels, vdocs, vf_, vp_de, vtodo, vkeepl, 
+                            vmarked, ve, vp_p, vf_p, vver, vp_g, vf_g, vx_g, 
+                            vp_del, vf, vx, vp >>
 
 m1(self) == /\ pc[self] = "m1"
             /\ /\ stack' = [stack EXCEPT ![self] = << [ procedure |->  "claim",
@@ -1319,19 +1550,23 @@ m1(self) == /\ pc[self] = "m1"
                /\ vtb_' = [vtb_ EXCEPT ![self] = "cid"]
             /\ pc' = [pc EXCEPT ![self] = "cl1"]
             /\ UNCHANGED << obj, pref, cref, doc, mark, keep, locked, waitq, 
-                            woken, ev, result, vtb, vid, vp_, vc_t, va_, vb_, 
-                            vout, vmade, vrp, vrl_, vp_s, vc_s, vx_, vc, vb_d, 
-                            vx_d, vp_d, vc_, vcls, vrl, va, vb, vx, vdels, 
-                            vdocs, vf_, vp, vtodo, vmarked, vf >>
+                            woken, ev, result, rdata, vtb, vid, vp_, vc_t, va_, 
+                            vb_, vout, vmade, vrp, vrl_, vp_s, vc_s, vx_, vc, 
+                            vb_d, vx_d, vp_d, vc_, vcls, vrl, va, vb, vx_de, 
+                            vdels, vdocs, vf_, vp_de, vtodo, vkeepl, vmarked, 
+                            ve, vp_p, vf_p, vver, vp_g, vf_g, vx_g, vp_del, vf, 
+                            vx, vp >>
 
 m2(self) == /\ pc[self] = "m2"
             /\ ev' = Ev(self, "stat", P("pidrefdel", vp_d[self]), NoPath, FN(P("pidrefdel", vp_d[self]) \in mark))
             /\ pc' = [pc EXCEPT ![self] = "m3"]
             /\ UNCHANGED << obj, pref, cref, doc, mark, keep, locked, waitq, 
-                            woken, result, stack, vtb_, vid_, vtb, vid, vp_, 
-                            vc_t, va_, vb_, vout, vmade, vrp, vrl_, vp_s, vc_s, 
-                            vx_, vc, vb_d, vx_d, vp_d, vc_, vcls, vrl, va, vb, 
-                            vx, vdels, vdocs, vf_, vp, vtodo, vmarked, vf >>
+                            woken, result, rdata, stack, vtb_, vid_, vtb, vid, 
+                            vp_, vc_t, va_, vb_, vout, vmade, vrp, vrl_, vp_s, 
+                            vc_s, vx_, vc, vb_d, vx_d, vp_d, vc_, vcls, vrl, 
+                            va, vb, vx_de, vdels, vdocs, vf_, vp_de, vtodo, 
+                            vkeepl, vmarked, ve, vp_p, vf_p, vver, vp_g, vf_g, 
+                            vx_g, vp_del, vf, vx, vp >>
 
 m3(self) == /\ pc[self] = "m3"
             /\ IF pref[vp_d[self]] = None
@@ -1346,10 +1581,11 @@ m3(self) == /\ pc[self] = "m3"
                        /\ pc' = [pc EXCEPT ![self] = "m4"]
                        /\ vcls' = vcls
             /\ UNCHANGED << obj, cref, doc, keep, locked, waitq, woken, result, 
-                            stack, vtb_, vid_, vtb, vid, vp_, vc_t, va_, vb_, 
-                            vout, vmade, vrp, vrl_, vp_s, vc_s, vx_, vc, vb_d, 
-                            vx_d, vp_d, vc_, vrl, va, vb, vx, vdocs, vf_, vp, 
-                            vtodo, vmarked, vf >>
+                            rdata, stack, vtb_, vid_, vtb, vid, vp_, vc_t, va_, 
+                            vb_, vout, vmade, vrp, vrl_, vp_s, vc_s, vx_, vc, 
+                            vb_d, vx_d, vp_d, vc_, vrl, va, vb, vx_de, vdocs, 
+                            vf_, vp_de, vtodo, vkeepl, vmarked, ve, vp_p, vf_p, 
+                            vver, vp_g, vf_g, vx_g, vp_del, vf, vx, vp >>
 
 m4(self) == /\ pc[self] = "m4"
             /\ vb' = [vb EXCEPT ![self] = cref[vc_[self]].has]
@@ -1360,10 +1596,12 @@ m4(self) == /\ pc[self] = "m4"
                   ELSE /\ pc' = [pc EXCEPT ![self] = "m5"]
                        /\ vcls' = vcls
             /\ UNCHANGED << obj, pref, cref, doc, mark, keep, locked, waitq, 
-                            woken, result, stack, vtb_, vid_, vtb, vid, vp_, 
-                            vc_t, va_, vb_, vout, vmade, vrp, vrl_, vp_s, vc_s, 
-                            vx_, vc, vb_d, vx_d, vp_d, vc_, vrl, va, vx, vdels, 
-                            vdocs, vf_, vp, vtodo, vmarked, vf >>
+                            woken, result, rdata, stack, vtb_, vid_, vtb, vid, 
+                            vp_, vc_t, va_, vb_, vout, vmade, vrp, vrl_, vp_s, 
+                            vc_s, vx_, vc, vb_d, vx_d, vp_d, vc_, vrl, va, 
+                            vx_de, vdels, vdocs, vf_, vp_de, vtodo, vkeepl, 
+                            vmarked, ve, vp_p, vf_p, vver, vp_g, vf_g, vx_g, 
+                            vp_del, vf, vx, vp >>
 
 m5(self) == /\ pc[self] = "m5"
             /\ IF ~cref[vc_[self]].has
@@ -1376,29 +1614,35 @@ m5(self) == /\ pc[self] = "m5"
                        /\ pc' = [pc EXCEPT ![self] = "m6"]
                        /\ vcls' = vcls
             /\ UNCHANGED << obj, pref, cref, doc, mark, keep, locked, waitq, 
-                            woken, result, stack, vtb_, vid_, vtb, vid, vp_, 
-                            vc_t, va_, vb_, vout, vmade, vrp, vrl_, vp_s, vc_s, 
-                            vx_, vc, vb_d, vx_d, vp_d, vc_, va, vb, vx, vdels, 
-                            vdocs, vf_, vp, vtodo, vmarked, vf >>
+                            woken, result, rdata, stack, vtb_, vid_, vtb, vid, 
+                            vp_, vc_t, va_, vb_, vout, vmade, vrp, vrl_, vp_s, 
+                            vc_s, vx_, vc, vb_d, vx_d, vp_d, vc_, va, vb, 
+                            vx_de, vdels, vdocs, vf_, vp_de, vtodo, vkeepl, 
+                            vmarked, ve, vp_p, vf_p, vver, vp_g, vf_g, vx_g, 
+                            vp_del, vf, vx, vp >>
 
 m6(self) == /\ pc[self] = "m6"
             /\ cref' = [cref EXCEPT ![vc_[self]] = List(Without(vrl[self], vp_d[self]))]
             /\ ev' = Ev(self, "rewrite", P("cidref", vc_[self]), NoPath, "ok")
             /\ pc' = [pc EXCEPT ![self] = "m7"]
             /\ UNCHANGED << obj, pref, doc, mark, keep, locked, waitq, woken, 
-                            result, stack, vtb_, vid_, vtb, vid, vp_, vc_t, 
-                            va_, vb_, vout, vmade, vrp, vrl_, vp_s, vc_s, vx_, 
-                            vc, vb_d, vx_d, vp_d, vc_, vcls, vrl, va, vb, vx, 
-                            vdels, vdocs, vf_, vp, vtodo, vmarked, vf >>
+                            result, rdata, stack, vtb_, vid_, vtb, vid, vp_, 
+                            vc_t, va_, vb_, vout, vmade, vrp, vrl_, vp_s, vc_s, 
+                            vx_, vc, vb_d, vx_d, vp_d, vc_, vcls, vrl, va, vb, 
+                            vx_de, vdels, vdocs, vf_, vp_de, vtodo, vkeepl, 
+                            vmarked, ve, vp_p, vf_p, vver, vp_g, vf_g, vx_g, 
+                            vp_del, vf, vx, vp >>
 
 m7(self) == /\ pc[self] = "m7"
             /\ ev' = Ev(self, "truncate", P("cidref", vc_[self]), NoPath, "ok")
             /\ pc' = [pc EXCEPT ![self] = "m8"]
             /\ UNCHANGED << obj, pref, cref, doc, mark, keep, locked, waitq, 
-                            woken, result, stack, vtb_, vid_, vtb, vid, vp_, 
-                            vc_t, va_, vb_, vout, vmade, vrp, vrl_, vp_s, vc_s, 
-                            vx_, vc, vb_d, vx_d, vp_d, vc_, vcls, vrl, va, vb, 
-                            vx, vdels, vdocs, vf_, vp, vtodo, vmarked, vf >>
+                            woken, result, rdata, stack, vtb_, vid_, vtb, vid, 
+                            vp_, vc_t, va_, vb_, vout, vmade, vrp, vrl_, vp_s, 
+                            vc_s, vx_, vc, vb_d, vx_d, vp_d, vc_, vcls, vrl, 
+                            va, vb, vx_de, vdels, vdocs, vf_, vp_de, vtodo, 
+                            vkeepl, vmarked, ve, vp_p, vf_p, vver, vp_g, vf_g, 
+                            vx_g, vp_del, vf, vx, vp >>
 
 m8(self) == /\ pc[self] = "m8"
             /\ vb' = [vb EXCEPT ![self] = cref[vc_[self]].has /\ cref[vc_[self]].pids = <<>>]
@@ -1409,30 +1653,35 @@ m8(self) == /\ pc[self] = "m8"
                   ELSE /\ pc' = [pc EXCEPT ![self] = "m8b"]
                        /\ vcls' = vcls
             /\ UNCHANGED << obj, pref, cref, doc, mark, keep, locked, waitq, 
-                            woken, result, stack, vtb_, vid_, vtb, vid, vp_, 
-                            vc_t, va_, vb_, vout, vmade, vrp, vrl_, vp_s, vc_s, 
-                            vx_, vc, vb_d, vx_d, vp_d, vc_, vrl, va, vx, vdels, 
-                            vdocs, vf_, vp, vtodo, vmarked, vf >>
+                            woken, result, rdata, stack, vtb_, vid_, vtb, vid, 
+                            vp_, vc_t, va_, vb_, vout, vmade, vrp, vrl_, vp_s, 
+                            vc_s, vx_, vc, vb_d, vx_d, vp_d, vc_, vrl, va, 
+                            vx_de, vdels, vdocs, vf_, vp_de, vtodo, vkeepl, 
+                            vmarked, ve, vp_p, vf_p, vver, vp_g, vf_g, vx_g, 
+                            vp_del, vf, vx, vp >>
 
 m8b(self) == /\ pc[self] = "m8b"
              /\ IF vb[self]
                    THEN /\ pc' = [pc EXCEPT ![self] = "m9"]
                    ELSE /\ pc' = [pc EXCEPT ![self] = "m13"]
              /\ UNCHANGED << obj, pref, cref, doc, mark, keep, locked, waitq, 
-                             woken, ev, result, stack, vtb_, vid_, vtb, vid, 
-                             vp_, vc_t, va_, vb_, vout, vmade, vrp, vrl_, vp_s, 
-                             vc_s, vx_, vc, vb_d, vx_d, vp_d, vc_, vcls, vrl, 
-                             va, vb, vx, vdels, vdocs, vf_, vp, vtodo, vmarked, 
-                             vf >>
+                             woken, ev, result, rdata, stack, vtb_, vid_, vtb, 
+                             vid, vp_, vc_t, va_, vb_, vout, vmade, vrp, vrl_, 
+                             vp_s, vc_s, vx_, vc, vb_d, vx_d, vp_d, vc_, vcls, 
+                             vrl, va, vb, vx_de, vdels, vdocs, vf_, vp_de, 
+                             vtodo, vkeepl, vmarked, ve, vp_p, vf_p, vver, 
+                             vp_g, vf_g, vx_g, vp_del, vf, vx, vp >>
 
 m9(self) == /\ pc[self] = "m9"
             /\ ev' = Ev(self, "stat", P("cidrefdel", vc_[self]), NoPath, FN(P("cidrefdel", vc_[self]) \in mark))
             /\ pc' = [pc EXCEPT ![self] = "m10"]
             /\ UNCHANGED << obj, pref, cref, doc, mark, keep, locked, waitq, 
-                            woken, result, stack, vtb_, vid_, vtb, vid, vp_, 
-                            vc_t, va_, vb_, vout, vmade, vrp, vrl_, vp_s, vc_s, 
-                            vx_, vc, vb_d, vx_d, vp_d, vc_, vcls, vrl, va, vb, 
-                            vx, vdels, vdocs, vf_, vp, vtodo, vmarked, vf >>
+                            woken, result, rdata, stack, vtb_, vid_, vtb, vid, 
+                            vp_, vc_t, va_, vb_, vout, vmade, vrp, vrl_, vp_s, 
+                            vc_s, vx_, vc, vb_d, vx_d, vp_d, vc_, vcls, vrl, 
+                            va, vb, vx_de, vdels, vdocs, vf_, vp_de, vtodo, 
+                            vkeepl, vmarked, ve, vp_p, vf_p, vver, vp_g, vf_g, 
+                            vx_g, vp_del, vf, vx, vp >>
 
 m10(self) == /\ pc[self] = "m10"
              /\ IF ~cref[vc_[self]].has
@@ -1448,20 +1697,23 @@ m10(self) == /\ pc[self] = "m10"
                         /\ pc' = [pc EXCEPT ![self] = "m11"]
                         /\ vcls' = vcls
              /\ UNCHANGED << obj, pref, doc, locked, waitq, woken, result, 
-                             stack, vtb_, vid_, vtb, vid, vp_, vc_t, va_, vb_, 
-                             vout, vmade, vrp, vrl_, vp_s, vc_s, vx_, vc, vb_d, 
-                             vx_d, vp_d, vc_, vrl, va, vb, vx, vdocs, vf_, vp, 
-                             vtodo, vmarked, vf >>
+                             rdata, stack, vtb_, vid_, vtb, vid, vp_, vc_t, 
+                             va_, vb_, vout, vmade, vrp, vrl_, vp_s, vc_s, vx_, 
+                             vc, vb_d, vx_d, vp_d, vc_, vrl, va, vb, vx_de, 
+                             vdocs, vf_, vp_de, vtodo, vkeepl, vmarked, ve, 
+                             vp_p, vf_p, vver, vp_g, vf_g, vx_g, vp_del, vf, 
+                             vx, vp >>
 
 m11(self) == /\ pc[self] = "m11"
              /\ ev' = Ev(self, "stat", P("objdel", vc_[self]), NoPath, FN(P("objdel", vc_[self]) \in mark))
              /\ pc' = [pc EXCEPT ![self] = "m12"]
              /\ UNCHANGED << obj, pref, cref, doc, mark, keep, locked, waitq, 
-                             woken, result, stack, vtb_, vid_, vtb, vid, vp_, 
-                             vc_t, va_, vb_, vout, vmade, vrp, vrl_, vp_s, 
+                             woken, result, rdata, stack, vtb_, vid_, vtb, vid, 
+                             vp_, vc_t, va_, vb_, vout, vmade, vrp, vrl_, vp_s, 
                              vc_s, vx_, vc, vb_d, vx_d, vp_d, vc_, vcls, vrl, 
-                             va, vb, vx, vdels, vdocs, vf_, vp, vtodo, vmarked, 
-                             vf >>
+                             va, vb, vx_de, vdels, vdocs, vf_, vp_de, vtodo, 
+                             vkeepl, vmarked, ve, vp_p, vf_p, vver, vp_g, vf_g, 
+                             vx_g, vp_del, vf, vx, vp >>
 
 m12(self) == /\ pc[self] = "m12"
              /\ IF obj[vc_[self]] # "ok"
@@ -1476,10 +1728,12 @@ m12(self) == /\ pc[self] = "m12"
                         /\ pc' = [pc EXCEPT ![self] = "m13"]
                         /\ vcls' = vcls
              /\ UNCHANGED << pref, cref, doc, keep, locked, waitq, woken, 
-                             result, stack, vtb_, vid_, vtb, vid, vp_, vc_t, 
-                             va_, vb_, vout, vmade, vrp, vrl_, vp_s, vc_s, vx_, 
-                             vc, vb_d, vx_d, vp_d, vc_, vrl, va, vb, vx, vdocs, 
-                             vf_, vp, vtodo, vmarked, vf >>
+                             result, rdata, stack, vtb_, vid_, vtb, vid, vp_, 
+                             vc_t, va_, vb_, vout, vmade, vrp, vrl_, vp_s, 
+                             vc_s, vx_, vc, vb_d, vx_d, vp_d, vc_, vrl, va, vb, 
+                             vx_de, vdocs, vf_, vp_de, vtodo, vkeepl, vmarked, 
+                             ve, vp_p, vf_p, vver, vp_g, vf_g, vx_g, vp_del, 
+                             vf, vx, vp >>
 
 m13(self) == /\ pc[self] = "m13"
              /\ IF vdels[self] # {}
@@ -1491,29 +1745,34 @@ m13(self) == /\ pc[self] = "m13"
                    ELSE /\ pc' = [pc EXCEPT ![self] = "m14"]
                         /\ UNCHANGED << mark, ev, vdels >>
              /\ UNCHANGED << obj, pref, cref, doc, keep, locked, waitq, woken, 
-                             result, stack, vtb_, vid_, vtb, vid, vp_, vc_t, 
-                             va_, vb_, vout, vmade, vrp, vrl_, vp_s, vc_s, vx_, 
-                             vc, vb_d, vx_d, vp_d, vc_, vcls, vrl, va, vb, vx, 
-                             vdocs, vf_, vp, vtodo, vmarked, vf >>
+                             result, rdata, stack, vtb_, vid_, vtb, vid, vp_, 
+                             vc_t, va_, vb_, vout, vmade, vrp, vrl_, vp_s, 
+                             vc_s, vx_, vc, vb_d, vx_d, vp_d, vc_, vcls, vrl, 
+                             va, vb, vx_de, vdocs, vf_, vp_de, vtodo, vkeepl, 
+                             vmarked, ve, vp_p, vf_p, vver, vp_g, vf_g, vx_g, 
+                             vp_del, vf, vx, vp >>
 
 m14(self) == /\ pc[self] = "m14"
              /\ /\ stack' = [stack EXCEPT ![self] = << [ procedure |->  "delmeta_all",
                                                          pc        |->  "mrel",
                                                          vtodo     |->  vtodo[self],
+                                                         vkeepl    |->  vkeepl[self],
                                                          vmarked   |->  vmarked[self],
-                                                         vf        |->  vf[self],
-                                                         vp        |->  vp[self] ] >>
+                                                         ve        |->  ve[self],
+                                                         vp_de     |->  vp_de[self] ] >>
                                                      \o stack[self]]
-                /\ vp' = [vp EXCEPT ![self] = vp_d[self]]
+                /\ vp_de' = [vp_de EXCEPT ![self] = vp_d[self]]
              /\ vtodo' = [vtodo EXCEPT ![self] = {}]
+             /\ vkeepl' = [vkeepl EXCEPT ![self] = {}]
              /\ vmarked' = [vmarked EXCEPT ![self] = {}]
-             /\ vf' = [vf EXCEPT ![self] = "-"]
+             /\ ve' = [ve EXCEPT ![self] = <<"-", "-">>]
              /\ pc' = [pc EXCEPT ![self] = "dm1"]
              /\ UNCHANGED << obj, pref, cref, doc, mark, keep, locked, waitq, 
-                             woken, ev, result, vtb_, vid_, vtb, vid, vp_, 
-                             vc_t, va_, vb_, vout, vmade, vrp, vrl_, vp_s, 
+                             woken, ev, result, rdata, vtb_, vid_, vtb, vid, 
+                             vp_, vc_t, va_, vb_, vout, vmade, vrp, vrl_, vp_s, 
                              vc_s, vx_, vc, vb_d, vx_d, vp_d, vc_, vcls, vrl, 
-                             va, vb, vx, vdels, vdocs, vf_ >>
+                             va, vb, vx_de, vdels, vdocs, vf_, vp_p, vf_p, 
+                             vver, vp_g, vf_g, vx_g, vp_del, vf, vx, vp >>
 
 mrel(self) == /\ pc[self] = "mrel"
               /\ /\ stack' = [stack EXCEPT ![self] = << [ procedure |->  "release",
@@ -1525,20 +1784,24 @@ mrel(self) == /\ pc[self] = "mrel"
                  /\ vtb' = [vtb EXCEPT ![self] = "cid"]
               /\ pc' = [pc EXCEPT ![self] = "rl1"]
               /\ UNCHANGED << obj, pref, cref, doc, mark, keep, locked, waitq, 
-                              woken, ev, result, vtb_, vid_, vp_, vc_t, va_, 
-                              vb_, vout, vmade, vrp, vrl_, vp_s, vc_s, vx_, vc, 
-                              vb_d, vx_d, vp_d, vc_, vcls, vrl, va, vb, vx, 
-                              vdels, vdocs, vf_, vp, vtodo, vmarked, vf >>
+                              woken, ev, result, rdata, vtb_, vid_, vp_, vc_t, 
+                              va_, vb_, vout, vmade, vrp, vrl_, vp_s, vc_s, 
+                              vx_, vc, vb_d, vx_d, vp_d, vc_, vcls, vrl, va, 
+                              vb, vx_de, vdels, vdocs, vf_, vp_de, vtodo, 
+                              vkeepl, vmarked, ve, vp_p, vf_p, vver, vp_g, 
+                              vf_g, vx_g, vp_del, vf, vx, vp >>
 
 orphan(self) == /\ pc[self] = "orphan"
                 /\ ev' = Ev(self, "stat", P("pidrefdel", vp_d[self]), NoPath, FN(P("pidrefdel", vp_d[self]) \in mark))
                 /\ pc' = [pc EXCEPT ![self] = "o2"]
                 /\ UNCHANGED << obj, pref, cref, doc, mark, keep, locked, 
-                                waitq, woken, result, stack, vtb_, vid_, vtb, 
-                                vid, vp_, vc_t, va_, vb_, vout, vmade, vrp, 
-                                vrl_, vp_s, vc_s, vx_, vc, vb_d, vx_d, vp_d, 
-                                vc_, vcls, vrl, va, vb, vx, vdels, vdocs, vf_, 
-                                vp, vtodo, vmarked, vf >>
+                                waitq, woken, result, rdata, stack, vtb_, vid_, 
+                                vtb, vid, vp_, vc_t, va_, vb_, vout, vmade, 
+                                vrp, vrl_, vp_s, vc_s, vx_, vc, vb_d, vx_d, 
+                                vp_d, vc_, vcls, vrl, va, vb, vx_de, vdels, 
+                                vdocs, vf_, vp_de, vtodo, vkeepl, vmarked, ve, 
+                                vp_p, vf_p, vver, vp_g, vf_g, vx_g, vp_del, vf, 
+                                vx, vp >>
 
 o2(self) == /\ pc[self] = "o2"
             /\ IF pref[vp_d[self]] = None
@@ -1552,49 +1815,58 @@ o2(self) == /\ pc[self] = "o2"
                        /\ pc' = [pc EXCEPT ![self] = "o3"]
                        /\ vcls' = vcls
             /\ UNCHANGED << obj, cref, doc, keep, locked, waitq, woken, result, 
-                            stack, vtb_, vid_, vtb, vid, vp_, vc_t, va_, vb_, 
-                            vout, vmade, vrp, vrl_, vp_s, vc_s, vx_, vc, vb_d, 
-                            vx_d, vp_d, vc_, vrl, va, vb, vx, vdels, vdocs, 
-                            vf_, vp, vtodo, vmarked, vf >>
+                            rdata, stack, vtb_, vid_, vtb, vid, vp_, vc_t, va_, 
+                            vb_, vout, vmade, vrp, vrl_, vp_s, vc_s, vx_, vc, 
+                            vb_d, vx_d, vp_d, vc_, vrl, va, vb, vx_de, vdels, 
+                            vdocs, vf_, vp_de, vtodo, vkeepl, vmarked, ve, 
+                            vp_p, vf_p, vver, vp_g, vf_g, vx_g, vp_del, vf, vx, 
+                            vp >>
 
 o3(self) == /\ pc[self] = "o3"
             /\ /\ stack' = [stack EXCEPT ![self] = << [ procedure |->  "delmeta_all",
                                                         pc        |->  "o4",
                                                         vtodo     |->  vtodo[self],
+                                                        vkeepl    |->  vkeepl[self],
                                                         vmarked   |->  vmarked[self],
-                                                        vf        |->  vf[self],
-                                                        vp        |->  vp[self] ] >>
+                                                        ve        |->  ve[self],
+                                                        vp_de     |->  vp_de[self] ] >>
                                                     \o stack[self]]
-               /\ vp' = [vp EXCEPT ![self] = vp_d[self]]
+               /\ vp_de' = [vp_de EXCEPT ![self] = vp_d[self]]
             /\ vtodo' = [vtodo EXCEPT ![self] = {}]
+            /\ vkeepl' = [vkeepl EXCEPT ![self] = {}]
             /\ vmarked' = [vmarked EXCEPT ![self] = {}]
-            /\ vf' = [vf EXCEPT ![self] = "-"]
+            /\ ve' = [ve EXCEPT ![self] = <<"-", "-">>]
             /\ pc' = [pc EXCEPT ![self] = "dm1"]
             /\ UNCHANGED << obj, pref, cref, doc, mark, keep, locked, waitq, 
-                            woken, ev, result, vtb_, vid_, vtb, vid, vp_, vc_t, 
-                            va_, vb_, vout, vmade, vrp, vrl_, vp_s, vc_s, vx_, 
-                            vc, vb_d, vx_d, vp_d, vc_, vcls, vrl, va, vb, vx, 
-                            vdels, vdocs, vf_ >>
+                            woken, ev, result, rdata, vtb_, vid_, vtb, vid, 
+                            vp_, vc_t, va_, vb_, vout, vmade, vrp, vrl_, vp_s, 
+                            vc_s, vx_, vc, vb_d, vx_d, vp_d, vc_, vcls, vrl, 
+                            va, vb, vx_de, vdels, vdocs, vf_, vp_p, vf_p, vver, 
+                            vp_g, vf_g, vx_g, vp_del, vf, vx, vp >>
 
 o4(self) == /\ pc[self] = "o4"
             /\ mark' = mark \ {P("pidrefdel", vp_d[self])}
             /\ ev' = Ev(self, "remove", P("pidrefdel", vp_d[self]), NoPath, "ok")
             /\ pc' = [pc EXCEPT ![self] = "dfin"]
             /\ UNCHANGED << obj, pref, cref, doc, keep, locked, waitq, woken, 
-                            result, stack, vtb_, vid_, vtb, vid, vp_, vc_t, 
-                            va_, vb_, vout, vmade, vrp, vrl_, vp_s, vc_s, vx_, 
-                            vc, vb_d, vx_d, vp_d, vc_, vcls, vrl, va, vb, vx, 
-                            vdels, vdocs, vf_, vp, vtodo, vmarked, vf >>
+                            result, rdata, stack, vtb_, vid_, vtb, vid, vp_, 
+                            vc_t, va_, vb_, vout, vmade, vrp, vrl_, vp_s, vc_s, 
+                            vx_, vc, vb_d, vx_d, vp_d, vc_, vcls, vrl, va, vb, 
+                            vx_de, vdels, vdocs, vf_, vp_de, vtodo, vkeepl, 
+                            vmarked, ve, vp_p, vf_p, vver, vp_g, vf_g, vx_g, 
+                            vp_del, vf, vx, vp >>
 
 missing(self) == /\ pc[self] = "missing"
                  /\ ev' = Ev(self, "stat", P("obj", vc_[self]), NoPath, FN(obj[vc_[self]] = "ok"))
                  /\ pc' = [pc EXCEPT ![self] = "x1"]
                  /\ UNCHANGED << obj, pref, cref, doc, mark, keep, locked, 
-                                 waitq, woken, result, stack, vtb_, vid_, vtb, 
-                                 vid, vp_, vc_t, va_, vb_, vout, vmade, vrp, 
-                                 vrl_, vp_s, vc_s, vx_, vc, vb_d, vx_d, vp_d, 
-                                 vc_, vcls, vrl, va, vb, vx, vdels, vdocs, vf_, 
-                                 vp, vtodo, vmarked, vf >>
+                                 waitq, woken, result, rdata, stack, vtb_, 
+                                 vid_, vtb, vid, vp_, vc_t, va_, vb_, vout, 
+                                 vmade, vrp, vrl_, vp_s, vc_s, vx_, vc, vb_d, 
+                                 vx_d, vp_d, vc_, vcls, vrl, va, vb, vx_de, 
+                                 vdels, vdocs, vf_, vp_de, vtodo, vkeepl, 
+                                 vmarked, ve, vp_p, vf_p, vver, vp_g, vf_g, 
+                                 vx_g, vp_del, vf, vx, vp >>
 
 x1(self) == /\ pc[self] = "x1"
             /\ IF pref[vp_d[self]] = None
@@ -1607,19 +1879,23 @@ x1(self) == /\ pc[self] = "x1"
                        /\ pc' = [pc EXCEPT ![self] = "x2"]
                        /\ vcls' = vcls
             /\ UNCHANGED << obj, pref, cref, doc, mark, keep, locked, waitq, 
-                            woken, result, stack, vtb_, vid_, vtb, vid, vp_, 
-                            vc_t, va_, vb_, vout, vmade, vrp, vrl_, vp_s, vc_s, 
-                            vx_, vc, vb_d, vx_d, vp_d, vrl, va, vb, vx, vdels, 
-                            vdocs, vf_, vp, vtodo, vmarked, vf >>
+                            woken, result, rdata, stack, vtb_, vid_, vtb, vid, 
+                            vp_, vc_t, va_, vb_, vout, vmade, vrp, vrl_, vp_s, 
+                            vc_s, vx_, vc, vb_d, vx_d, vp_d, vrl, va, vb, 
+                            vx_de, vdels, vdocs, vf_, vp_de, vtodo, vkeepl, 
+                            vmarked, ve, vp_p, vf_p, vver, vp_g, vf_g, vx_g, 
+                            vp_del, vf, vx, vp >>
 
 x2(self) == /\ pc[self] = "x2"
             /\ ev' = Ev(self, "stat", P("pidrefdel", vp_d[self]), NoPath, FN(P("pidrefdel", vp_d[self]) \in mark))
             /\ pc' = [pc EXCEPT ![self] = "x3"]
             /\ UNCHANGED << obj, pref, cref, doc, mark, keep, locked, waitq, 
-                            woken, result, stack, vtb_, vid_, vtb, vid, vp_, 
-                            vc_t, va_, vb_, vout, vmade, vrp, vrl_, vp_s, vc_s, 
-                            vx_, vc, vb_d, vx_d, vp_d, vc_, vcls, vrl, va, vb, 
-                            vx, vdels, vdocs, vf_, vp, vtodo, vmarked, vf >>
+                            woken, result, rdata, stack, vtb_, vid_, vtb, vid, 
+                            vp_, vc_t, va_, vb_, vout, vmade, vrp, vrl_, vp_s, 
+                            vc_s, vx_, vc, vb_d, vx_d, vp_d, vc_, vcls, vrl, 
+                            va, vb, vx_de, vdels, vdocs, vf_, vp_de, vtodo, 
+                            vkeepl, vmarked, ve, vp_p, vf_p, vver, vp_g, vf_g, 
+                            vx_g, vp_del, vf, vx, vp >>
 
 x3(self) == /\ pc[self] = "x3"
             /\ IF pref[vp_d[self]] = None
@@ -1633,10 +1909,12 @@ x3(self) == /\ pc[self] = "x3"
                        /\ pc' = [pc EXCEPT ![self] = "x4"]
                        /\ vcls' = vcls
             /\ UNCHANGED << obj, cref, doc, keep, locked, waitq, woken, result, 
-                            stack, vtb_, vid_, vtb, vid, vp_, vc_t, va_, vb_, 
-                            vout, vmade, vrp, vrl_, vp_s, vc_s, vx_, vc, vb_d, 
-                            vx_d, vp_d, vc_, vrl, va, vb, vx, vdels, vdocs, 
-                            vf_, vp, vtodo, vmarked, vf >>
+                            rdata, stack, vtb_, vid_, vtb, vid, vp_, vc_t, va_, 
+                            vb_, vout, vmade, vrp, vrl_, vp_s, vc_s, vx_, vc, 
+                            vb_d, vx_d, vp_d, vc_, vrl, va, vb, vx_de, vdels, 
+                            vdocs, vf_, vp_de, vtodo, vkeepl, vmarked, ve, 
+                            vp_p, vf_p, vver, vp_g, vf_g, vx_g, vp_del, vf, vx, 
+                            vp >>
 
 x4(self) == /\ pc[self] = "x4"
             /\ /\ stack' = [stack EXCEPT ![self] = << [ procedure |->  "claim",
@@ -1648,10 +1926,12 @@ x4(self) == /\ pc[self] = "x4"
                /\ vtb_' = [vtb_ EXCEPT ![self] = "cid"]
             /\ pc' = [pc EXCEPT ![self] = "cl1"]
             /\ UNCHANGED << obj, pref, cref, doc, mark, keep, locked, waitq, 
-                            woken, ev, result, vtb, vid, vp_, vc_t, va_, vb_, 
-                            vout, vmade, vrp, vrl_, vp_s, vc_s, vx_, vc, vb_d, 
-                            vx_d, vp_d, vc_, vcls, vrl, va, vb, vx, vdels, 
-                            vdocs, vf_, vp, vtodo, vmarked, vf >>
+                            woken, ev, result, rdata, vtb, vid, vp_, vc_t, va_, 
+                            vb_, vout, vmade, vrp, vrl_, vp_s, vc_s, vx_, vc, 
+                            vb_d, vx_d, vp_d, vc_, vcls, vrl, va, vb, vx_de, 
+                            vdels, vdocs, vf_, vp_de, vtodo, vkeepl, vmarked, 
+                            ve, vp_p, vf_p, vver, vp_g, vf_g, vx_g, vp_del, vf, 
+                            vx, vp >>
 
 x5(self) == /\ pc[self] = "x5"
             /\ IF ~cref[vc_[self]].has
@@ -1664,10 +1944,12 @@ x5(self) == /\ pc[self] = "x5"
                        /\ pc' = [pc EXCEPT ![self] = "x6"]
                        /\ vcls' = vcls
             /\ UNCHANGED << obj, pref, cref, doc, mark, keep, locked, waitq, 
-                            woken, result, stack, vtb_, vid_, vtb, vid, vp_, 
-                            vc_t, va_, vb_, vout, vmade, vrp, vrl_, vp_s, vc_s, 
-                            vx_, vc, vb_d, vx_d, vp_d, vc_, va, vb, vx, vdels, 
-                            vdocs, vf_, vp, vtodo, vmarked, vf >>
+                            woken, result, rdata, stack, vtb_, vid_, vtb, vid, 
+                            vp_, vc_t, va_, vb_, vout, vmade, vrp, vrl_, vp_s, 
+                            vc_s, vx_, vc, vb_d, vx_d, vp_d, vc_, va, vb, 
+                            vx_de, vdels, vdocs, vf_, vp_de, vtodo, vkeepl, 
+                            vmarked, ve, vp_p, vf_p, vver, vp_g, vf_g, vx_g, 
+                            vp_del, vf, vx, vp >>
 
 x6(self) == /\ pc[self] = "x6"
             /\ IF InSeq(vp_d[self], vrl[self])
@@ -1681,10 +1963,12 @@ x6(self) == /\ pc[self] = "x6"
                   ELSE /\ pc' = [pc EXCEPT ![self] = "x10"]
                        /\ UNCHANGED << ev, vcls, vb >>
             /\ UNCHANGED << obj, pref, cref, doc, mark, keep, locked, waitq, 
-                            woken, result, stack, vtb_, vid_, vtb, vid, vp_, 
-                            vc_t, va_, vb_, vout, vmade, vrp, vrl_, vp_s, vc_s, 
-                            vx_, vc, vb_d, vx_d, vp_d, vc_, vrl, va, vx, vdels, 
-                            vdocs, vf_, vp, vtodo, vmarked, vf >>
+                            woken, result, rdata, stack, vtb_, vid_, vtb, vid, 
+                            vp_, vc_t, va_, vb_, vout, vmade, vrp, vrl_, vp_s, 
+                            vc_s, vx_, vc, vb_d, vx_d, vp_d, vc_, vrl, va, 
+                            vx_de, vdels, vdocs, vf_, vp_de, vtodo, vkeepl, 
+                            vmarked, ve, vp_p, vf_p, vver, vp_g, vf_g, vx_g, 
+                            vp_del, vf, vx, vp >>
 
 x7(self) == /\ pc[self] = "x7"
             /\ IF ~cref[vc_[self]].has
@@ -1697,29 +1981,35 @@ x7(self) == /\ pc[self] = "x7"
                        /\ pc' = [pc EXCEPT ![self] = "x8"]
                        /\ vcls' = vcls
             /\ UNCHANGED << obj, pref, cref, doc, mark, keep, locked, waitq, 
-                            woken, result, stack, vtb_, vid_, vtb, vid, vp_, 
-                            vc_t, va_, vb_, vout, vmade, vrp, vrl_, vp_s, vc_s, 
-                            vx_, vc, vb_d, vx_d, vp_d, vc_, va, vb, vx, vdels, 
-                            vdocs, vf_, vp, vtodo, vmarked, vf >>
+                            woken, result, rdata, stack, vtb_, vid_, vtb, vid, 
+                            vp_, vc_t, va_, vb_, vout, vmade, vrp, vrl_, vp_s, 
+                            vc_s, vx_, vc, vb_d, vx_d, vp_d, vc_, va, vb, 
+                            vx_de, vdels, vdocs, vf_, vp_de, vtodo, vkeepl, 
+                            vmarked, ve, vp_p, vf_p, vver, vp_g, vf_g, vx_g, 
+                            vp_del, vf, vx, vp >>
 
 x8(self) == /\ pc[self] = "x8"
             /\ cref' = [cref EXCEPT ![vc_[self]] = List(Without(vrl[self], vp_d[self]))]
             /\ ev' = Ev(self, "rewrite", P("cidref", vc_[self]), NoPath, "ok")
             /\ pc' = [pc EXCEPT ![self] = "x9"]
             /\ UNCHANGED << obj, pref, doc, mark, keep, locked, waitq, woken, 
-                            result, stack, vtb_, vid_, vtb, vid, vp_, vc_t, 
-                            va_, vb_, vout, vmade, vrp, vrl_, vp_s, vc_s, vx_, 
-                            vc, vb_d, vx_d, vp_d, vc_, vcls, vrl, va, vb, vx, 
-                            vdels, vdocs, vf_, vp, vtodo, vmarked, vf >>
+                            result, rdata, stack, vtb_, vid_, vtb, vid, vp_, 
+                            vc_t, va_, vb_, vout, vmade, vrp, vrl_, vp_s, vc_s, 
+                            vx_, vc, vb_d, vx_d, vp_d, vc_, vcls, vrl, va, vb, 
+                            vx_de, vdels, vdocs, vf_, vp_de, vtodo, vkeepl, 
+                            vmarked, ve, vp_p, vf_p, vver, vp_g, vf_g, vx_g, 
+                            vp_del, vf, vx, vp >>
 
 x9(self) == /\ pc[self] = "x9"
             /\ ev' = Ev(self, "truncate", P("cidref", vc_[self]), NoPath, "ok")
             /\ pc' = [pc EXCEPT ![self] = "x10"]
             /\ UNCHANGED << obj, pref, cref, doc, mark, keep, locked, waitq, 
-                            woken, result, stack, vtb_, vid_, vtb, vid, vp_, 
-                            vc_t, va_, vb_, vout, vmade, vrp, vrl_, vp_s, vc_s, 
-                            vx_, vc, vb_d, vx_d, vp_d, vc_, vcls, vrl, va, vb, 
-                            vx, vdels, vdocs, vf_, vp, vtodo, vmarked, vf >>
+                            woken, result, rdata, stack, vtb_, vid_, vtb, vid, 
+                            vp_, vc_t, va_, vb_, vout, vmade, vrp, vrl_, vp_s, 
+                            vc_s, vx_, vc, vb_d, vx_d, vp_d, vc_, vcls, vrl, 
+                            va, vb, vx_de, vdels, vdocs, vf_, vp_de, vtodo, 
+                            vkeepl, vmarked, ve, vp_p, vf_p, vver, vp_g, vf_g, 
+                            vx_g, vp_del, vf, vx, vp >>
 
 x10(self) == /\ pc[self] = "x10"
              /\ vb' = [vb EXCEPT ![self] = cref[vc_[self]].has /\ cref[vc_[self]].pids = <<>>]
@@ -1730,31 +2020,35 @@ x10(self) == /\ pc[self] = "x10"
                    ELSE /\ pc' = [pc EXCEPT ![self] = "x10b"]
                         /\ vcls' = vcls
              /\ UNCHANGED << obj, pref, cref, doc, mark, keep, locked, waitq, 
-                             woken, result, stack, vtb_, vid_, vtb, vid, vp_, 
-                             vc_t, va_, vb_, vout, vmade, vrp, vrl_, vp_s, 
-                             vc_s, vx_, vc, vb_d, vx_d, vp_d, vc_, vrl, va, vx, 
-                             vdels, vdocs, vf_, vp, vtodo, vmarked, vf >>
+                             woken, result, rdata, stack, vtb_, vid_, vtb, vid, 
+                             vp_, vc_t, va_, vb_, vout, vmade, vrp, vrl_, vp_s, 
+                             vc_s, vx_, vc, vb_d, vx_d, vp_d, vc_, vrl, va, 
+                             vx_de, vdels, vdocs, vf_, vp_de, vtodo, vkeepl, 
+                             vmarked, ve, vp_p, vf_p, vver, vp_g, vf_g, vx_g, 
+                             vp_del, vf, vx, vp >>
 
 x10b(self) == /\ pc[self] = "x10b"
               /\ IF vb[self]
                     THEN /\ pc' = [pc EXCEPT ![self] = "x11"]
                     ELSE /\ pc' = [pc EXCEPT ![self] = "xrel"]
               /\ UNCHANGED << obj, pref, cref, doc, mark, keep, locked, waitq, 
-                              woken, ev, result, stack, vtb_, vid_, vtb, vid, 
-                              vp_, vc_t, va_, vb_, vout, vmade, vrp, vrl_, 
+                              woken, ev, result, rdata, stack, vtb_, vid_, vtb, 
+                              vid, vp_, vc_t, va_, vb_, vout, vmade, vrp, vrl_, 
                               vp_s, vc_s, vx_, vc, vb_d, vx_d, vp_d, vc_, vcls, 
-                              vrl, va, vb, vx, vdels, vdocs, vf_, vp, vtodo, 
-                              vmarked, vf >>
+                              vrl, va, vb, vx_de, vdels, vdocs, vf_, vp_de, 
+                              vtodo, vkeepl, vmarked, ve, vp_p, vf_p, vver, 
+                              vp_g, vf_g, vx_g, vp_del, vf, vx, vp >>
 
 x11(self) == /\ pc[self] = "x11"
              /\ ev' = Ev(self, "stat", P("cidrefdel", vc_[self]), NoPath, FN(P("cidrefdel", vc_[self]) \in mark))
              /\ pc' = [pc EXCEPT ![self] = "x12"]
              /\ UNCHANGED << obj, pref, cref, doc, mark, keep, locked, waitq, 
-                             woken, result, stack, vtb_, vid_, vtb, vid, vp_, 
-                             vc_t, va_, vb_, vout, vmade, vrp, vrl_, vp_s, 
+                             woken, result, rdata, stack, vtb_, vid_, vtb, vid, 
+                             vp_, vc_t, va_, vb_, vout, vmade, vrp, vrl_, vp_s, 
                              vc_s, vx_, vc, vb_d, vx_d, vp_d, vc_, vcls, vrl, 
-                             va, vb, vx, vdels, vdocs, vf_, vp, vtodo, vmarked, 
-                             vf >>
+                             va, vb, vx_de, vdels, vdocs, vf_, vp_de, vtodo, 
+                             vkeepl, vmarked, ve, vp_p, vf_p, vver, vp_g, vf_g, 
+                             vx_g, vp_del, vf, vx, vp >>
 
 x12(self) == /\ pc[self] = "x12"
              /\ IF ~cref[vc_[self]].has
@@ -1768,10 +2062,12 @@ x12(self) == /\ pc[self] = "x12"
                         /\ pc' = [pc EXCEPT ![self] = "xrel"]
                         /\ vcls' = vcls
              /\ UNCHANGED << obj, pref, doc, keep, locked, waitq, woken, 
-                             result, stack, vtb_, vid_, vtb, vid, vp_, vc_t, 
-                             va_, vb_, vout, vmade, vrp, vrl_, vp_s, vc_s, vx_, 
-                             vc, vb_d, vx_d, vp_d, vc_, vrl, va, vb, vx, vdels, 
-                             vdocs, vf_, vp, vtodo, vmarked, vf >>
+                             result, rdata, stack, vtb_, vid_, vtb, vid, vp_, 
+                             vc_t, va_, vb_, vout, vmade, vrp, vrl_, vp_s, 
+                             vc_s, vx_, vc, vb_d, vx_d, vp_d, vc_, vrl, va, vb, 
+                             vx_de, vdels, vdocs, vf_, vp_de, vtodo, vkeepl, 
+                             vmarked, ve, vp_p, vf_p, vver, vp_g, vf_g, vx_g, 
+                             vp_del, vf, vx, vp >>
 
 xrel(self) == /\ pc[self] = "xrel"
               /\ /\ stack' = [stack EXCEPT ![self] = << [ procedure |->  "release",
@@ -1783,50 +2079,58 @@ xrel(self) == /\ pc[self] = "xrel"
                  /\ vtb' = [vtb EXCEPT ![self] = "cid"]
               /\ pc' = [pc EXCEPT ![self] = "rl1"]
               /\ UNCHANGED << obj, pref, cref, doc, mark, keep, locked, waitq, 
-                              woken, ev, result, vtb_, vid_, vp_, vc_t, va_, 
-                              vb_, vout, vmade, vrp, vrl_, vp_s, vc_s, vx_, vc, 
-                              vb_d, vx_d, vp_d, vc_, vcls, vrl, va, vb, vx, 
-                              vdels, vdocs, vf_, vp, vtodo, vmarked, vf >>
+                              woken, ev, result, rdata, vtb_, vid_, vp_, vc_t, 
+                              va_, vb_, vout, vmade, vrp, vrl_, vp_s, vc_s, 
+                              vx_, vc, vb_d, vx_d, vp_d, vc_, vcls, vrl, va, 
+                              vb, vx_de, vdels, vdocs, vf_, vp_de, vtodo, 
+                              vkeepl, vmarked, ve, vp_p, vf_p, vver, vp_g, 
+                              vf_g, vx_g, vp_del, vf, vx, vp >>
 
 x13(self) == /\ pc[self] = "x13"
              /\ IF vcls[self] = "ioerror"
                    THEN /\ pc' = [pc EXCEPT ![self] = "dfin"]
                    ELSE /\ pc' = [pc EXCEPT ![self] = "x14"]
              /\ UNCHANGED << obj, pref, cref, doc, mark, keep, locked, waitq, 
-                             woken, ev, result, stack, vtb_, vid_, vtb, vid, 
-                             vp_, vc_t, va_, vb_, vout, vmade, vrp, vrl_, vp_s, 
-                             vc_s, vx_, vc, vb_d, vx_d, vp_d, vc_, vcls, vrl, 
-                             va, vb, vx, vdels, vdocs, vf_, vp, vtodo, vmarked, 
-                             vf >>
+                             woken, ev, result, rdata, stack, vtb_, vid_, vtb, 
+                             vid, vp_, vc_t, va_, vb_, vout, vmade, vrp, vrl_, 
+                             vp_s, vc_s, vx_, vc, vb_d, vx_d, vp_d, vc_, vcls, 
+                             vrl, va, vb, vx_de, vdels, vdocs, vf_, vp_de, 
+                             vtodo, vkeepl, vmarked, ve, vp_p, vf_p, vver, 
+                             vp_g, vf_g, vx_g, vp_del, vf, vx, vp >>
 
 x14(self) == /\ pc[self] = "x14"
              /\ /\ stack' = [stack EXCEPT ![self] = << [ procedure |->  "delmeta_all",
                                                          pc        |->  "x15",
                                                          vtodo     |->  vtodo[self],
+                                                         vkeepl    |->  vkeepl[self],
                                                          vmarked   |->  vmarked[self],
-                                                         vf        |->  vf[self],
-                                                         vp        |->  vp[self] ] >>
+                                                         ve        |->  ve[self],
+                                                         vp_de     |->  vp_de[self] ] >>
                                                      \o stack[self]]
-                /\ vp' = [vp EXCEPT ![self] = vp_d[self]]
+                /\ vp_de' = [vp_de EXCEPT ![self] = vp_d[self]]
              /\ vtodo' = [vtodo EXCEPT ![self] = {}]
+             /\ vkeepl' = [vkeepl EXCEPT ![self] = {}]
              /\ vmarked' = [vmarked EXCEPT ![self] = {}]
-             /\ vf' = [vf EXCEPT ![self] = "-"]
+             /\ ve' = [ve EXCEPT ![self] = <<"-", "-">>]
              /\ pc' = [pc EXCEPT ![self] = "dm1"]
              /\ UNCHANGED << obj, pref, cref, doc, mark, keep, locked, waitq, 
-                             woken, ev, result, vtb_, vid_, vtb, vid, vp_, 
-                             vc_t, va_, vb_, vout, vmade, vrp, vrl_, vp_s, 
+                             woken, ev, result, rdata, vtb_, vid_, vtb, vid, 
+                             vp_, vc_t, va_, vb_, vout, vmade, vrp, vrl_, vp_s, 
                              vc_s, vx_, vc, vb_d, vx_d, vp_d, vc_, vcls, vrl, 
-                             va, vb, vx, vdels, vdocs, vf_ >>
+                             va, vb, vx_de, vdels, vdocs, vf_, vp_p, vf_p, 
+                             vver, vp_g, vf_g, vx_g, vp_del, vf, vx, vp >>
 
 x15(self) == /\ pc[self] = "x15"
              /\ mark' = mark \ {P("pidrefdel", vp_d[self])}
              /\ ev' = Ev(self, "remove", P("pidrefdel", vp_d[self]), NoPath, "ok")
              /\ pc' = [pc EXCEPT ![self] = "x16"]
              /\ UNCHANGED << obj, pref, cref, doc, keep, locked, waitq, woken, 
-                             result, stack, vtb_, vid_, vtb, vid, vp_, vc_t, 
-                             va_, vb_, vout, vmade, vrp, vrl_, vp_s, vc_s, vx_, 
-                             vc, vb_d, vx_d, vp_d, vc_, vcls, vrl, va, vb, vx, 
-                             vdels, vdocs, vf_, vp, vtodo, vmarked, vf >>
+                             result, rdata, stack, vtb_, vid_, vtb, vid, vp_, 
+                             vc_t, va_, vb_, vout, vmade, vrp, vrl_, vp_s, 
+                             vc_s, vx_, vc, vb_d, vx_d, vp_d, vc_, vcls, vrl, 
+                             va, vb, vx_de, vdels, vdocs, vf_, vp_de, vtodo, 
+                             vkeepl, vmarked, ve, vp_p, vf_p, vver, vp_g, vf_g, 
+                             vx_g, vp_del, vf, vx, vp >>
 
 x16(self) == /\ pc[self] = "x16"
              /\ IF P("cidrefdel", vc_[self]) \in mark
@@ -1836,10 +2140,12 @@ x16(self) == /\ pc[self] = "x16"
                         /\ UNCHANGED << mark, ev >>
              /\ pc' = [pc EXCEPT ![self] = "dfin"]
              /\ UNCHANGED << obj, pref, cref, doc, keep, locked, waitq, woken, 
-                             result, stack, vtb_, vid_, vtb, vid, vp_, vc_t, 
-                             va_, vb_, vout, vmade, vrp, vrl_, vp_s, vc_s, vx_, 
-                             vc, vb_d, vx_d, vp_d, vc_, vcls, vrl, va, vb, vx, 
-                             vdels, vdocs, vf_, vp, vtodo, vmarked, vf >>
+                             result, rdata, stack, vtb_, vid_, vtb, vid, vp_, 
+                             vc_t, va_, vb_, vout, vmade, vrp, vrl_, vp_s, 
+                             vc_s, vx_, vc, vb_d, vx_d, vp_d, vc_, vcls, vrl, 
+                             va, vb, vx_de, vdels, vdocs, vf_, vp_de, vtodo, 
+                             vkeepl, vmarked, ve, vp_p, vf_p, vver, vp_g, vf_g, 
+                             vx_g, vp_del, vf, vx, vp >>
 
 dfin(self) == /\ pc[self] = "dfin"
               /\ /\ stack' = [stack EXCEPT ![self] = << [ procedure |->  "release",
@@ -1851,10 +2157,12 @@ dfin(self) == /\ pc[self] = "dfin"
                  /\ vtb' = [vtb EXCEPT ![self] = "refpid"]
               /\ pc' = [pc EXCEPT ![self] = "rl1"]
               /\ UNCHANGED << obj, pref, cref, doc, mark, keep, locked, waitq, 
-                              woken, ev, result, vtb_, vid_, vp_, vc_t, va_, 
-                              vb_, vout, vmade, vrp, vrl_, vp_s, vc_s, vx_, vc, 
-                              vb_d, vx_d, vp_d, vc_, vcls, vrl, va, vb, vx, 
-                              vdels, vdocs, vf_, vp, vtodo, vmarked, vf >>
+                              woken, ev, result, rdata, vtb_, vid_, vp_, vc_t, 
+                              va_, vb_, vout, vmade, vrp, vrl_, vp_s, vc_s, 
+                              vx_, vc, vb_d, vx_d, vp_d, vc_, vcls, vrl, va, 
+                              vb, vx_de, vdels, vdocs, vf_, vp_de, vtodo, 
+                              vkeepl, vmarked, ve, vp_p, vf_p, vver, vp_g, 
+                              vf_g, vx_g, vp_del, vf, vx, vp >>
 
 d8(self) == /\ pc[self] = "d8"
             /\ /\ stack' = [stack EXCEPT ![self] = << [ procedure |->  "release",
@@ -1866,10 +2174,12 @@ d8(self) == /\ pc[self] = "d8"
                /\ vtb' = [vtb EXCEPT ![self] = "objpid"]
             /\ pc' = [pc EXCEPT ![self] = "rl1"]
             /\ UNCHANGED << obj, pref, cref, doc, mark, keep, locked, waitq, 
-                            woken, ev, result, vtb_, vid_, vp_, vc_t, va_, vb_, 
-                            vout, vmade, vrp, vrl_, vp_s, vc_s, vx_, vc, vb_d, 
-                            vx_d, vp_d, vc_, vcls, vrl, va, vb, vx, vdels, 
-                            vdocs, vf_, vp, vtodo, vmarked, vf >>
+                            woken, ev, result, rdata, vtb_, vid_, vp_, vc_t, 
+                            va_, vb_, vout, vmade, vrp, vrl_, vp_s, vc_s, vx_, 
+                            vc, vb_d, vx_d, vp_d, vc_, vcls, vrl, va, vb, 
+                            vx_de, vdels, vdocs, vf_, vp_de, vtodo, vkeepl, 
+                            vmarked, ve, vp_p, vf_p, vver, vp_g, vf_g, vx_g, 
+                            vp_del, vf, vx, vp >>
 
 d9(self) == /\ pc[self] = "d9"
             /\ result' = [result EXCEPT ![self] = IF vcls[self] \in {"found", "orphan", "notinlist", "objmissing"} THEN "ok" ELSE vcls[self]]
@@ -1879,16 +2189,18 @@ d9(self) == /\ pc[self] = "d9"
             /\ vrl' = [vrl EXCEPT ![self] = Head(stack[self]).vrl]
             /\ va' = [va EXCEPT ![self] = Head(stack[self]).va]
             /\ vb' = [vb EXCEPT ![self] = Head(stack[self]).vb]
-            /\ vx' = [vx EXCEPT ![self] = Head(stack[self]).vx]
+            /\ vx_de' = [vx_de EXCEPT ![self] = Head(stack[self]).vx_de]
             /\ vdels' = [vdels EXCEPT ![self] = Head(stack[self]).vdels]
             /\ vdocs' = [vdocs EXCEPT ![self] = Head(stack[self]).vdocs]
             /\ vf_' = [vf_ EXCEPT ![self] = Head(stack[self]).vf_]
             /\ vp_d' = [vp_d EXCEPT ![self] = Head(stack[self]).vp_d]
             /\ stack' = [stack EXCEPT ![self] = Tail(stack[self])]
             /\ UNCHANGED << obj, pref, cref, doc, mark, keep, locked, waitq, 
-                            woken, ev, vtb_, vid_, vtb, vid, vp_, vc_t, va_, 
-                            vb_, vout, vmade, vrp, vrl_, vp_s, vc_s, vx_, vc, 
-                            vb_d, vx_d, vp, vtodo, vmarked, vf >>
+                            woken, ev, rdata, vtb_, vid_, vtb, vid, vp_, vc_t, 
+                            va_, vb_, vout, vmade, vrp, vrl_, vp_s, vc_s, vx_, 
+                            vc, vb_d, vx_d, vp_de, vtodo, vkeepl, vmarked, ve, 
+                            vp_p, vf_p, vver, vp_g, vf_g, vx_g, vp_del, vf, vx, 
+                            vp >>
 
 delete(self) == d1(self) \/ d2(self) \/ f1(self) \/ f2(self) \/ f3(self)
                    \/ f4(self) \/ f5(self) \/ f6(self) \/ f7(self)
@@ -1905,126 +2217,551 @@ delete(self) == d1(self) \/ d2(self) \/ f1(self) \/ f2(self) \/ f3(self)
                    \/ dfin(self) \/ d8(self) \/ d9(self)
 
 dm1(self) == /\ pc[self] = "dm1"
-             /\ vtodo' = [vtodo EXCEPT ![self] = {vff \in Fmt : doc[vp[self]][vff] # None}]
+             /\ vtodo' = [vtodo EXCEPT ![self] = {<<"doc", vff>> : vff \in {g \in Fmt : doc[vp_de[self]][g] # None}}
+                                                 \cup {<<"docdel", vff>> : vff \in {g \in Fmt : P("docdel", vp_de[self] \o "/" \o g) \in mark}}
+                                                 \cup {<<"docdel2", vff>> : vff \in {g \in Fmt : P("docdel2", vp_de[self] \o "/" \o g) \in mark}}]
              /\ pc' = [pc EXCEPT ![self] = "dm2"]
              /\ UNCHANGED << obj, pref, cref, doc, mark, keep, locked, waitq, 
-                             woken, ev, result, stack, vtb_, vid_, vtb, vid, 
-                             vp_, vc_t, va_, vb_, vout, vmade, vrp, vrl_, vp_s, 
-                             vc_s, vx_, vc, vb_d, vx_d, vp_d, vc_, vcls, vrl, 
-                             va, vb, vx, vdels, vdocs, vf_, vp, vmarked, vf >>
+                             woken, ev, result, rdata, stack, vtb_, vid_, vtb, 
+                             vid, vp_, vc_t, va_, vb_, vout, vmade, vrp, vrl_, 
+                             vp_s, vc_s, vx_, vc, vb_d, vx_d, vp_d, vc_, vcls, 
+                             vrl, va, vb, vx_de, vdels, vdocs, vf_, vp_de, 
+                             vkeepl, vmarked, ve, vp_p, vf_p, vver, vp_g, vf_g, 
+                             vx_g, vp_del, vf, vx, vp >>
 
 dm2(self) == /\ pc[self] = "dm2"
              /\ IF vtodo[self] # {}
-                   THEN /\ \E vff \in vtodo[self]:
-                             /\ vf' = [vf EXCEPT ![self] = vff]
-                             /\ vtodo' = [vtodo EXCEPT ![self] = vtodo[self] \ {vff}]
+                   THEN /\ \E vx0 \in vtodo[self]:
+                             /\ ve' = [ve EXCEPT ![self] = vx0]
+                             /\ vtodo' = [vtodo EXCEPT ![self] = vtodo[self] \ {vx0}]
                         /\ pc' = [pc EXCEPT ![self] = "dm3"]
-                   ELSE /\ pc' = [pc EXCEPT ![self] = "dm8"]
-                        /\ UNCHANGED << vtodo, vf >>
+                   ELSE /\ pc' = [pc EXCEPT ![self] = "dm4"]
+                        /\ UNCHANGED << vtodo, ve >>
              /\ UNCHANGED << obj, pref, cref, doc, mark, keep, locked, waitq, 
-                             woken, ev, result, stack, vtb_, vid_, vtb, vid, 
-                             vp_, vc_t, va_, vb_, vout, vmade, vrp, vrl_, vp_s, 
-                             vc_s, vx_, vc, vb_d, vx_d, vp_d, vc_, vcls, vrl, 
-                             va, vb, vx, vdels, vdocs, vf_, vp, vmarked >>
+                             woken, ev, result, rdata, stack, vtb_, vid_, vtb, 
+                             vid, vp_, vc_t, va_, vb_, vout, vmade, vrp, vrl_, 
+                             vp_s, vc_s, vx_, vc, vb_d, vx_d, vp_d, vc_, vcls, 
+                             vrl, va, vb, vx_de, vdels, vdocs, vf_, vp_de, 
+                             vkeepl, vmarked, vp_p, vf_p, vver, vp_g, vf_g, 
+                             vx_g, vp_del, vf, vx, vp >>
 
 dm3(self) == /\ pc[self] = "dm3"
-             /\ ev' = Ev(self, "stat", P("doc", vp[self] \o "/" \o vf[self]), NoPath, FN(doc[vp[self]][vf[self]] # None))
-             /\ IF doc[vp[self]][vf[self]] # None
-                   THEN /\ pc' = [pc EXCEPT ![self] = "dm4"]
-                   ELSE /\ pc' = [pc EXCEPT ![self] = "dm2"]
+             /\ IF Here(ve[self][1], vp_de[self], ve[self][2])
+                   THEN /\ vkeepl' = [vkeepl EXCEPT ![self] = vkeepl[self] \cup {ve[self]}]
+                   ELSE /\ TRUE
+                        /\ UNCHANGED vkeepl
+             /\ ev' = Ev(self, "stat", P(ve[self][1], vp_de[self] \o "/" \o ve[self][2]), NoPath, FN(Here(ve[self][1], vp_de[self], ve[self][2])))
+             /\ pc' = [pc EXCEPT ![self] = "dm2"]
              /\ UNCHANGED << obj, pref, cref, doc, mark, keep, locked, waitq, 
-                             woken, result, stack, vtb_, vid_, vtb, vid, vp_, 
-                             vc_t, va_, vb_, vout, vmade, vrp, vrl_, vp_s, 
+                             woken, result, rdata, stack, vtb_, vid_, vtb, vid, 
+                             vp_, vc_t, va_, vb_, vout, vmade, vrp, vrl_, vp_s, 
                              vc_s, vx_, vc, vb_d, vx_d, vp_d, vc_, vcls, vrl, 
-                             va, vb, vx, vdels, vdocs, vf_, vp, vtodo, vmarked, 
-                             vf >>
+                             va, vb, vx_de, vdels, vdocs, vf_, vp_de, vtodo, 
+                             vmarked, ve, vp_p, vf_p, vver, vp_g, vf_g, vx_g, 
+                             vp_del, vf, vx, vp >>
 
 dm4(self) == /\ pc[self] = "dm4"
+             /\ IF vkeepl[self] # {}
+                   THEN /\ \E vx0 \in vkeepl[self]:
+                             /\ ve' = [ve EXCEPT ![self] = vx0]
+                             /\ vkeepl' = [vkeepl EXCEPT ![self] = vkeepl[self] \ {vx0}]
+                        /\ pc' = [pc EXCEPT ![self] = "dm5"]
+                   ELSE /\ pc' = [pc EXCEPT ![self] = "dm9"]
+                        /\ UNCHANGED << vkeepl, ve >>
+             /\ UNCHANGED << obj, pref, cref, doc, mark, keep, locked, waitq, 
+                             woken, ev, result, rdata, stack, vtb_, vid_, vtb, 
+                             vid, vp_, vc_t, va_, vb_, vout, vmade, vrp, vrl_, 
+                             vp_s, vc_s, vx_, vc, vb_d, vx_d, vp_d, vc_, vcls, 
+                             vrl, va, vb, vx_de, vdels, vdocs, vf_, vp_de, 
+                             vtodo, vmarked, vp_p, vf_p, vver, vp_g, vf_g, 
+                             vx_g, vp_del, vf, vx, vp >>
+
+dm5(self) == /\ pc[self] = "dm5"
              /\ /\ stack' = [stack EXCEPT ![self] = << [ procedure |->  "claim",
-                                                         pc        |->  "dm5",
+                                                         pc        |->  "dm6",
                                                          vtb_      |->  vtb_[self],
                                                          vid_      |->  vid_[self] ] >>
                                                      \o stack[self]]
-                /\ vid_' = [vid_ EXCEPT ![self] = vp[self] \o "/" \o vf[self]]
+                /\ vid_' = [vid_ EXCEPT ![self] = vp_de[self] \o "/" \o ve[self][2] \o Suffix(ve[self][1])]
                 /\ vtb_' = [vtb_ EXCEPT ![self] = "doc"]
              /\ pc' = [pc EXCEPT ![self] = "cl1"]
              /\ UNCHANGED << obj, pref, cref, doc, mark, keep, locked, waitq, 
-                             woken, ev, result, vtb, vid, vp_, vc_t, va_, vb_, 
-                             vout, vmade, vrp, vrl_, vp_s, vc_s, vx_, vc, vb_d, 
-                             vx_d, vp_d, vc_, vcls, vrl, va, vb, vx, vdels, 
-                             vdocs, vf_, vp, vtodo, vmarked, vf >>
-
-dm5(self) == /\ pc[self] = "dm5"
-             /\ ev' = Ev(self, "stat", P("docdel", vp[self] \o "/" \o vf[self]), NoPath, FN(P("docdel", vp[self] \o "/" \o vf[self]) \in mark))
-             /\ pc' = [pc EXCEPT ![self] = "dm6"]
-             /\ UNCHANGED << obj, pref, cref, doc, mark, keep, locked, waitq, 
-                             woken, result, stack, vtb_, vid_, vtb, vid, vp_, 
-                             vc_t, va_, vb_, vout, vmade, vrp, vrl_, vp_s, 
-                             vc_s, vx_, vc, vb_d, vx_d, vp_d, vc_, vcls, vrl, 
-                             va, vb, vx, vdels, vdocs, vf_, vp, vtodo, vmarked, 
-                             vf >>
+                             woken, ev, result, rdata, vtb, vid, vp_, vc_t, 
+                             va_, vb_, vout, vmade, vrp, vrl_, vp_s, vc_s, vx_, 
+                             vc, vb_d, vx_d, vp_d, vc_, vcls, vrl, va, vb, 
+                             vx_de, vdels, vdocs, vf_, vp_de, vtodo, vkeepl, 
+                             vmarked, ve, vp_p, vf_p, vver, vp_g, vf_g, vx_g, 
+                             vp_del, vf, vx, vp >>
 
 dm6(self) == /\ pc[self] = "dm6"
-             /\ IF doc[vp[self]][vf[self]] = None
-                   THEN /\ ev' = Ev(self, "rename", P("doc", vp[self] \o "/" \o vf[self]), P("docdel", vp[self] \o "/" \o vf[self]), "!fnf")
-                        /\ UNCHANGED << doc, mark, vmarked >>
-                   ELSE /\ doc' = [doc EXCEPT ![vp[self]][vf[self]] = None]
-                        /\ mark' = (mark \cup {P("docdel", vp[self] \o "/" \o vf[self])})
-                        /\ vmarked' = [vmarked EXCEPT ![self] = vmarked[self] \cup {vf[self]}]
-                        /\ ev' = Ev(self, "rename", P("doc", vp[self] \o "/" \o vf[self]), P("docdel", vp[self] \o "/" \o vf[self]), "ok")
+             /\ ev' = Ev(self, "stat", P(NextKind(ve[self][1]), vp_de[self] \o "/" \o ve[self][2]), NoPath,
+                         FN(P(NextKind(ve[self][1]), vp_de[self] \o "/" \o ve[self][2]) \in mark))
              /\ pc' = [pc EXCEPT ![self] = "dm7"]
-             /\ UNCHANGED << obj, pref, cref, keep, locked, waitq, woken, 
-                             result, stack, vtb_, vid_, vtb, vid, vp_, vc_t, 
-                             va_, vb_, vout, vmade, vrp, vrl_, vp_s, vc_s, vx_, 
-                             vc, vb_d, vx_d, vp_d, vc_, vcls, vrl, va, vb, vx, 
-                             vdels, vdocs, vf_, vp, vtodo, vf >>
+             /\ UNCHANGED << obj, pref, cref, doc, mark, keep, locked, waitq, 
+                             woken, result, rdata, stack, vtb_, vid_, vtb, vid, 
+                             vp_, vc_t, va_, vb_, vout, vmade, vrp, vrl_, vp_s, 
+                             vc_s, vx_, vc, vb_d, vx_d, vp_d, vc_, vcls, vrl, 
+                             va, vb, vx_de, vdels, vdocs, vf_, vp_de, vtodo, 
+                             vkeepl, vmarked, ve, vp_p, vf_p, vver, vp_g, vf_g, 
+                             vx_g, vp_del, vf, vx, vp >>
 
 dm7(self) == /\ pc[self] = "dm7"
+             /\ IF Here(ve[self][1], vp_de[self], ve[self][2])
+                   THEN /\ IF ve[self][1] = "doc"
+                              THEN /\ doc' = [doc EXCEPT ![vp_de[self]][ve[self][2]] = None]
+                                   /\ mark' = mark
+                              ELSE /\ mark' = mark \ {P(ve[self][1], vp_de[self] \o "/" \o ve[self][2])}
+                                   /\ doc' = doc
+                        /\ pc' = [pc EXCEPT ![self] = "dm7b"]
+                        /\ ev' = ev
+                   ELSE /\ ev' = Ev(self, "rename", P(ve[self][1], vp_de[self] \o "/" \o ve[self][2]), P(NextKind(ve[self][1]), vp_de[self] \o "/" \o ve[self][2]), "!fnf")
+                        /\ pc' = [pc EXCEPT ![self] = "mf1"]
+                        /\ UNCHANGED << doc, mark >>
+             /\ UNCHANGED << obj, pref, cref, keep, locked, waitq, woken, 
+                             result, rdata, stack, vtb_, vid_, vtb, vid, vp_, 
+                             vc_t, va_, vb_, vout, vmade, vrp, vrl_, vp_s, 
+                             vc_s, vx_, vc, vb_d, vx_d, vp_d, vc_, vcls, vrl, 
+                             va, vb, vx_de, vdels, vdocs, vf_, vp_de, vtodo, 
+                             vkeepl, vmarked, ve, vp_p, vf_p, vver, vp_g, vf_g, 
+                             vx_g, vp_del, vf, vx, vp >>
+
+dm7b(self) == /\ pc[self] = "dm7b"
+              /\ mark' = (mark \cup {P(NextKind(ve[self][1]), vp_de[self] \o "/" \o ve[self][2])})
+              /\ vmarked' = [vmarked EXCEPT ![self] = vmarked[self] \cup {<<NextKind(ve[self][1]), ve[self][2]>>}]
+              /\ ev' = Ev(self, "rename", P(ve[self][1], vp_de[self] \o "/" \o ve[self][2]), P(NextKind(ve[self][1]), vp_de[self] \o "/" \o ve[self][2]), "ok")
+              /\ pc' = [pc EXCEPT ![self] = "dm8"]
+              /\ UNCHANGED << obj, pref, cref, doc, keep, locked, waitq, woken, 
+                              result, rdata, stack, vtb_, vid_, vtb, vid, vp_, 
+                              vc_t, va_, vb_, vout, vmade, vrp, vrl_, vp_s, 
+                              vc_s, vx_, vc, vb_d, vx_d, vp_d, vc_, vcls, vrl, 
+                              va, vb, vx_de, vdels, vdocs, vf_, vp_de, vtodo, 
+                              vkeepl, ve, vp_p, vf_p, vver, vp_g, vf_g, vx_g, 
+                              vp_del, vf, vx, vp >>
+
+mf1(self) == /\ pc[self] = "mf1"
+             /\ ev' = Ev(self, "stat", P(ve[self][1], vp_de[self] \o "/" \o ve[self][2]), NoPath, FN(Here(ve[self][1], vp_de[self], ve[self][2])))
+             /\ pc' = [pc EXCEPT ![self] = "mf2"]
+             /\ UNCHANGED << obj, pref, cref, doc, mark, keep, locked, waitq, 
+                             woken, result, rdata, stack, vtb_, vid_, vtb, vid, 
+                             vp_, vc_t, va_, vb_, vout, vmade, vrp, vrl_, vp_s, 
+                             vc_s, vx_, vc, vb_d, vx_d, vp_d, vc_, vcls, vrl, 
+                             va, vb, vx_de, vdels, vdocs, vf_, vp_de, vtodo, 
+                             vkeepl, vmarked, ve, vp_p, vf_p, vver, vp_g, vf_g, 
+                             vx_g, vp_del, vf, vx, vp >>
+
+mf2(self) == /\ pc[self] = "mf2"
+             /\ ev' = Ev(self, "stat", P(ve[self][1], vp_de[self] \o "/" \o ve[self][2]), NoPath, FN(Here(ve[self][1], vp_de[self], ve[self][2])))
+             /\ pc' = [pc EXCEPT ![self] = "mf3"]
+             /\ UNCHANGED << obj, pref, cref, doc, mark, keep, locked, waitq, 
+                             woken, result, rdata, stack, vtb_, vid_, vtb, vid, 
+                             vp_, vc_t, va_, vb_, vout, vmade, vrp, vrl_, vp_s, 
+                             vc_s, vx_, vc, vb_d, vx_d, vp_d, vc_, vcls, vrl, 
+                             va, vb, vx_de, vdels, vdocs, vf_, vp_de, vtodo, 
+                             vkeepl, vmarked, ve, vp_p, vf_p, vver, vp_g, vf_g, 
+                             vx_g, vp_del, vf, vx, vp >>
+
+mf3(self) == /\ pc[self] = "mf3"
+             /\ ev' = Ev(self, "stat", P(NextKind(ve[self][1]), vp_de[self] \o "/" \o ve[self][2]), NoPath,
+                         FN(P(NextKind(ve[self][1]), vp_de[self] \o "/" \o ve[self][2]) \in mark))
+             /\ pc' = [pc EXCEPT ![self] = "mf4"]
+             /\ UNCHANGED << obj, pref, cref, doc, mark, keep, locked, waitq, 
+                             woken, result, rdata, stack, vtb_, vid_, vtb, vid, 
+                             vp_, vc_t, va_, vb_, vout, vmade, vrp, vrl_, vp_s, 
+                             vc_s, vx_, vc, vb_d, vx_d, vp_d, vc_, vcls, vrl, 
+                             va, vb, vx_de, vdels, vdocs, vf_, vp_de, vtodo, 
+                             vkeepl, vmarked, ve, vp_p, vf_p, vver, vp_g, vf_g, 
+                             vx_g, vp_del, vf, vx, vp >>
+
+mf4(self) == /\ pc[self] = "mf4"
+             /\ ev' = Ev(self, "stat", P(ve[self][1], vp_de[self] \o "/" \o ve[self][2]), NoPath, FN(Here(ve[self][1], vp_de[self], ve[self][2])))
+             /\ pc' = [pc EXCEPT ![self] = "mf5"]
+             /\ UNCHANGED << obj, pref, cref, doc, mark, keep, locked, waitq, 
+                             woken, result, rdata, stack, vtb_, vid_, vtb, vid, 
+                             vp_, vc_t, va_, vb_, vout, vmade, vrp, vrl_, vp_s, 
+                             vc_s, vx_, vc, vb_d, vx_d, vp_d, vc_, vcls, vrl, 
+                             va, vb, vx_de, vdels, vdocs, vf_, vp_de, vtodo, 
+                             vkeepl, vmarked, ve, vp_p, vf_p, vver, vp_g, vf_g, 
+                             vx_g, vp_del, vf, vx, vp >>
+
+mf5(self) == /\ pc[self] = "mf5"
+             /\ ev' = Ev(self, "stat", P(ve[self][1], vp_de[self] \o "/" \o ve[self][2]), NoPath, FN(Here(ve[self][1], vp_de[self], ve[self][2])))
+             /\ pc' = [pc EXCEPT ![self] = "mf6"]
+             /\ UNCHANGED << obj, pref, cref, doc, mark, keep, locked, waitq, 
+                             woken, result, rdata, stack, vtb_, vid_, vtb, vid, 
+                             vp_, vc_t, va_, vb_, vout, vmade, vrp, vrl_, vp_s, 
+                             vc_s, vx_, vc, vb_d, vx_d, vp_d, vc_, vcls, vrl, 
+                             va, vb, vx_de, vdels, vdocs, vf_, vp_de, vtodo, 
+                             vkeepl, vmarked, ve, vp_p, vf_p, vver, vp_g, vf_g, 
+                             vx_g, vp_del, vf, vx, vp >>
+
+mf6(self) == /\ pc[self] = "mf6"
+             /\ ev' = Ev(self, "stat", P(NextKind(ve[self][1]), vp_de[self] \o "/" \o ve[self][2]), NoPath,
+                         FN(P(NextKind(ve[self][1]), vp_de[self] \o "/" \o ve[self][2]) \in mark))
+             /\ pc' = [pc EXCEPT ![self] = "mf7"]
+             /\ UNCHANGED << obj, pref, cref, doc, mark, keep, locked, waitq, 
+                             woken, result, rdata, stack, vtb_, vid_, vtb, vid, 
+                             vp_, vc_t, va_, vb_, vout, vmade, vrp, vrl_, vp_s, 
+                             vc_s, vx_, vc, vb_d, vx_d, vp_d, vc_, vcls, vrl, 
+                             va, vb, vx_de, vdels, vdocs, vf_, vp_de, vtodo, 
+                             vkeepl, vmarked, ve, vp_p, vf_p, vver, vp_g, vf_g, 
+                             vx_g, vp_del, vf, vx, vp >>
+
+mf7(self) == /\ pc[self] = "mf7"
+             /\ IF ve[self][1] = "doc"
+                   THEN /\ ev' = Ev(self, "read", P(ve[self][1], vp_de[self] \o "/" \o ve[self][2]), NoPath, "!fnf")
+                   ELSE /\ TRUE
+                        /\ ev' = ev
+             /\ pc' = [pc EXCEPT ![self] = "dm8"]
+             /\ UNCHANGED << obj, pref, cref, doc, mark, keep, locked, waitq, 
+                             woken, result, rdata, stack, vtb_, vid_, vtb, vid, 
+                             vp_, vc_t, va_, vb_, vout, vmade, vrp, vrl_, vp_s, 
+                             vc_s, vx_, vc, vb_d, vx_d, vp_d, vc_, vcls, vrl, 
+                             va, vb, vx_de, vdels, vdocs, vf_, vp_de, vtodo, 
+                             vkeepl, vmarked, ve, vp_p, vf_p, vver, vp_g, vf_g, 
+                             vx_g, vp_del, vf, vx, vp >>
+
+dm8(self) == /\ pc[self] = "dm8"
              /\ /\ stack' = [stack EXCEPT ![self] = << [ procedure |->  "release",
-                                                         pc        |->  "dm2",
+                                                         pc        |->  "dm4",
                                                          vtb       |->  vtb[self],
                                                          vid       |->  vid[self] ] >>
                                                      \o stack[self]]
-                /\ vid' = [vid EXCEPT ![self] = vp[self] \o "/" \o vf[self]]
+                /\ vid' = [vid EXCEPT ![self] = vp_de[self] \o "/" \o ve[self][2] \o Suffix(ve[self][1])]
                 /\ vtb' = [vtb EXCEPT ![self] = "doc"]
              /\ pc' = [pc EXCEPT ![self] = "rl1"]
              /\ UNCHANGED << obj, pref, cref, doc, mark, keep, locked, waitq, 
-                             woken, ev, result, vtb_, vid_, vp_, vc_t, va_, 
-                             vb_, vout, vmade, vrp, vrl_, vp_s, vc_s, vx_, vc, 
-                             vb_d, vx_d, vp_d, vc_, vcls, vrl, va, vb, vx, 
-                             vdels, vdocs, vf_, vp, vtodo, vmarked, vf >>
-
-dm8(self) == /\ pc[self] = "dm8"
-             /\ IF vmarked[self] # {}
-                   THEN /\ \E vff \in vmarked[self]:
-                             /\ mark' = mark \ {P("docdel", vp[self] \o "/" \o vff)}
-                             /\ vmarked' = [vmarked EXCEPT ![self] = vmarked[self] \ {vff}]
-                             /\ ev' = Ev(self, "remove", P("docdel", vp[self] \o "/" \o vff), NoPath, "ok")
-                        /\ pc' = [pc EXCEPT ![self] = "dm8"]
-                   ELSE /\ pc' = [pc EXCEPT ![self] = "dm9"]
-                        /\ UNCHANGED << mark, ev, vmarked >>
-             /\ UNCHANGED << obj, pref, cref, doc, keep, locked, waitq, woken, 
-                             result, stack, vtb_, vid_, vtb, vid, vp_, vc_t, 
+                             woken, ev, result, rdata, vtb_, vid_, vp_, vc_t, 
                              va_, vb_, vout, vmade, vrp, vrl_, vp_s, vc_s, vx_, 
-                             vc, vb_d, vx_d, vp_d, vc_, vcls, vrl, va, vb, vx, 
-                             vdels, vdocs, vf_, vp, vtodo, vf >>
+                             vc, vb_d, vx_d, vp_d, vc_, vcls, vrl, va, vb, 
+                             vx_de, vdels, vdocs, vf_, vp_de, vtodo, vkeepl, 
+                             vmarked, ve, vp_p, vf_p, vver, vp_g, vf_g, vx_g, 
+                             vp_del, vf, vx, vp >>
 
 dm9(self) == /\ pc[self] = "dm9"
+             /\ IF vmarked[self] # {}
+                   THEN /\ \E vx0 \in vmarked[self]:
+                             /\ ve' = [ve EXCEPT ![self] = vx0]
+                             /\ vmarked' = [vmarked EXCEPT ![self] = vmarked[self] \ {vx0}]
+                        /\ pc' = [pc EXCEPT ![self] = "dm10"]
+                   ELSE /\ pc' = [pc EXCEPT ![self] = "dm11"]
+                        /\ UNCHANGED << vmarked, ve >>
+             /\ UNCHANGED << obj, pref, cref, doc, mark, keep, locked, waitq, 
+                             woken, ev, result, rdata, stack, vtb_, vid_, vtb, 
+                             vid, vp_, vc_t, va_, vb_, vout, vmade, vrp, vrl_, 
+                             vp_s, vc_s, vx_, vc, vb_d, vx_d, vp_d, vc_, vcls, 
+                             vrl, va, vb, vx_de, vdels, vdocs, vf_, vp_de, 
+                             vtodo, vkeepl, vp_p, vf_p, vver, vp_g, vf_g, vx_g, 
+                             vp_del, vf, vx, vp >>
+
+dm10(self) == /\ pc[self] = "dm10"
+              /\ IF P(ve[self][1], vp_de[self] \o "/" \o ve[self][2]) \in mark
+                    THEN /\ mark' = mark \ {P(ve[self][1], vp_de[self] \o "/" \o ve[self][2])}
+                         /\ ev' = Ev(self, "remove", P(ve[self][1], vp_de[self] \o "/" \o ve[self][2]), NoPath, "ok")
+                    ELSE /\ ev' = Ev(self, "remove", P(ve[self][1], vp_de[self] \o "/" \o ve[self][2]), NoPath, "!fnf")
+                         /\ mark' = mark
+              /\ pc' = [pc EXCEPT ![self] = "dm9"]
+              /\ UNCHANGED << obj, pref, cref, doc, keep, locked, waitq, woken, 
+                              result, rdata, stack, vtb_, vid_, vtb, vid, vp_, 
+                              vc_t, va_, vb_, vout, vmade, vrp, vrl_, vp_s, 
+                              vc_s, vx_, vc, vb_d, vx_d, vp_d, vc_, vcls, vrl, 
+                              va, vb, vx_de, vdels, vdocs, vf_, vp_de, vtodo, 
+                              vkeepl, vmarked, ve, vp_p, vf_p, vver, vp_g, 
+                              vf_g, vx_g, vp_del, vf, vx, vp >>
+
+dm11(self) == /\ pc[self] = "dm11"
+              /\ pc' = [pc EXCEPT ![self] = Head(stack[self]).pc]
+              /\ vtodo' = [vtodo EXCEPT ![self] = Head(stack[self]).vtodo]
+              /\ vkeepl' = [vkeepl EXCEPT ![self] = Head(stack[self]).vkeepl]
+              /\ vmarked' = [vmarked EXCEPT ![self] = Head(stack[self]).vmarked]
+              /\ ve' = [ve EXCEPT ![self] = Head(stack[self]).ve]
+              /\ vp_de' = [vp_de EXCEPT ![self] = Head(stack[self]).vp_de]
+              /\ stack' = [stack EXCEPT ![self] = Tail(stack[self])]
+              /\ UNCHANGED << obj, pref, cref, doc, mark, keep, locked, waitq, 
+                              woken, ev, result, rdata, vtb_, vid_, vtb, vid, 
+                              vp_, vc_t, va_, vb_, vout, vmade, vrp, vrl_, 
+                              vp_s, vc_s, vx_, vc, vb_d, vx_d, vp_d, vc_, vcls, 
+                              vrl, va, vb, vx_de, vdels, vdocs, vf_, vp_p, 
+                              vf_p, vver, vp_g, vf_g, vx_g, vp_del, vf, vx, vp >>
+
+delmeta_all(self) == dm1(self) \/ dm2(self) \/ dm3(self) \/ dm4(self)
+                        \/ dm5(self) \/ dm6(self) \/ dm7(self)
+                        \/ dm7b(self) \/ mf1(self) \/ mf2(self)
+                        \/ mf3(self) \/ mf4(self) \/ mf5(self) \/ mf6(self)
+                        \/ mf7(self) \/ dm8(self) \/ dm9(self)
+                        \/ dm10(self) \/ dm11(self)
+
+pm1(self) == /\ pc[self] = "pm1"
+             /\ /\ stack' = [stack EXCEPT ![self] = << [ procedure |->  "claim",
+                                                         pc        |->  "pm2",
+                                                         vtb_      |->  vtb_[self],
+                                                         vid_      |->  vid_[self] ] >>
+                                                     \o stack[self]]
+                /\ vid_' = [vid_ EXCEPT ![self] = vp_p[self] \o "/" \o vf_p[self]]
+                /\ vtb_' = [vtb_ EXCEPT ![self] = "doc"]
+             /\ pc' = [pc EXCEPT ![self] = "cl1"]
+             /\ UNCHANGED << obj, pref, cref, doc, mark, keep, locked, waitq, 
+                             woken, ev, result, rdata, vtb, vid, vp_, vc_t, 
+                             va_, vb_, vout, vmade, vrp, vrl_, vp_s, vc_s, vx_, 
+                             vc, vb_d, vx_d, vp_d, vc_, vcls, vrl, va, vb, 
+                             vx_de, vdels, vdocs, vf_, vp_de, vtodo, vkeepl, 
+                             vmarked, ve, vp_p, vf_p, vver, vp_g, vf_g, vx_g, 
+                             vp_del, vf, vx, vp >>
+
+pm2(self) == /\ pc[self] = "pm2"
+             /\ ev' = Ev(self, "stat", P("doc", vp_p[self] \o "/" \o vf_p[self]), NoPath, FN(doc[vp_p[self]][vf_p[self]] # None))
+             /\ pc' = [pc EXCEPT ![self] = "pm3"]
+             /\ UNCHANGED << obj, pref, cref, doc, mark, keep, locked, waitq, 
+                             woken, result, rdata, stack, vtb_, vid_, vtb, vid, 
+                             vp_, vc_t, va_, vb_, vout, vmade, vrp, vrl_, vp_s, 
+                             vc_s, vx_, vc, vb_d, vx_d, vp_d, vc_, vcls, vrl, 
+                             va, vb, vx_de, vdels, vdocs, vf_, vp_de, vtodo, 
+                             vkeepl, vmarked, ve, vp_p, vf_p, vver, vp_g, vf_g, 
+                             vx_g, vp_del, vf, vx, vp >>
+
+pm3(self) == /\ pc[self] = "pm3"
+             /\ doc' = [doc EXCEPT ![vp_p[self]][vf_p[self]] = vver[self]]
+             /\ ev' = Ev(self, "rename", P("tmp", "metadata"), P("doc", vp_p[self] \o "/" \o vf_p[self]), "ok")
+             /\ pc' = [pc EXCEPT ![self] = "pm4"]
+             /\ UNCHANGED << obj, pref, cref, mark, keep, locked, waitq, woken, 
+                             result, rdata, stack, vtb_, vid_, vtb, vid, vp_, 
+                             vc_t, va_, vb_, vout, vmade, vrp, vrl_, vp_s, 
+                             vc_s, vx_, vc, vb_d, vx_d, vp_d, vc_, vcls, vrl, 
+                             va, vb, vx_de, vdels, vdocs, vf_, vp_de, vtodo, 
+                             vkeepl, vmarked, ve, vp_p, vf_p, vver, vp_g, vf_g, 
+                             vx_g, vp_del, vf, vx, vp >>
+
+pm4(self) == /\ pc[self] = "pm4"
+             /\ /\ stack' = [stack EXCEPT ![self] = << [ procedure |->  "release",
+                                                         pc        |->  "pm5",
+                                                         vtb       |->  vtb[self],
+                                                         vid       |->  vid[self] ] >>
+                                                     \o stack[self]]
+                /\ vid' = [vid EXCEPT ![self] = vp_p[self] \o "/" \o vf_p[self]]
+                /\ vtb' = [vtb EXCEPT ![self] = "doc"]
+             /\ pc' = [pc EXCEPT ![self] = "rl1"]
+             /\ UNCHANGED << obj, pref, cref, doc, mark, keep, locked, waitq, 
+                             woken, ev, result, rdata, vtb_, vid_, vp_, vc_t, 
+                             va_, vb_, vout, vmade, vrp, vrl_, vp_s, vc_s, vx_, 
+                             vc, vb_d, vx_d, vp_d, vc_, vcls, vrl, va, vb, 
+                             vx_de, vdels, vdocs, vf_, vp_de, vtodo, vkeepl, 
+                             vmarked, ve, vp_p, vf_p, vver, vp_g, vf_g, vx_g, 
+                             vp_del, vf, vx, vp >>
+
+pm5(self) == /\ pc[self] = "pm5"
+             /\ result' = [result EXCEPT ![self] = "ok"]
              /\ pc' = [pc EXCEPT ![self] = Head(stack[self]).pc]
-             /\ vtodo' = [vtodo EXCEPT ![self] = Head(stack[self]).vtodo]
-             /\ vmarked' = [vmarked EXCEPT ![self] = Head(stack[self]).vmarked]
+             /\ vp_p' = [vp_p EXCEPT ![self] = Head(stack[self]).vp_p]
+             /\ vf_p' = [vf_p EXCEPT ![self] = Head(stack[self]).vf_p]
+             /\ vver' = [vver EXCEPT ![self] = Head(stack[self]).vver]
+             /\ stack' = [stack EXCEPT ![self] = Tail(stack[self])]
+             /\ UNCHANGED << obj, pref, cref, doc, mark, keep, locked, waitq, 
+                             woken, ev, rdata, vtb_, vid_, vtb, vid, vp_, vc_t, 
+                             va_, vb_, vout, vmade, vrp, vrl_, vp_s, vc_s, vx_, 
+                             vc, vb_d, vx_d, vp_d, vc_, vcls, vrl, va, vb, 
+                             vx_de, vdels, vdocs, vf_, vp_de, vtodo, vkeepl, 
+                             vmarked, ve, vp_g, vf_g, vx_g, vp_del, vf, vx, vp >>
+
+putmeta(self) == pm1(self) \/ pm2(self) \/ pm3(self) \/ pm4(self)
+                    \/ pm5(self)
+
+gm1(self) == /\ pc[self] = "gm1"
+             /\ vx_g' = [vx_g EXCEPT ![self] = doc[vp_g[self]][vf_g[self]] # None]
+             /\ ev' = Ev(self, "stat", P("doc", vp_g[self] \o "/" \o vf_g[self]), NoPath, FN(vx_g'[self]))
+             /\ IF ~vx_g'[self]
+                   THEN /\ result' = [result EXCEPT ![self] = "notfound"]
+                        /\ pc' = [pc EXCEPT ![self] = "gm4"]
+                   ELSE /\ pc' = [pc EXCEPT ![self] = "gm2"]
+                        /\ UNCHANGED result
+             /\ UNCHANGED << obj, pref, cref, doc, mark, keep, locked, waitq, 
+                             woken, rdata, stack, vtb_, vid_, vtb, vid, vp_, 
+                             vc_t, va_, vb_, vout, vmade, vrp, vrl_, vp_s, 
+                             vc_s, vx_, vc, vb_d, vx_d, vp_d, vc_, vcls, vrl, 
+                             va, vb, vx_de, vdels, vdocs, vf_, vp_de, vtodo, 
+                             vkeepl, vmarked, ve, vp_p, vf_p, vver, vp_g, vf_g, 
+                             vp_del, vf, vx, vp >>
+
+gm2(self) == /\ pc[self] = "gm2"
+             /\ vx_g' = [vx_g EXCEPT ![self] = doc[vp_g[self]][vf_g[self]] # None]
+             /\ ev' = Ev(self, "stat", P("doc", vp_g[self] \o "/" \o vf_g[self]), NoPath, FN(vx_g'[self]))
+             /\ IF ~vx_g'[self]
+                   THEN /\ result' = [result EXCEPT ![self] = "notfound"]
+                        /\ pc' = [pc EXCEPT ![self] = "gm4"]
+                   ELSE /\ pc' = [pc EXCEPT ![self] = "gm3"]
+                        /\ UNCHANGED result
+             /\ UNCHANGED << obj, pref, cref, doc, mark, keep, locked, waitq, 
+                             woken, rdata, stack, vtb_, vid_, vtb, vid, vp_, 
+                             vc_t, va_, vb_, vout, vmade, vrp, vrl_, vp_s, 
+                             vc_s, vx_, vc, vb_d, vx_d, vp_d, vc_, vcls, vrl, 
+                             va, vb, vx_de, vdels, vdocs, vf_, vp_de, vtodo, 
+                             vkeepl, vmarked, ve, vp_p, vf_p, vver, vp_g, vf_g, 
+                             vp_del, vf, vx, vp >>
+
+gm3(self) == /\ pc[self] = "gm3"
+             /\ IF doc[vp_g[self]][vf_g[self]] = None
+                   THEN /\ ev' = Ev(self, "read", P("doc", vp_g[self] \o "/" \o vf_g[self]), NoPath, "!fnf")
+                        /\ result' = [result EXCEPT ![self] = "notfound"]
+                        /\ rdata' = rdata
+                   ELSE /\ ev' = EvV(self, "read", P("doc", vp_g[self] \o "/" \o vf_g[self]), NoPath, "ok", <<doc[vp_g[self]][vf_g[self]]>>)
+                        /\ result' = [result EXCEPT ![self] = "ok"]
+                        /\ rdata' = [rdata EXCEPT ![self] = doc[vp_g[self]][vf_g[self]]]
+             /\ pc' = [pc EXCEPT ![self] = "gm4"]
+             /\ UNCHANGED << obj, pref, cref, doc, mark, keep, locked, waitq, 
+                             woken, stack, vtb_, vid_, vtb, vid, vp_, vc_t, 
+                             va_, vb_, vout, vmade, vrp, vrl_, vp_s, vc_s, vx_, 
+                             vc, vb_d, vx_d, vp_d, vc_, vcls, vrl, va, vb, 
+                             vx_de, vdels, vdocs, vf_, vp_de, vtodo, vkeepl, 
+                             vmarked, ve, vp_p, vf_p, vver, vp_g, vf_g, vx_g, 
+                             vp_del, vf, vx, vp >>
+
+gm4(self) == /\ pc[self] = "gm4"
+             /\ pc' = [pc EXCEPT ![self] = Head(stack[self]).pc]
+             /\ vx_g' = [vx_g EXCEPT ![self] = Head(stack[self]).vx_g]
+             /\ vp_g' = [vp_g EXCEPT ![self] = Head(stack[self]).vp_g]
+             /\ vf_g' = [vf_g EXCEPT ![self] = Head(stack[self]).vf_g]
+             /\ stack' = [stack EXCEPT ![self] = Tail(stack[self])]
+             /\ UNCHANGED << obj, pref, cref, doc, mark, keep, locked, waitq, 
+                             woken, ev, result, rdata, vtb_, vid_, vtb, vid, 
+                             vp_, vc_t, va_, vb_, vout, vmade, vrp, vrl_, vp_s, 
+                             vc_s, vx_, vc, vb_d, vx_d, vp_d, vc_, vcls, vrl, 
+                             va, vb, vx_de, vdels, vdocs, vf_, vp_de, vtodo, 
+                             vkeepl, vmarked, ve, vp_p, vf_p, vver, vp_del, vf, 
+                             vx, vp >>
+
+getmeta(self) == gm1(self) \/ gm2(self) \/ gm3(self) \/ gm4(self)
+
+do1(self) == /\ pc[self] = "do1"
+             /\ /\ stack' = [stack EXCEPT ![self] = << [ procedure |->  "claim",
+                                                         pc        |->  "do2",
+                                                         vtb_      |->  vtb_[self],
+                                                         vid_      |->  vid_[self] ] >>
+                                                     \o stack[self]]
+                /\ vid_' = [vid_ EXCEPT ![self] = vp_del[self] \o "/" \o vf[self]]
+                /\ vtb_' = [vtb_ EXCEPT ![self] = "doc"]
+             /\ pc' = [pc EXCEPT ![self] = "cl1"]
+             /\ UNCHANGED << obj, pref, cref, doc, mark, keep, locked, waitq, 
+                             woken, ev, result, rdata, vtb, vid, vp_, vc_t, 
+                             va_, vb_, vout, vmade, vrp, vrl_, vp_s, vc_s, vx_, 
+                             vc, vb_d, vx_d, vp_d, vc_, vcls, vrl, va, vb, 
+                             vx_de, vdels, vdocs, vf_, vp_de, vtodo, vkeepl, 
+                             vmarked, ve, vp_p, vf_p, vver, vp_g, vf_g, vx_g, 
+                             vp_del, vf, vx, vp >>
+
+do2(self) == /\ pc[self] = "do2"
+             /\ vx' = [vx EXCEPT ![self] = doc[vp_del[self]][vf[self]] # None]
+             /\ ev' = Ev(self, "stat", P("doc", vp_del[self] \o "/" \o vf[self]), NoPath, FN(vx'[self]))
+             /\ IF vx'[self]
+                   THEN /\ pc' = [pc EXCEPT ![self] = "do3"]
+                   ELSE /\ pc' = [pc EXCEPT ![self] = "do4"]
+             /\ UNCHANGED << obj, pref, cref, doc, mark, keep, locked, waitq, 
+                             woken, result, rdata, stack, vtb_, vid_, vtb, vid, 
+                             vp_, vc_t, va_, vb_, vout, vmade, vrp, vrl_, vp_s, 
+                             vc_s, vx_, vc, vb_d, vx_d, vp_d, vc_, vcls, vrl, 
+                             va, vb, vx_de, vdels, vdocs, vf_, vp_de, vtodo, 
+                             vkeepl, vmarked, ve, vp_p, vf_p, vver, vp_g, vf_g, 
+                             vx_g, vp_del, vf, vp >>
+
+do3(self) == /\ pc[self] = "do3"
+             /\ IF doc[vp_del[self]][vf[self]] = None
+                   THEN /\ ev' = Ev(self, "remove", P("doc", vp_del[self] \o "/" \o vf[self]), NoPath, "!fnf")
+                        /\ result' = [result EXCEPT ![self] = "ioerror"]
+                        /\ doc' = doc
+                   ELSE /\ doc' = [doc EXCEPT ![vp_del[self]][vf[self]] = None]
+                        /\ ev' = Ev(self, "remove", P("doc", vp_del[self] \o "/" \o vf[self]), NoPath, "ok")
+                        /\ UNCHANGED result
+             /\ pc' = [pc EXCEPT ![self] = "do5"]
+             /\ UNCHANGED << obj, pref, cref, mark, keep, locked, waitq, woken, 
+                             rdata, stack, vtb_, vid_, vtb, vid, vp_, vc_t, 
+                             va_, vb_, vout, vmade, vrp, vrl_, vp_s, vc_s, vx_, 
+                             vc, vb_d, vx_d, vp_d, vc_, vcls, vrl, va, vb, 
+                             vx_de, vdels, vdocs, vf_, vp_de, vtodo, vkeepl, 
+                             vmarked, ve, vp_p, vf_p, vver, vp_g, vf_g, vx_g, 
+                             vp_del, vf, vx, vp >>
+
+do4(self) == /\ pc[self] = "do4"
+             /\ ev' = Ev(self, "stat", P("doc", vp_del[self] \o "/" \o vf[self]), NoPath, FN(doc[vp_del[self]][vf[self]] # None))
+             /\ pc' = [pc EXCEPT ![self] = "do5"]
+             /\ UNCHANGED << obj, pref, cref, doc, mark, keep, locked, waitq, 
+                             woken, result, rdata, stack, vtb_, vid_, vtb, vid, 
+                             vp_, vc_t, va_, vb_, vout, vmade, vrp, vrl_, vp_s, 
+                             vc_s, vx_, vc, vb_d, vx_d, vp_d, vc_, vcls, vrl, 
+                             va, vb, vx_de, vdels, vdocs, vf_, vp_de, vtodo, 
+                             vkeepl, vmarked, ve, vp_p, vf_p, vver, vp_g, vf_g, 
+                             vx_g, vp_del, vf, vx, vp >>
+
+do5(self) == /\ pc[self] = "do5"
+             /\ /\ stack' = [stack EXCEPT ![self] = << [ procedure |->  "release",
+                                                         pc        |->  "do6",
+                                                         vtb       |->  vtb[self],
+                                                         vid       |->  vid[self] ] >>
+                                                     \o stack[self]]
+                /\ vid' = [vid EXCEPT ![self] = vp_del[self] \o "/" \o vf[self]]
+                /\ vtb' = [vtb EXCEPT ![self] = "doc"]
+             /\ pc' = [pc EXCEPT ![self] = "rl1"]
+             /\ UNCHANGED << obj, pref, cref, doc, mark, keep, locked, waitq, 
+                             woken, ev, result, rdata, vtb_, vid_, vp_, vc_t, 
+                             va_, vb_, vout, vmade, vrp, vrl_, vp_s, vc_s, vx_, 
+                             vc, vb_d, vx_d, vp_d, vc_, vcls, vrl, va, vb, 
+                             vx_de, vdels, vdocs, vf_, vp_de, vtodo, vkeepl, 
+                             vmarked, ve, vp_p, vf_p, vver, vp_g, vf_g, vx_g, 
+                             vp_del, vf, vx, vp >>
+
+do6(self) == /\ pc[self] = "do6"
+             /\ IF result[self] = "-"
+                   THEN /\ result' = [result EXCEPT ![self] = "ok"]
+                   ELSE /\ TRUE
+                        /\ UNCHANGED result
+             /\ pc' = [pc EXCEPT ![self] = Head(stack[self]).pc]
+             /\ vx' = [vx EXCEPT ![self] = Head(stack[self]).vx]
+             /\ vp_del' = [vp_del EXCEPT ![self] = Head(stack[self]).vp_del]
              /\ vf' = [vf EXCEPT ![self] = Head(stack[self]).vf]
+             /\ stack' = [stack EXCEPT ![self] = Tail(stack[self])]
+             /\ UNCHANGED << obj, pref, cref, doc, mark, keep, locked, waitq, 
+                             woken, ev, rdata, vtb_, vid_, vtb, vid, vp_, vc_t, 
+                             va_, vb_, vout, vmade, vrp, vrl_, vp_s, vc_s, vx_, 
+                             vc, vb_d, vx_d, vp_d, vc_, vcls, vrl, va, vb, 
+                             vx_de, vdels, vdocs, vf_, vp_de, vtodo, vkeepl, 
+                             vmarked, ve, vp_p, vf_p, vver, vp_g, vf_g, vx_g, 
+                             vp >>
+
+delmeta_one(self) == do1(self) \/ do2(self) \/ do3(self) \/ do4(self)
+                        \/ do5(self) \/ do6(self)
+
+dt1(self) == /\ pc[self] = "dt1"
+             /\ /\ stack' = [stack EXCEPT ![self] = << [ procedure |->  "delmeta_all",
+                                                         pc        |->  "dt2",
+                                                         vtodo     |->  vtodo[self],
+                                                         vkeepl    |->  vkeepl[self],
+                                                         vmarked   |->  vmarked[self],
+                                                         ve        |->  ve[self],
+                                                         vp_de     |->  vp_de[self] ] >>
+                                                     \o stack[self]]
+                /\ vp_de' = [vp_de EXCEPT ![self] = vp[self]]
+             /\ vtodo' = [vtodo EXCEPT ![self] = {}]
+             /\ vkeepl' = [vkeepl EXCEPT ![self] = {}]
+             /\ vmarked' = [vmarked EXCEPT ![self] = {}]
+             /\ ve' = [ve EXCEPT ![self] = <<"-", "-">>]
+             /\ pc' = [pc EXCEPT ![self] = "dm1"]
+             /\ UNCHANGED << obj, pref, cref, doc, mark, keep, locked, waitq, 
+                             woken, ev, result, rdata, vtb_, vid_, vtb, vid, 
+                             vp_, vc_t, va_, vb_, vout, vmade, vrp, vrl_, vp_s, 
+                             vc_s, vx_, vc, vb_d, vx_d, vp_d, vc_, vcls, vrl, 
+                             va, vb, vx_de, vdels, vdocs, vf_, vp_p, vf_p, 
+                             vver, vp_g, vf_g, vx_g, vp_del, vf, vx, vp >>
+
+dt2(self) == /\ pc[self] = "dt2"
+             /\ result' = [result EXCEPT ![self] = "ok"]
+             /\ pc' = [pc EXCEPT ![self] = Head(stack[self]).pc]
              /\ vp' = [vp EXCEPT ![self] = Head(stack[self]).vp]
              /\ stack' = [stack EXCEPT ![self] = Tail(stack[self])]
              /\ UNCHANGED << obj, pref, cref, doc, mark, keep, locked, waitq, 
-                             woken, ev, result, vtb_, vid_, vtb, vid, vp_, 
-                             vc_t, va_, vb_, vout, vmade, vrp, vrl_, vp_s, 
-                             vc_s, vx_, vc, vb_d, vx_d, vp_d, vc_, vcls, vrl, 
-                             va, vb, vx, vdels, vdocs, vf_ >>
+                             woken, ev, rdata, vtb_, vid_, vtb, vid, vp_, vc_t, 
+                             va_, vb_, vout, vmade, vrp, vrl_, vp_s, vc_s, vx_, 
+                             vc, vb_d, vx_d, vp_d, vc_, vcls, vrl, va, vb, 
+                             vx_de, vdels, vdocs, vf_, vp_de, vtodo, vkeepl, 
+                             vmarked, ve, vp_p, vf_p, vver, vp_g, vf_g, vx_g, 
+                             vp_del, vf, vx >>
 
-delmeta_all(self) == dm1(self) \/ dm2(self) \/ dm3(self) \/ dm4(self)
-                        \/ dm5(self) \/ dm6(self) \/ dm7(self) \/ dm8(self)
-                        \/ dm9(self)
+delmeta_top(self) == dt1(self) \/ dt2(self)
 
 run(self) == /\ pc[self] = "run"
              /\ IF Job[self].op = "store"
@@ -2040,8 +2777,9 @@ run(self) == /\ pc[self] = "run"
                         /\ pc' = [pc EXCEPT ![self] = "st1"]
                         /\ UNCHANGED << result, vp_, vc_t, va_, vb_, vout, 
                                         vmade, vrp, vrl_, vc, vb_d, vx_d, vp_d, 
-                                        vc_, vcls, vrl, va, vb, vx, vdels, 
-                                        vdocs, vf_ >>
+                                        vc_, vcls, vrl, va, vb, vx_de, vdels, 
+                                        vdocs, vf_, vp_p, vf_p, vver, vp_g, 
+                                        vf_g, vx_g, vp_del, vf, vx, vp >>
                    ELSE /\ IF Job[self].op = "storenp"
                               THEN /\ /\ stack' = [stack EXCEPT ![self] = << [ procedure |->  "store",
                                                                                pc        |->  "fin",
@@ -2056,8 +2794,10 @@ run(self) == /\ pc[self] = "run"
                                    /\ UNCHANGED << result, vp_, vc_t, va_, vb_, 
                                                    vout, vmade, vrp, vrl_, vc, 
                                                    vb_d, vx_d, vp_d, vc_, vcls, 
-                                                   vrl, va, vb, vx, vdels, 
-                                                   vdocs, vf_ >>
+                                                   vrl, va, vb, vx_de, vdels, 
+                                                   vdocs, vf_, vp_p, vf_p, 
+                                                   vver, vp_g, vf_g, vx_g, 
+                                                   vp_del, vf, vx, vp >>
                               ELSE /\ IF Job[self].op = "tag"
                                          THEN /\ /\ stack' = [stack EXCEPT ![self] = << [ procedure |->  "tag",
                                                                                           pc        |->  "fin",
@@ -2082,8 +2822,12 @@ run(self) == /\ pc[self] = "run"
                                               /\ UNCHANGED << result, vc, vb_d, 
                                                               vx_d, vp_d, vc_, 
                                                               vcls, vrl, va, 
-                                                              vb, vx, vdels, 
-                                                              vdocs, vf_ >>
+                                                              vb, vx_de, vdels, 
+                                                              vdocs, vf_, vp_p, 
+                                                              vf_p, vver, vp_g, 
+                                                              vf_g, vx_g, 
+                                                              vp_del, vf, vx, 
+                                                              vp >>
                                          ELSE /\ IF Job[self].op = "delete"
                                                     THEN /\ /\ stack' = [stack EXCEPT ![self] = << [ procedure |->  "delete",
                                                                                                      pc        |->  "fin",
@@ -2092,7 +2836,7 @@ run(self) == /\ pc[self] = "run"
                                                                                                      vrl       |->  vrl[self],
                                                                                                      va        |->  va[self],
                                                                                                      vb        |->  vb[self],
-                                                                                                     vx        |->  vx[self],
+                                                                                                     vx_de     |->  vx_de[self],
                                                                                                      vdels     |->  vdels[self],
                                                                                                      vdocs     |->  vdocs[self],
                                                                                                      vf_       |->  vf_[self],
@@ -2104,7 +2848,7 @@ run(self) == /\ pc[self] = "run"
                                                          /\ vrl' = [vrl EXCEPT ![self] = <<>>]
                                                          /\ va' = [va EXCEPT ![self] = FALSE]
                                                          /\ vb' = [vb EXCEPT ![self] = FALSE]
-                                                         /\ vx' = [vx EXCEPT ![self] = FALSE]
+                                                         /\ vx_de' = [vx_de EXCEPT ![self] = FALSE]
                                                          /\ vdels' = [vdels EXCEPT ![self] = {}]
                                                          /\ vdocs' = [vdocs EXCEPT ![self] = {}]
                                                          /\ vf_' = [vf_ EXCEPT ![self] = "-"]
@@ -2112,7 +2856,17 @@ run(self) == /\ pc[self] = "run"
                                                          /\ UNCHANGED << result, 
                                                                          vc, 
                                                                          vb_d, 
-                                                                         vx_d >>
+                                                                         vx_d, 
+                                                                         vp_p, 
+                                                                         vf_p, 
+                                                                         vver, 
+                                                                         vp_g, 
+                                                                         vf_g, 
+                                                                         vx_g, 
+                                                                         vp_del, 
+                                                                         vf, 
+                                                                         vx, 
+                                                                         vp >>
                                                     ELSE /\ IF Job[self].op = "dii"
                                                                THEN /\ IF Job[self].val = "good"
                                                                           THEN /\ result' = [result EXCEPT ![self] = "ok"]
@@ -2132,9 +2886,84 @@ run(self) == /\ pc[self] = "run"
                                                                                /\ vx_d' = [vx_d EXCEPT ![self] = FALSE]
                                                                                /\ pc' = [pc EXCEPT ![self] = "di1"]
                                                                                /\ UNCHANGED result
-                                                               ELSE /\ pc' = [pc EXCEPT ![self] = "fin"]
+                                                                    /\ UNCHANGED << vp_p, 
+                                                                                    vf_p, 
+                                                                                    vver, 
+                                                                                    vp_g, 
+                                                                                    vf_g, 
+                                                                                    vx_g, 
+                                                                                    vp_del, 
+                                                                                    vf, 
+                                                                                    vx, 
+                                                                                    vp >>
+                                                               ELSE /\ IF Job[self].op = "putmeta"
+                                                                          THEN /\ /\ stack' = [stack EXCEPT ![self] = << [ procedure |->  "putmeta",
+                                                                                                                           pc        |->  "fin",
+                                                                                                                           vp_p      |->  vp_p[self],
+                                                                                                                           vf_p      |->  vf_p[self],
+                                                                                                                           vver      |->  vver[self] ] >>
+                                                                                                                       \o stack[self]]
+                                                                                  /\ vf_p' = [vf_p EXCEPT ![self] = EffFmt(Job[self].fmt)]
+                                                                                  /\ vp_p' = [vp_p EXCEPT ![self] = Job[self].pid]
+                                                                                  /\ vver' = [vver EXCEPT ![self] = Job[self].ver]
+                                                                               /\ pc' = [pc EXCEPT ![self] = "pm1"]
+                                                                               /\ UNCHANGED << vp_g, 
+                                                                                               vf_g, 
+                                                                                               vx_g, 
+                                                                                               vp_del, 
+                                                                                               vf, 
+                                                                                               vx, 
+                                                                                               vp >>
+                                                                          ELSE /\ IF Job[self].op = "getmeta"
+                                                                                     THEN /\ /\ stack' = [stack EXCEPT ![self] = << [ procedure |->  "getmeta",
+                                                                                                                                      pc        |->  "fin",
+                                                                                                                                      vx_g      |->  vx_g[self],
+                                                                                                                                      vp_g      |->  vp_g[self],
+                                                                                                                                      vf_g      |->  vf_g[self] ] >>
+                                                                                                                                  \o stack[self]]
+                                                                                             /\ vf_g' = [vf_g EXCEPT ![self] = EffFmt(Job[self].fmt)]
+                                                                                             /\ vp_g' = [vp_g EXCEPT ![self] = Job[self].pid]
+                                                                                          /\ vx_g' = [vx_g EXCEPT ![self] = FALSE]
+                                                                                          /\ pc' = [pc EXCEPT ![self] = "gm1"]
+                                                                                          /\ UNCHANGED << vp_del, 
+                                                                                                          vf, 
+                                                                                                          vx, 
+                                                                                                          vp >>
+                                                                                     ELSE /\ IF Job[self].op = "delmeta"
+                                                                                                THEN /\ IF Job[self].fmt = NoFmt
+                                                                                                           THEN /\ /\ stack' = [stack EXCEPT ![self] = << [ procedure |->  "delmeta_top",
+                                                                                                                                                            pc        |->  "fin",
+                                                                                                                                                            vp        |->  vp[self] ] >>
+                                                                                                                                                        \o stack[self]]
+                                                                                                                   /\ vp' = [vp EXCEPT ![self] = Job[self].pid]
+                                                                                                                /\ pc' = [pc EXCEPT ![self] = "dt1"]
+                                                                                                                /\ UNCHANGED << vp_del, 
+                                                                                                                                vf, 
+                                                                                                                                vx >>
+                                                                                                           ELSE /\ /\ stack' = [stack EXCEPT ![self] = << [ procedure |->  "delmeta_one",
+                                                                                                                                                            pc        |->  "fin",
+                                                                                                                                                            vx        |->  vx[self],
+                                                                                                                                                            vp_del    |->  vp_del[self],
+                                                                                                                                                            vf        |->  vf[self] ] >>
+                                                                                                                                                        \o stack[self]]
+                                                                                                                   /\ vf' = [vf EXCEPT ![self] = Job[self].fmt]
+                                                                                                                   /\ vp_del' = [vp_del EXCEPT ![self] = Job[self].pid]
+                                                                                                                /\ vx' = [vx EXCEPT ![self] = FALSE]
+                                                                                                                /\ pc' = [pc EXCEPT ![self] = "do1"]
+                                                                                                                /\ vp' = vp
+                                                                                                ELSE /\ pc' = [pc EXCEPT ![self] = "fin"]
+                                                                                                     /\ UNCHANGED << stack, 
+                                                                                                                     vp_del, 
+                                                                                                                     vf, 
+                                                                                                                     vx, 
+                                                                                                                     vp >>
+                                                                                          /\ UNCHANGED << vp_g, 
+                                                                                                          vf_g, 
+                                                                                                          vx_g >>
+                                                                               /\ UNCHANGED << vp_p, 
+                                                                                               vf_p, 
+                                                                                               vver >>
                                                                     /\ UNCHANGED << result, 
-                                                                                    stack, 
                                                                                     vc, 
                                                                                     vb_d, 
                                                                                     vx_d >>
@@ -2144,7 +2973,7 @@ run(self) == /\ pc[self] = "run"
                                                                          vrl, 
                                                                          va, 
                                                                          vb, 
-                                                                         vx, 
+                                                                         vx_de, 
                                                                          vdels, 
                                                                          vdocs, 
                                                                          vf_ >>
@@ -2153,18 +2982,19 @@ run(self) == /\ pc[self] = "run"
                                                               vrp, vrl_ >>
                                    /\ UNCHANGED << vp_s, vc_s, vx_ >>
              /\ UNCHANGED << obj, pref, cref, doc, mark, keep, locked, waitq, 
-                             woken, ev, vtb_, vid_, vtb, vid, vp, vtodo, 
-                             vmarked, vf >>
+                             woken, ev, rdata, vtb_, vid_, vtb, vid, vp_de, 
+                             vtodo, vkeepl, vmarked, ve >>
 
 fin(self) == /\ pc[self] = "fin"
              /\ TRUE
              /\ pc' = [pc EXCEPT ![self] = "Done"]
              /\ UNCHANGED << obj, pref, cref, doc, mark, keep, locked, waitq, 
-                             woken, ev, result, stack, vtb_, vid_, vtb, vid, 
-                             vp_, vc_t, va_, vb_, vout, vmade, vrp, vrl_, vp_s, 
-                             vc_s, vx_, vc, vb_d, vx_d, vp_d, vc_, vcls, vrl, 
-                             va, vb, vx, vdels, vdocs, vf_, vp, vtodo, vmarked, 
-                             vf >>
+                             woken, ev, result, rdata, stack, vtb_, vid_, vtb, 
+                             vid, vp_, vc_t, va_, vb_, vout, vmade, vrp, vrl_, 
+                             vp_s, vc_s, vx_, vc, vb_d, vx_d, vp_d, vc_, vcls, 
+                             vrl, va, vb, vx_de, vdels, vdocs, vf_, vp_de, 
+                             vtodo, vkeepl, vmarked, ve, vp_p, vf_p, vver, 
+                             vp_g, vf_g, vx_g, vp_del, vf, vx, vp >>
 
 proc(self) == run(self) \/ fin(self)
 
@@ -2174,7 +3004,9 @@ Terminating == /\ \A self \in ProcSet: pc[self] = "Done"
 
 Next == (\E self \in ProcSet:  \/ claim(self) \/ release(self) \/ tag(self)
                                \/ store(self) \/ diibad(self)
-                               \/ delete(self) \/ delmeta_all(self))
+                               \/ delete(self) \/ delmeta_all(self)
+                               \/ putmeta(self) \/ getmeta(self)
+                               \/ delmeta_one(self) \/ delmeta_top(self))
            \/ (\E self \in Thread: proc(self))
            \/ Terminating
 
@@ -2184,6 +3016,10 @@ Spec == /\ Init /\ [][Next]_vars
                                 /\ WF_vars(tag(self))
                                 /\ WF_vars(delete(self))
                                 /\ WF_vars(diibad(self))
+                                /\ WF_vars(putmeta(self))
+                                /\ WF_vars(getmeta(self))
+                                /\ WF_vars(delmeta_top(self))
+                                /\ WF_vars(delmeta_one(self))
                                 /\ WF_vars(claim(self))
                                 /\ WF_vars(release(self))
                                 /\ WF_vars(delmeta_all(self))
